@@ -15,29 +15,29 @@ func init() {
 	register(&PropSpec{
 		ID:    "C01",
 		Title: "Every storage backend behaves as a content-addressed map",
-		Explanation: "Decided (structural necessary conditions, all over the type-checked SSA of the current tree): " +
-			"E-close — every declared EnumerateBlobs/StreamBlobs method of every implementer of blobserver.BlobEnumerator/BlobStreamer (and every function such a method hands its channel to) reaches every non-panic exit with dest closed exactly once: by close, a registered defer, a deferred/spawned literal that closes on all its paths, or by handing dest to a callee that is itself checked (interface EnumerateBlobs/StreamBlobs calls discharge by contract because every implementer is in the instance set); no path closes twice. One exception, re-checked structurally on every run: cond.(*condStorage).EnumerateBlobs' exit with sto.read == nil is pruned only while every condStorage is built by a function that stores Loader.GetStorage's result into .read and returns the object only on that call's err == nil edge. " +
-			"E-cursor — for the backends C01 names plus the index: a leaf enumerator skips, within the same loop iteration, every element whose key compares <= the cursor (or == when the iterator was positioned by an inclusive sorted.KeyValue.Find on the cursor); a merging enumerator forwards the cursor to every sub-enumeration; a forwarding enumerator passes on a cursor built only from `after`; a cursor test hidden in a helper function is reported undecided, never passed. " +
-			"E-limit — a leaf/merging enumerator has a comparison between a send counter and limit (or a decremented limit and 0) whose stop edge reaches no further send, that is re-evaluated in the loop of the send, stops at count >= limit (not limit+1), and whose counter (a captured variable, or a register followed through the phis of nested loops and of conditional steps) is updated on the path of the send; forwarders pass on a limit derived from `limit`. " +
-			"S-route — in shard every read index into shardStorage.shards is computed by shardNum, shardNum is a function of the ref and the shard count only, each shard() caller passes the same ref to the chosen shard, and batchedShards files each ref under shardNum(ref) and hands each shard exactly the list filed under its own index. " +
-			"O-tomb — overlay: a nil-error ReceiveBlob implies upper.ReceiveBlob succeeded and, when a tombstone store exists, the tombstone of the same ref was deleted successfully; a nil-error RemoveBlobs implies a committed batch that Sets every ref; Fetch, StatBlobs and EnumerateBlobs yield only under isDeleted == false for the ref yielded; isDeleted answers true only on a successful Get of the ref's key; all tombstone keys are Ref.String() of the ref. " +
-			"M-dedup — mergedEnumerate: the discard predicate, evaluated symbolically for ref <, ==, > lastSent, means ref <= lastSent (and false before anything was sent), Take() happens only under that predicate being true for the peeked ref of the same peeker, the filter precedes the selection of the candidate from the same peeker in every iteration, and lastSent is assigned the sent ref in the sending iteration. " +
-			"M-lowest — mergedEnumerate replaces the merge candidate only on the true edge of Less(new candidate, current lowest). " +
-			"E-sorted — a leaf enumerator of the C01 backends that does not iterate a sorted.KeyValue (memory, files) sorts the very slice it ranges over for its sends, before the sends. " +
-			"E-refill — filtering re-enumerators, computed over every dest-owning function of every implementer of BlobEnumerator (today: overlay only): a loop that starts a sub-enumeration on a fresh channel (directly or through a literal it starts), drains that channel in a nested receive loop that sends on dest on some iterations only, and goes round again. The integer variables of the round are classified by how they evolve, not by name or form (send counter: 0 before the loop and +1 exactly in the blocks entered when an element was sent on dest, or the mirror-image budget that starts at limit and is decremented there; per-round receive counter: 0 at the start of each round and +1 once per iteration of the receive loop; registers and captured variables alike), and the code before and after the receive loop is then evaluated in every world with limit 1..6, 0..limit sent before the round, R requested, 0..R received, 0..received sent, following both edges of every branch that cannot be evaluated. Decided per refill loop: (request) every round asks for at least 1 and at most limit-sent elements; (exit) every return that can report success lies only in worlds where the page is full or this round received fewer than this round asked for; (progress) the loop goes round again only in worlds where this round received something; (cursor) on every path to the next round the cursor passed to the sub-enumeration is Ref.String() of a variable that every iteration of the receive loop overwrites with the received ref (last received, not last sent). Shapes that cannot be followed (elements received through a helper or peeker, receive loop left by a success return or break, cursor assigned at several places) are reported undecided. " +
+		Explanation: "Decided (structural necessary conditions, all over the type-checked SSA of the current tree). Where a rule below speaks of a site 'in' an enumerator, a storage method or the merge function, it is looked for in that function's EFFECTIVE BODY: the function, its function literals and, transitively (4 levels), the unexported functions and methods of its package and the literals it calls statically; a helper's parameter stands for the argument at the helper's calls inside the body, a helper call's result for the operands of the helper's returns, branch facts at the (single) call of a helper hold inside it, a branch on a bool helper carries the comparisons the helper returns or branches on, and 'P succeeded before Q' holds when P sits in a helper every nil-error return of which lies behind P's err == nil edge (or returns P's error). Unexported names are never anchors: the overlay and shard types, their fields, the tombstone predicate, the routing function and the merge function are found by role (interface implemented, field type, what they call); only exported API (interfaces, interface methods, MergedEnumerate) is named. " +
+			"E-close — every declared EnumerateBlobs/StreamBlobs method of every implementer of blobserver.BlobEnumerator/BlobStreamer (and every function such a method hands its channel to) reaches every non-panic exit with dest closed exactly once: by close, a registered defer, a deferred/spawned literal that closes on all its paths, or by handing dest to a callee that is itself checked (interface EnumerateBlobs/StreamBlobs calls discharge by contract because every implementer is in the instance set); no path closes twice. One exception, re-checked structurally on every run and located by role (any enumerator method of package cond that branches on `recv.field == nil`): the exit taken when that storage field is nil is pruned only while every value of the receiver's type is built by a function that stores Loader.GetStorage's result into that field and returns the object only on that call's err == nil edge, and nothing else ever stores to the field. " +
+			"E-cursor — for the backends C01 names plus the index: a leaf enumerator skips, within the same loop iteration, every element whose key compares <= the cursor (or == when the iterator was positioned by an inclusive sorted.KeyValue.Find on the cursor); a merging enumerator forwards the cursor to every sub-enumeration; a forwarding enumerator passes on a cursor built only from `after`; the comparison may sit in a bool helper the branch calls (a comparison the helper returns, or one it branches on, with the edges continued through the helper's possible results), the guard may be established around the send itself or - when the send sits in a helper or a local closure that is handed/captures dest - at every call of that helper, edges on which the cursor is known to be empty (`after != \"\"`, `len(after) > 0`) are not followed because nothing is <= an empty cursor; a cursor test in a helper that cannot be followed this way is reported undecided, never passed. " +
+			"E-limit — a leaf/merging enumerator has a comparison between a send counter and limit (or a decremented limit and 0) whose stop edge reaches no further send, that is re-evaluated in the loop of the send, stops at count >= limit (not limit+1), and whose counter (a captured variable, or a register followed through the phis of nested loops and of conditional steps) is updated on the path of the send; the comparison may be the branch's own, one known to hold on entry of the branch whose edge stops the sends (`n == limit && limit > 0`), or one inside a bool helper the branch calls; a call of a helper or closure that sends counts as a send of the caller, and the bound may be established at any level of that chain; forwarders pass on a limit derived from `limit`. " +
+			"S-route — in shard (type and shard-list field found by role) the index expression of every routing read of the shard list - also when the read sits in an accessor helper, then per call of the accessor - is rendered symbolically, through the helpers of the package it calls, as a term over REF (one blob.Ref) and N (len of the shard list): every read must render (a term that reads anything else is reported on the helper it occurs in), all reads must render to the SAME term (today (Ref.Sum32(REF)%N)), the routed shard is used with that same ref (followed to the callers when a helper returns it), and a map-routed read (batchedShards) files each ref under the term of that ref and hands each shard exactly the list filed under its own key. " +
+			"O-tomb — overlay (type, upper/lower/tombstone fields and the tombstone predicate found by role; entry points are the interface methods, sites looked for in their effective bodies): a nil-error ReceiveBlob implies upper.ReceiveBlob succeeded and, when a tombstone store exists, the tombstone of the same ref was deleted successfully; a nil-error RemoveBlobs implies a committed batch that Sets every ref; Fetch, StatBlobs and EnumerateBlobs yield only under isDeleted == false for the ref yielded; isDeleted answers true only on a successful Get of the ref's key; all tombstone keys are Ref.String() of the ref. " +
+			"M-dedup — every enumerator instance that sends on dest and whose effective body drives blob.ChanPeekers (today blobserver.mergedEnumerate): the discard predicate - a literal, a named function or a method, comparing the peeked ref with a remembered ref held in a captured variable, a struct field or passed as a parameter - evaluated symbolically for ref <, ==, > last, means ref <= last (and false before anything was sent), Take() happens only under that predicate being true for the peeked ref of the same peeker, the filter precedes the selection of the candidate from the same peeker in every iteration (lifted to a common function when one of the two sits in a helper), and the remembered ref (variable, field or loop-carried value) is assigned the sent ref in the sending iteration. " +
+			"M-lowest — in the same instances the candidate variable the sent value is read from (followed into the helper that returns it) is replaced only on the true edge of Less(new candidate, current lowest). " +
+			"E-sorted — a leaf enumerator of the C01 backends that does not iterate a sorted.KeyValue (memory, files) sorts the very slice it ranges over for its sends, before the sends: a sorting call on that slice precedes the send on every path, directly, in a helper that sorts its parameter on every path, in a helper every return of which returns the slice sorted, or - when the send loop lives in a helper - at every call of that helper. " +
+			"E-refill — filtering re-enumerators, computed over every dest-owning function of every implementer of BlobEnumerator (today: overlay only): a loop that starts a sub-enumeration on a fresh channel (directly, through a literal it starts, or through a named helper it calls/starts with channel, cursor and limit as arguments), drains that channel in a nested receive loop that sends on dest on some iterations only, and goes round again. The integer variables of the round are classified by how they evolve, not by name or form (send counter: 0 before the loop and +1 exactly in the blocks entered when an element was sent on dest, or the mirror-image budget that starts at limit and is decremented there; per-round receive counter: 0 at the start of each round and +1 once per iteration of the receive loop; registers and captured variables alike), and the code before and after the receive loop is then evaluated in every world with limit 1..6, 0..limit sent before the round, R requested, 0..R received, 0..received sent, following both edges of every branch that cannot be evaluated. Decided per refill loop: (request) every round asks for at least 1 and at most limit-sent elements; (exit) every return that can report success lies only in worlds where the page is full or this round received fewer than this round asked for; (progress) the loop goes round again only in worlds where this round received something; (cursor) on every path to the next round the cursor passed to the sub-enumeration is Ref.String() of a variable that every iteration of the receive loop overwrites with the received ref (last received, not last sent). The receive loop may have been moved into a helper the refill loop calls with the round's channel and dest (`seen, n, last := h(ch, dest)`, or with the running send counter passed in and handed back): the helper's own receive loop must then have the shape above, each of its results is classified by how it evolves in that loop (elements received, elements sent, counter parameter plus elements sent, last ref received or its String()), the call stands for the receive loop, and the caller's send counter is the variable to which every way round the refill loop adds the round's sends. Likewise the round may be started by a named helper that is handed cursor and limit and either is handed the channel or makes and returns it. Shapes that cannot be followed (elements received through a peeker or through a helper that reports its counts other than as results, receive loop left by a success return or break, cursor assigned at several places) are reported undecided. " +
 			"S-sub-bound / S-sub-neg / S-sub-forward — the ranged-fetch clause (a ranged fetch returns exactly the requested sub-range, never bytes beyond the blob), over every declared SubFetch method of every implementer of blob.SubFetcher (exhaustive by interface; promoted methods are the embedded implementer's; today memory, files(+localdisk), diskpacked, blobpacked, proxycache, and outside the quantifier s3, gcs, azure), each followed into the module functions it hands offset/length to. Integer values are read as linear forms over the leaves offset, length, size (the index-row field that the type's own Fetch reports as the blob's size, of a row looked up with the ref; or the size result of Fetch(ref)) and opaque leaves, integer conversions being transparent, so `a > s-b` and `a+b > s` are the same guard. S-sub-bound, per reader-building site (io.NewSectionReader, io.LimitReader + Seek(offset, io.SeekStart)/io.CopyN(_, r, offset), a SubFetch call on another store, and every success return that hands out a reader built by none of these): the position is offset (plus, for a container larger than the blob — diskpacked's pack file, blobpacked's zip — a base taken from the index row); where the position has such a base the length operand must, on every path (phi edges and helper returns followed), be either size-offset, or length itself on a path dominated by a guard whose leaf set contains offset, length and size and whose sign says offset+length <= size — a guard relating length to size without the offset is reported as 'range cap ignores the offset', a capped value without the offset as such; where the object is the blob itself (memory's slice looked up by ref, files' file opened by blobPath(ref), a Fetch(ref) result) its end bounds the read and only 'positioned at offset on every path unless offset == 0' and 'limited by a value derived from length' are required; sites reachable only with a negative offset/length (the whole-blob mode of a shared fetch helper) are discharged by reference to S-sub-neg; a success return that hands out a reader depending on neither offset nor length is a violation. S-sub-neg, per implementer: every such site is dominated — in its own function, in a caller on the chain from SubFetch, or through the nil error of a helper all of whose success returns are so dominated — by offset >= 0 and length >= 0, and the rejecting edge of each guard leads to a return of blob.ErrNegativeSubFetch; pure forwarders discharge by contract. S-sub-forward, per SubFetch call whose position has no container base: ref, offset and length are passed on unchanged (identity for the ref, the linear form exactly `offset` / `length`); and every store field SubFetch reads from is one the type's Fetch reads from. Implementers outside the C01 quantifier (s3, gcs, azure: the range is served by a remote API) are checked at dependence level only (ref, offset and length all reach calls that leave the module; those calls lie behind the non-negative tests) and a failure there is recorded as a note, not as a violation (today: azure's SubFetch passes a negative length on to Client.GetPartial, which then returns the rest of the object instead of blob.ErrNegativeSubFetch). All arithmetic claims are at leaf-set and sign level: no overflow (offset+length wrapping), no value ranges. " +
 			"R-refs-intact — the clauses 'after removal it is absent' and 'stat reports exactly the blobs present' for every supported composition: RemoveBlobs(ctx, []blob.Ref) and StatBlobs(ctx, []blob.Ref, fn) receive a list that belongs to the caller, and wrappers hand the very same slice to several sub-stores one after the other (overlay: upper.RemoveBlobs(blobs), then a tombstone per element of blobs) or at the same time (proxycache: cache and origin; replica, union: every replica/subset) — these callers are computed on every run from the interface call sites of the module (who reads the list again after the call, who starts several store calls on one captured list) and recorded as a note. Instance set: every declared RemoveBlobs/StatBlobs method of every implementer of blobserver.BlobRemover/BlobStatter (exhaustive by interface; implementers outside the C01 quantifier — cloud back ends, client, sync handler — are analysed the same way but a finding there is a note, not a violation) plus, transitively, every module function or function literal that is handed the list, one obligation per (function, list parameter). Decided per obligation: no value that may share the backing array of the list — the parameter, re-slices, conversions, phis, local and captured variables (flow-sensitively where a unique store reaches the load), append results that may have grown in place (not: append onto a full slice expression s[:n:n]), results of helpers that return such a value, function parameters resolved to the literals every static caller passes — is written: no store to an element or to a field of an element, no append onto a re-slice (which grows over the following elements), no copy/clear into it, no sort.Slice/SliceStable/Sort/Stable or slices.Sort*/Reverse (in-place permutation: a sibling store iterating the same list concurrently sees refs twice and misses others), no slices.Delete/Compact/Insert/Replace, directly or in a callee (summarised as 'may write the array of parameter i', with the kind of write). append onto the list itself writes only behind its end and is a violation only when some caller passes a prefix x[:n] of a longer list (none today). Copies made in the function (slices.Clone(list), append([]T(nil), list...)) are own arrays: writing them is not a finding, and a helper that is only ever handed such copies carries no obligation. A list stored into a field, map, channel or global, passed to an unknown external function, to an interface method other than RemoveBlobs/StatBlobs or to a function value that cannot be resolved, or an element address that escapes, is reported undecided, never passed. " +
 			"R-refs-cover — for the C01 back ends (and the helpers they hand the list to: StatBlobsParallelHelper, shard.batchedShards), per (function, list parameter): (a) every loop that indexes the list with a loop-variant index is the loop from 0 to len(list)-1 over the whole list (range form or three-clause form; the bound is len of the whole list), and no path from the start of an iteration to the next iteration avoids every use of the current element (a call that receives it or a value computed from it, a literal that captures it, a map lookup/update with it, a store, a send): a path that skips the element under a condition that does not depend on it is a violation, a skip under a comparison on the element without any call or lookup is undecided; (b) no part of the list (list[a:b], or a list filtered in place) is read, handed on or returned — reported undecided, since the rest may or may not be handled elsewhere; (c) every return that may report success (error operand not known non-nil, per incoming phi edge, not behind len(list) == 0) lies behind a point where the whole list (or an unedited copy of it) was handed to a sub-store's RemoveBlobs/StatBlobs or to a helper that itself satisfies this rule, or behind a loop of kind (a) — such a point inside a loop over sub-stores counts at that loop's header (the sub-store lists are assumed non-empty), inside a function literal it counts where the literal is run or handed to a call, provided every return of the literal lies behind it; a success return inside the loop over the list (return where continue was meant) is undecided. " +
-			"NOT decided: for the R-refs rules: which sub-store is the authoritative one (a wrapper that hands the whole list to its cache and only a filtered list to its origin satisfies R-refs-cover), whether a list built from the parameter by conditional appends (overlay's exists/lowerBlobs, blobpacked's packed/unpacked/trySmall, proxycache's need set, shard's buckets beyond S-route) drops only refs that need no handling, loops left early by break (StatBlobsParallelHelper on cancellation) and whether an error is reported then, chunked forwarding (list[:n] then list[n:]: reported undecided), corruption of a copy of the list that is afterwards used as if it were the list, writes through reflect/unsafe, callers outside the module; for the S-sub rules: that the bytes returned equal bytes[offset:min(offset+length,size)] (needs execution), integer overflow of offset+length, that the index row's offset/size are right, that offset > size is rejected (ErrOutOfRangeOffsetSubFetch), the order and conditions under which a wrapper tries its stores, the error a failed Seek/CopyN produces, io.LimitedReader/SectionReader values built as struct literals (reported undecided), what a remote range API returns; for E-refill: that the sub-enumeration's error is examined before exhaustion is concluded, that the filter itself is right (O-tomb), enumerating pagers that are not enumerators (blobserver.EnumerateAllFrom), and non-refilling filters; byte-for-byte equality of fetched data, size correctness, that a sorted.KeyValue iterator yields ascending keys (C10) or that the comparator used by a sort call is the blobref text order, that the bypass conditions around the cursor guard (first-iteration flags, after != \"\") are right, cursor semantics of cloud back ends (s3, gcs, azure, mongo, remote: E-close only), duplicate-receive no-op, any statement about histories, compositions or paging completeness. Those need execution.",
+			"NOT decided: for the R-refs rules: which sub-store is the authoritative one (a wrapper that hands the whole list to its cache and only a filtered list to its origin satisfies R-refs-cover), whether a list built from the parameter by conditional appends (overlay's exists/lowerBlobs, blobpacked's packed/unpacked/trySmall, proxycache's need set, shard's buckets beyond S-route) drops only refs that need no handling, loops left early by break (StatBlobsParallelHelper on cancellation) and whether an error is reported then, chunked forwarding (list[:n] then list[n:]: reported undecided), corruption of a copy of the list that is afterwards used as if it were the list, writes through reflect/unsafe, callers outside the module; for the S-sub rules: that the bytes returned equal bytes[offset:min(offset+length,size)] (needs execution), integer overflow of offset+length, that the index row's offset/size are right, that offset > size is rejected (ErrOutOfRangeOffsetSubFetch), the order and conditions under which a wrapper tries its stores, the error a failed Seek/CopyN produces, io.LimitedReader/SectionReader values built as struct literals (reported undecided), what a remote range API returns; for E-refill: a refill round whose helper-extracted receive loop hands its counters back other than as results (through a pointer, a captured variable) or whose round-starting helper has several call sites (reported undecided), that the sub-enumeration's error is examined before exhaustion is concluded, that the filter itself is right (O-tomb), enumerating pagers that are not enumerators (blobserver.EnumerateAllFrom), and non-refilling filters; byte-for-byte equality of fetched data, size correctness, that a sorted.KeyValue iterator yields ascending keys (C10) or that the comparator used by a sort call is the blobref text order, that the bypass conditions around the cursor guard (first-iteration flags, after != \"\") are right, cursor semantics of cloud back ends (s3, gcs, azure, mongo, remote: E-close only), duplicate-receive no-op, any statement about histories, compositions or paging completeness. Those need execution.",
 		RuleDocs: map[string]string{
 			"E-close":       "every declared EnumerateBlobs/StreamBlobs method (exhaustive over implementers) + every static callee that receives dest: dest is closed exactly once on every path to every non-panic exit (close, defer, literal that closes, or delegation to a checked callee)",
-			"E-cursor":      "enumerators of the C01 backends + index + the merged-enumerate helpers: leaf: each send is skipped in-iteration on the key<=cursor (or key==cursor after Find(cursor)) edge of a comparison against a value built only from `after`; merge: cursor forwarded to all sub-enumerations; forwarder: cursor argument built only from `after`",
-			"E-limit":       "same instance set: leaf/merge: a counter-vs-limit comparison with a stop edge that reaches no send, in the send's loop, polarity count>=limit, counter updated on the send path; forwarder: limit argument derived from `limit`",
-			"S-route":       "shard: every read index of shardStorage.shards depends on shardNum; shardNum depends only on the ref and len(shards); shard(b) callers pass b on; batchedShards files refs under shardNum(ref) and pairs shards[k] with m[k]",
-			"O-tomb":        "overlay: nil-error ReceiveBlob dominated by upper.ReceiveBlob ok and (deleted!=nil => deleted.Delete(ref) ok); nil-error RemoveBlobs = CommitBatch of a batch that Sets each ref; reads gated by isDeleted==false; isDeleted true only on Get ok; key agreement Ref.String()",
-			"M-dedup":       "mergedEnumerate: discard predicate means ref <= lastSent (evaluated symbolically); Take only under predicate true on the same peeker; filter before candidate selection; lastSent recorded in the sending iteration",
-			"E-sorted":      "leaf enumerators of the C01 backends whose elements do not come from a sorted.KeyValue iterator (memory: map keys, files: directory listing): the slice ranged over for the sends is the argument of a sort/slices sorting call that dominates the send",
-			"M-lowest":      "mergedEnumerate: every Ref.Less-controlled edge into the assignment of the merge candidate is the true edge of Less(candidate, current lowest)",
+			"E-cursor":      "enumerators of the C01 backends + index + the merged-enumerate helpers, each with its effective body: leaf: each send (or, for a send in a helper/closure, every call of it) is skipped in-iteration on the key<=cursor (or key==cursor after Find(cursor)) edge of a comparison - the branch's own or one inside the bool helper it calls - against a value built only from `after`; merge: cursor forwarded to all sub-enumerations (also those started by a named helper); forwarder: cursor argument built only from `after`",
+			"E-limit":       "same instance set: leaf/merge: a counter-vs-limit comparison (the branch's own, one known on entry of the stopping branch, or one inside the bool helper it calls) that holds on an edge reaching no send, in the send's loop, polarity count>=limit, counter updated on the send path; a call of a sending helper/closure is a send of the caller and the bound may hold at any level; forwarder: limit argument derived from `limit`",
+			"S-route":       "shard (type and shard-list field by role): every routing read of the shard list renders, through the package helpers it calls, to one and the same term over REF and N=len(shards); the routed shard is used with that ref (callers of helpers that return it included); a map-routed read files refs under the term of the same ref and pairs shards[k] with m[k]",
+			"O-tomb":        "overlay (type, fields, tombstone predicate by role; effective bodies of the interface methods): nil-error ReceiveBlob dominated by upper.ReceiveBlob ok and (deleted!=nil => deleted.Delete(ref) ok); nil-error RemoveBlobs = CommitBatch of a batch that Sets each ref; reads gated by isDeleted==false; isDeleted true only on Get ok; key agreement Ref.String()",
+			"M-dedup":       "every instance that merges through blob.ChanPeeker (mergedEnumerate), effective body: discard predicate (literal, function or method) means ref <= lastSent (evaluated symbolically); Take only under predicate true on the same peeker; filter before candidate selection; lastSent recorded in the sending iteration",
+			"E-sorted":      "leaf enumerators of the C01 backends whose elements do not come from a sorted.KeyValue iterator (memory: map keys, files: directory listing): the slice ranged over for the sends is sorted before the send on every path - by a sort/slices call, a helper that sorts its parameter, a helper that returns it sorted, or at every call of the helper holding the send loop",
+			"M-lowest":      "same instances as M-dedup, candidate variable followed into the helper that returns it: every Ref.Less-controlled edge into the assignment of the merge candidate is the true edge of Less(candidate, current lowest)",
 			"S-sub-bound":   "every declared SubFetch of every blob.SubFetcher implementer + the module functions it hands offset/length to; per reader-building site (NewSectionReader, LimitReader+Seek/CopyN, SubFetch into a container, whole-object success returns): positioned at offset (+ index-row base for containers); container: length operand on every path is size-offset or length under a dominating guard with leaf set {offset,length,size} and sign offset+length<=size; per-blob object: positioned on every path unless offset==0 and limited by a length-derived value; cloud back ends: dependence only",
 			"S-sub-neg":     "per SubFetch implementer: every reader-building site is dominated (own function, caller chain, or nil error of a helper) by offset>=0 and length>=0, and each rejecting edge returns blob.ErrNegativeSubFetch; pure forwarders by contract; cloud back ends noted, not enforced",
 			"S-sub-forward": "per SubFetch call without a container base: ref identical, offset and length linear forms exactly `offset` / `length`; per wrapper: store fields read by SubFetch are a subset of those read by the type's Fetch",
@@ -47,14 +47,16 @@ func init() {
 		},
 		Run:       runC01,
 		DesignRef: "DESIGN.md §4 C01",
-		Technique: "static analysis: CFG path typestate (channel closed exactly once, inter-procedural by summaries), in-iteration skip-edge reachability for cursor guards, control dependence of sends on limit comparisons, dominance/err==nil-edge rules for tombstones, value-dependence for shard routing, symbolic evaluation of the merge's discard predicate, role classification of loop-carried counters (phi webs and captured cells) plus exhaustive small-world evaluation of the refill protocol's branch conditions, linear forms over {offset, length, indexed size} with inter-procedural frames and dominating branch facts for the ranged-fetch bound, may-alias closure of the backing array of a slice parameter (SSA value flow through re-slices, phis, variables, captures, append, helper returns) with per-(function, parameter) write summaries and computed who-reuses-the-list call sites, induction-variable recognition of whole-list loops with per-iteration use paths, must-pass-through of success returns",
-		LevelText: "Decides structural necessary conditions only: enumeration channels are always closed exactly once; the named backends' enumerators contain an exclusive cursor guard and a limit bound wired to the send loop; shard routing is one function of the ref; overlay tombstones are written/cleared before success is reported and consulted before yielding; merged enumeration picks the lowest head and suppresses duplicates against the last sent ref; memory and files sort what they range over; a filtering enumerator that refills its page (overlay) asks each round for exactly the missing number, concludes exhaustion only from the round it just ran, repeats only after receiving something, and resumes after the last ref received; every ranged fetch is positioned at the requested offset, is limited by the requested length and, where it reads from a container larger than the blob (diskpacked, blobpacked), caps the length by a guard over offset, length and the indexed size, rejects negative ranges with blob.ErrNegativeSubFetch before any reader is built, and wrappers pass the range on unchanged (leaf-set and sign level, overflow not modelled); no store, wrapper or helper writes the ref list its caller passed to RemoveBlobs/StatBlobs (which the caller, or a sibling store running concurrently, still uses), loops over that list visit all of it and look at every element, and success is not reported before the whole list was handed on or walked. Does not decide which sub-store must receive the whole list or whether refs filtered out of a derived list needed no handling. Does not decide map semantics for any history, byte equality, sortedness of leaf output, paging completeness or compositions (level 'other').",
+		Technique: "static analysis over effective bodies (a function with the unexported same-package helpers and literals it calls, parameters bound to arguments, results to return operands, branch facts and success-dominance carried across the call): CFG path typestate (channel closed exactly once, inter-procedural by summaries), in-iteration skip-edge reachability for cursor guards, control dependence of sends on limit comparisons, dominance/err==nil-edge rules for tombstones, symbolic rendering of shard routing index expressions to terms over (ref, shard count) with term agreement across routing reads, symbolic evaluation of the merge's discard predicate, role classification of loop-carried counters (phi webs and captured cells) plus exhaustive small-world evaluation of the refill protocol's branch conditions, linear forms over {offset, length, indexed size} with inter-procedural frames and dominating branch facts for the ranged-fetch bound, may-alias closure of the backing array of a slice parameter (SSA value flow through re-slices, phis, variables, captures, append, helper returns) with per-(function, parameter) write summaries and computed who-reuses-the-list call sites, induction-variable recognition of whole-list loops with per-iteration use paths, must-pass-through of success returns",
+		LevelText: "Decides structural necessary conditions only: enumeration channels are always closed exactly once; the named backends' enumerators contain an exclusive cursor guard and a limit bound wired to the send loop; shard routing is one function of the ref; overlay tombstones are written/cleared before success is reported and consulted before yielding; merged enumeration picks the lowest head and suppresses duplicates against the last sent ref; memory and files sort what they range over; a filtering enumerator that refills its page (overlay) asks each round for exactly the missing number, concludes exhaustion only from the round it just ran, repeats only after receiving something, and resumes after the last ref received; every ranged fetch is positioned at the requested offset, is limited by the requested length and, where it reads from a container larger than the blob (diskpacked, blobpacked), caps the length by a guard over offset, length and the indexed size, rejects negative ranges with blob.ErrNegativeSubFetch before any reader is built, and wrappers pass the range on unchanged (leaf-set and sign level, overflow not modelled); no store, wrapper or helper writes the ref list its caller passed to RemoveBlobs/StatBlobs (which the caller, or a sibling store running concurrently, still uses), loops over that list visit all of it and look at every element, and success is not reported before the whole list was handed on or walked. All of this is decided over effective bodies (helpers, literals and methods a function calls), with unexported names resolved by role, so that extracting, inlining or renaming helpers does not change the verdict. Does not decide which sub-store must receive the whole list or whether refs filtered out of a derived list needed no handling. Does not decide map semantics for any history, byte equality, sortedness of leaf output, paging completeness or compositions (level 'other').",
 	})
 }
 
 func runC01(p *Program, r *Reporter) {
 	t0 := time.Now()
 	defer func() { r.Note("C01 rules ran in %.2fs after loading", time.Since(t0).Seconds()) }()
+	c01EffCache = map[*ssa.Function]*c01Eff{} // per run: keyed by functions of the program being checked
+	defer func() { c01EffCache = map[*ssa.Function]*c01Eff{} }()
 	ruleEClose(p, r, "E-close")
 	insts := c01ScopeInstances(p)
 	c01RuleCursor(p, r, insts)
@@ -63,9 +65,9 @@ func runC01(p *Program, r *Reporter) {
 	c01RuleRefill(p, r)
 	c01RuleSubFetch(p, r)
 	c01RuleSRoute(p, r)
-	c01RuleOTomb(p, r)
-	c01RuleMDedup(p, r)
-	c01RuleMLowest(p, r)
+	c01RuleOTomb(p, r, insts)
+	c01RuleMDedup(p, r, insts)
+	c01RuleMLowest(p, r, insts)
 	c01RuleRefs(p, r)
 }
 
@@ -477,29 +479,61 @@ func (cl *c01Closer) analyse(fn *ssa.Function, root ssa.Value) *c01CloseSum {
 	return sum
 }
 
-// c01CloseException: one symbol + one reason; the reason is re-checked structurally.
+// c01CloseException: one package + one reason; the reason is re-checked
+// structurally on every run, for the very field the pruned branch tests. The
+// enumerator and the field are found by role (an enumerator method of the
+// package that branches on `recv.field == nil`), not by name.
 type c01CloseException struct {
-	pkg, typ, field string // the receiver field assumed non-nil
-	ctorCall        string // interface method whose successful result is the only thing ever stored there
-	reason          string
+	pkg      string // the package whose enumerators may rely on it
+	ctorCall string // interface method whose successful result is the only thing ever stored in the field
+	reason   string
 }
 
-var c01CloseExceptions = map[string]c01CloseException{
-	"pkg/blobserver/cond.(*condStorage).EnumerateBlobs": {
-		pkg: "pkg/blobserver/cond", typ: "condStorage", field: "read", ctorCall: "GetStorage",
-		reason: "the exit taken when sto.read == nil is infeasible: every condStorage is built by a function that stores Loader.GetStorage's result into .read and returns the object only on that call's err == nil edge",
+var c01CloseExceptions = []c01CloseException{
+	{
+		pkg: "pkg/blobserver/cond", ctorCall: "GetStorage",
+		reason: "the exit taken when a storage field of the receiver is nil is infeasible: every value of the receiver's type is built by a function that stores Loader.GetStorage's result into that field and returns the object only on that call's err == nil edge",
 	},
+}
+
+// c01NilTestedField: cond is `recv.f == nil` / `recv.f != nil` for a field f of
+// the receiver; returns the field index and whether the condition is true when
+// the field is non-nil.
+func c01NilTestedField(cond ssa.Value, recv *ssa.Parameter) (field int, trueWhenSet, ok bool) {
+	bo, isBo := cond.(*ssa.BinOp)
+	if !isBo || (bo.Op != token.EQL && bo.Op != token.NEQ) {
+		return 0, false, false
+	}
+	var other ssa.Value
+	if IsNilConst(bo.Y) {
+		other = bo.X
+	} else if IsNilConst(bo.X) {
+		other = bo.Y
+	} else {
+		return 0, false, false
+	}
+	ld, isLd := originValue(other).(*ssa.UnOp)
+	if !isLd || ld.Op != token.MUL {
+		return 0, false, false
+	}
+	fa, isFA := ld.X.(*ssa.FieldAddr)
+	if !isFA || originValue(fa.X) != ssa.Value(recv) {
+		return 0, false, false
+	}
+	return fa.Field, bo.Op == token.NEQ, true
 }
 
 // c01FieldAlwaysSet re-checks the exception's reason: every allocation of the
 // struct happens in a function that stores result 0 of an invoke of ctorCall
 // into the field and returns the object only where that call succeeded; there
 // is no other store to the field anywhere in the module.
-func c01FieldAlwaysSet(p *Program, ex c01CloseException) (bool, string) {
-	named := p.NamedType(ex.pkg, ex.typ)
+func c01FieldAlwaysSet(p *Program, named *types.Named, fieldIdx int, ctorCall string) (bool, string) {
+	typName := named.Obj().Name()
+	fldName := fieldName(named, fieldIdx)
+	ex := struct{ typ, field, ctorCall string }{typName, fldName, ctorCall}
 	isField := func(fa *ssa.FieldAddr) bool {
 		n := NamedOf(fa.X.Type())
-		return n != nil && n.Obj() == named.Obj() && fieldName(fa.X.Type(), fa.Field) == ex.field
+		return n != nil && n.Obj() == named.Obj() && fa.Field == fieldIdx
 	}
 	allocs := 0
 	for _, fn := range p.AllFuncs {
@@ -577,46 +611,65 @@ func ruleEClose(p *Program, r *Reporter, as string) {
 	enums := c01Enumerators(p)
 	// arm the (structurally re-checked) exceptions
 	exNote := map[*ssa.Function]string{}
-	for key, ex := range c01CloseExceptions {
-		var fn *ssa.Function
-		for _, e := range enums {
-			if FuncKey(e.Fn) == key {
-				fn = e.Fn
+	for _, ex := range c01CloseExceptions {
+		for _, en := range enums {
+			fn := en.Fn
+			if fn.Pkg == nil || RelPkg(fn.Pkg.Pkg) != ex.pkg || fn.Signature.Recv() == nil || len(fn.Params) == 0 {
+				continue
+			}
+			recv := fn.Params[0]
+			named := NamedOf(recv.Type())
+			if named == nil {
+				continue
+			}
+			if _, isStruct := named.Underlying().(*types.Struct); !isStruct {
+				continue
+			}
+			// the fields this enumerator tests against nil, each re-checked
+			armed := map[int]bool{}
+			for _, f := range c01DeepFuncs(fn) {
+				for _, blk := range f.Blocks {
+					if len(blk.Instrs) == 0 {
+						continue
+					}
+					ifi, isIf := blk.Instrs[len(blk.Instrs)-1].(*ssa.If)
+					if !isIf {
+						continue
+					}
+					cond, _ := c01StripNot(ifi.Cond)
+					fi, _, ok := c01NilTestedField(cond, recv)
+					if !ok {
+						continue
+					}
+					if _, done := armed[fi]; done {
+						continue
+					}
+					good, why := c01FieldAlwaysSet(p, named, fi, ex.ctorCall)
+					armed[fi] = good
+					if !good {
+						exNote[fn] = "exception not applied, its reason does not hold: " + why
+					}
+				}
+			}
+			any := false
+			for _, g := range armed {
+				any = any || g
+			}
+			if !any {
+				continue
+			}
+			cl.assume[fn] = func(cond ssa.Value) (bool, bool) {
+				c, neg := c01StripNot(cond)
+				fi, trueWhenSet, ok := c01NilTestedField(c, recv)
+				if !ok || !armed[fi] {
+					return false, false
+				}
+				return true, trueWhenSet != neg // the field is set
+			}
+			if exNote[fn] == "" {
+				exNote[fn] = "exception (re-checked): " + ex.reason
 			}
 		}
-		if fn == nil {
-			continue // the excepted function no longer exists: nothing to except
-		}
-		if ok, why := c01FieldAlwaysSet(p, ex); !ok {
-			exNote[fn] = "exception not applied, its reason no longer holds: " + why
-			continue
-		}
-		ex := ex
-		recv := fn.Params[0]
-		cl.assume[fn] = func(cond ssa.Value) (bool, bool) {
-			bo, ok := cond.(*ssa.BinOp)
-			if !ok || (bo.Op != token.EQL && bo.Op != token.NEQ) {
-				return false, false
-			}
-			var other ssa.Value
-			if IsNilConst(bo.Y) {
-				other = bo.X
-			} else if IsNilConst(bo.X) {
-				other = bo.Y
-			} else {
-				return false, false
-			}
-			ld, ok := other.(*ssa.UnOp)
-			if !ok || ld.Op != token.MUL {
-				return false, false
-			}
-			fa, ok := ld.X.(*ssa.FieldAddr)
-			if !ok || originValue(fa.X) != ssa.Value(recv) || fieldName(fa.X.Type(), fa.Field) != ex.field {
-				return false, false
-			}
-			return true, bo.Op == token.NEQ // field != nil is true, field == nil is false
-		}
-		exNote[fn] = "exception (re-checked): " + ex.reason
 	}
 	reported := map[*ssa.Function]bool{}
 	report := func(fn *ssa.Function, root ssa.Value, role string) {
@@ -657,7 +710,7 @@ func ruleEClose(p *Program, r *Reporter, as string) {
 	}
 	r.Analysed("enumerator_methods", len(enums))
 	r.Analysed("close_delegates", len(cl.delegates))
-	r.Floor(as, 33)
+	r.Floor(as, 31) // 35 today; a bound below today's count, so that merging two delegates does not read as "rule matches nothing"
 }
 
 func c01First(s []string, n int) []string {
@@ -690,24 +743,35 @@ type c01Body struct {
 	isAfter func(ssa.Value) bool
 	isLimit func(ssa.Value) bool
 	how     string
+	parent  *c01Body // the body whose call hands dest to this helper body (nil otherwise)
+	via     CallSite // that call
 }
 
+// c01Send is a send on the enumeration channel. A call of a helper that
+// (transitively) sends on dest is a send site of the calling body too: such a
+// "virtual" send has the call as its instruction, and every send inside the
+// helper points to it through up. A guard or bound may be established at any
+// level of that chain.
 type c01Send struct {
-	in   ssa.Instruction // *ssa.Send or *ssa.Select
-	x    ssa.Value       // value sent
-	body *c01Body
+	in      ssa.Instruction // *ssa.Send or *ssa.Select; for a virtual send the call/go/defer of the sending helper
+	x       ssa.Value       // value sent (nil for a virtual send)
+	body    *c01Body
+	virtual bool
+	up      []*c01Send // the calls through which the send's helper body is reached
 }
 
 type c01FamCall struct {
 	c                CallSite
 	ch, after, limit ssa.Value
+	body             *c01Body // the body the call was found in (nil: a helper of the effective body that does not own dest)
 }
 
 type c01Inst struct {
 	Root               *ssa.Function
 	Dest, After, Limit *ssa.Parameter
 	bodies             []*c01Body
-	sends              []c01Send
+	sends              []c01Send    // real sends, in every body
+	vsends             []c01Send    // virtual sends: calls of helper bodies that send
 	destDelegs         []c01FamCall // family calls that receive dest
 	subEnums           []c01FamCall // family calls on another channel
 	class              string       // "leaf", "merge", "forwarder", "silent"
@@ -740,7 +804,7 @@ func c01FamilyArgs(c CallSite) (fc c01FamCall, ok bool) {
 	if li+off >= len(cc.Args) {
 		return fc, false
 	}
-	return c01FamCall{c, cc.Args[ci+off], cc.Args[ai+off], cc.Args[li+off]}, true
+	return c01FamCall{c: c, ch: cc.Args[ci+off], after: cc.Args[ai+off], limit: cc.Args[li+off]}, true
 }
 
 func c01DeepFuncs(fn *ssa.Function) []*ssa.Function {
@@ -759,12 +823,12 @@ func c01SendsIn(b *c01Body) []c01Send {
 				switch x := in.(type) {
 				case *ssa.Send:
 					if b.isDest(x.Chan) {
-						out = append(out, c01Send{x, x.X, b})
+						out = append(out, c01Send{in: x, x: x.X, body: b})
 					}
 				case *ssa.Select:
 					for _, st := range x.States {
 						if st.Dir == types.SendOnly && b.isDest(st.Chan) {
-							out = append(out, c01Send{x, st.Send, b})
+							out = append(out, c01Send{in: x, x: st.Send, body: b})
 						}
 					}
 				}
@@ -889,6 +953,38 @@ func c01CarriedBodies(root *ssa.Function, dest, after, limit *ssa.Parameter) ([]
 	return out, undecided
 }
 
+// c01BodySite is one call that hands dest to a helper body.
+type c01BodySite struct {
+	c      CallSite
+	parent *c01Body
+}
+
+// c01HelperBody: the body of helper g, which call c (found in body b) hands
+// dest to as argument di. The cursor and limit roles are mapped to g's
+// parameters by what the call passes: a parameter is the cursor when its
+// argument is built only from b's cursor, the limit when its argument derives
+// from b's limit.
+func c01HelperBody(b *c01Body, c CallSite, g *ssa.Function, di int) *c01Body {
+	args := c.Args()
+	afterPrm, limitPrm := map[ssa.Value]bool{}, map[ssa.Value]bool{}
+	for ai, a := range args {
+		if ai >= len(g.Params) || ai == di {
+			continue
+		}
+		switch {
+		case c01IsStringish(a.Type()) && c01PureCursor(a, b.isAfter, 0) && DependsOn(a, b.isAfter):
+			afterPrm[g.Params[ai]] = true
+		case c01IsBasic(a.Type(), types.Int) && DependsOn(a, b.isLimit):
+			limitPrm[g.Params[ai]] = true
+		}
+	}
+	return &c01Body{fn: g, how: "via helper " + FuncKey(g), parent: b, via: c,
+		isDest:  c01Same(g.Params[di]),
+		isAfter: func(v ssa.Value) bool { return afterPrm[v] },
+		isLimit: func(v ssa.Value) bool { return limitPrm[v] },
+	}
+}
+
 func c01BuildInst(root *ssa.Function, dest, after, limit *ssa.Parameter) (*c01Inst, []string) {
 	in := &c01Inst{Root: root, Dest: dest, After: after, Limit: limit}
 	direct := &c01Body{fn: root, how: "direct",
@@ -899,19 +995,139 @@ func c01BuildInst(root *ssa.Function, dest, after, limit *ssa.Parameter) (*c01In
 	in.bodies = append(in.bodies, direct)
 	carried, und := c01CarriedBodies(root, dest, after, limit)
 	in.bodies = append(in.bodies, carried...)
+	// helper bodies: the unexported functions/methods of the package (and literals) a body hands dest to as a plain
+	// argument (a callee of EnumerateBlobs shape is an instance of its own, see c01Instances)
+	bodyOf := map[*ssa.Function]*c01Body{}
+	sites := map[*c01Body][]c01BodySite{}
+	depth := map[*c01Body]int{}
 	for _, b := range in.bodies {
-		in.sends = append(in.sends, c01SendsIn(b)...)
+		bodyOf[b.fn] = b
+	}
+	for i := 0; i < len(in.bodies); i++ {
+		b := in.bodies[i]
+		for _, c := range CallsIn(b.fn, true) {
+			if _, fam := c01FamilyArgs(c); fam {
+				continue
+			}
+			g := c.Callee()
+			if !c01IsHelperOf(root, g) {
+				continue
+			}
+			di := -1
+			for ai, a := range c.Args() {
+				if ai < len(g.Params) && b.isDest(a) {
+					di = ai
+				}
+			}
+			if di < 0 {
+				continue
+			}
+			child := bodyOf[g]
+			if child == nil {
+				if depth[b] >= c01EffDepth {
+					und = append(und, "dest is handed on through more than "+fmt.Sprint(c01EffDepth)+" levels of helpers")
+					continue
+				}
+				child = c01HelperBody(b, c, g, di)
+				depth[child] = depth[b] + 1
+				bodyOf[g] = child
+				in.bodies = append(in.bodies, child)
+			} else if child.parent == nil {
+				continue // the recursion of a carried body, or a call back into the root
+			}
+			sites[child] = append(sites[child], c01BodySite{c, b})
+		}
+	}
+	inBody := map[*ssa.Function]bool{}
+	for _, b := range in.bodies {
+		for _, f := range c01DeepFuncs(b.fn) {
+			inBody[f] = true
+		}
 		for _, c := range CallsIn(b.fn, true) {
 			fc, ok := c01FamilyArgs(c)
 			if !ok {
 				continue
 			}
+			fc.body = b
 			if b.isDest(fc.ch) {
 				in.destDelegs = append(in.destDelegs, fc)
 			} else if b == direct || c.Callee() != b.fn { // the recursion of a carried body is not a sub-enumeration
 				in.subEnums = append(in.subEnums, fc)
 			}
 		}
+	}
+	// sub-enumerations started by helpers of the effective body that do not own dest (a start-one-source closure
+	// turned into a named function)
+	for _, f := range c01EffOf(root).fns {
+		if inBody[f] {
+			continue
+		}
+		for _, c := range CallsIn(f, false) {
+			if fc, ok := c01FamilyArgs(c); ok {
+				in.subEnums = append(in.subEnums, fc)
+			}
+		}
+	}
+	// sends: real ones per body, and bottom-up the virtual ones (bodies are listed parent first)
+	byBody := map[*c01Body][]*c01Send{}
+	var real, virt []*c01Send
+	for _, b := range in.bodies {
+		for _, s := range c01SendsIn(b) {
+			s := s
+			byBody[b] = append(byBody[b], &s)
+			real = append(real, &s)
+		}
+	}
+	// a send inside a function literal that its body calls (an `emit := func(...)` closure): every call of the literal
+	// is a send site of the calling function
+	litCalls := func(b *c01Body) {
+		vsAt := map[ssa.Instruction]*c01Send{}
+		for i := 0; i < len(byBody[b]); i++ {
+			s := byBody[b][i]
+			lit := s.in.Parent()
+			if lit == b.fn || lit.Parent() == nil || len(s.up) > 0 {
+				continue
+			}
+			for _, c := range CallsIn(b.fn, true) {
+				if c.Callee() != lit || c.Fn == lit {
+					continue
+				}
+				ci := c.Instr.(ssa.Instruction)
+				vs := vsAt[ci]
+				if vs == nil {
+					vs = &c01Send{in: ci, body: b, virtual: true}
+					vsAt[ci] = vs
+					byBody[b] = append(byBody[b], vs)
+					virt = append(virt, vs)
+				}
+				s.up = append(s.up, vs)
+			}
+		}
+	}
+	for i := len(in.bodies) - 1; i >= 0; i-- {
+		b := in.bodies[i]
+		litCalls(b)
+		if b.parent == nil || len(byBody[b]) == 0 {
+			continue
+		}
+		var ups []*c01Send
+		for _, st := range sites[b] {
+			vs := &c01Send{in: st.c.Instr.(ssa.Instruction), body: st.parent, virtual: true}
+			ups = append(ups, vs)
+			byBody[st.parent] = append(byBody[st.parent], vs)
+			virt = append(virt, vs)
+		}
+		for _, s := range byBody[b] {
+			if len(s.up) == 0 { // sends of a called literal are reached through the literal's calls
+				s.up = ups
+			}
+		}
+	}
+	for _, s := range real {
+		in.sends = append(in.sends, *s)
+	}
+	for _, s := range virt {
+		in.vsends = append(in.vsends, *s)
 	}
 	switch {
 	case len(in.sends) == 0 && len(in.destDelegs) > 0:
@@ -924,6 +1140,36 @@ func c01BuildInst(root *ssa.Function, dest, after, limit *ssa.Parameter) (*c01In
 		in.class = "silent"
 	}
 	return in, und
+}
+
+// allSends: real and virtual sends.
+func (in *c01Inst) allSends() []c01Send {
+	return append(append([]c01Send(nil), in.sends...), in.vsends...)
+}
+
+// c01AtSomeLevel applies check to a send and, where it fails there, to the
+// calls through which the send's helper is reached: the property holds for the
+// send when it is established around the send itself or at every call site of
+// the helper that contains it.
+func c01AtSomeLevel(s *c01Send, check func(*c01Send) (ok, undecided bool, detail string)) (bool, bool, string) {
+	ok, und, d := check(s)
+	if ok || len(s.up) == 0 {
+		return ok, und && !ok, d
+	}
+	allOK, anyUnd := true, und
+	var ds []string
+	for _, u := range s.up {
+		o, un, dd := c01AtSomeLevel(u, check)
+		if !o {
+			allOK = false
+			anyUnd = anyUnd || un
+		}
+		ds = append(ds, dd)
+	}
+	if allOK {
+		return true, false, strings.Join(ds, "; ")
+	}
+	return false, anyUnd, d + "; at the call of the helper: " + strings.Join(ds, "; ")
 }
 
 // c01ScopeInstances: in-scope EnumerateBlobs methods plus, transitively, the
@@ -957,6 +1203,15 @@ func c01Instances(p *Program, inPkg func(rel string) bool) []*c01Inst {
 			ci, ai, li, ok := c01FamilyIdx(g.Signature)
 			if !ok {
 				continue
+			}
+			ge, known := c01EffOf(g), false
+			for _, rc := range ge.rootCalls {
+				if rc.c.Instr == d.c.Instr {
+					known = true
+				}
+			}
+			if !known {
+				ge.rootCalls = append(ge.rootCalls, c01RootCall{d.c, c01EffOf(fn)})
 			}
 			off := len(g.Params) - g.Signature.Params().Len()
 			add(g, g.Params[ci+off], g.Params[ai+off], g.Params[li+off])
@@ -1098,10 +1353,8 @@ func c01RuleCursor(p *Program, r *Reporter, insts []*c01Inst) {
 	for _, in := range insts {
 		key := FuncKey(in.Root)
 		site := p.Pos(in.Root.Pos())
-		afterDep := func(b *c01Body) func(ssa.Value) bool {
-			return func(v ssa.Value) bool { return DependsOn(v, b.isAfter) }
-		}
-		directAfter := afterDep(in.bodies[0])
+		e := c01EffOf(in.Root)
+		rootAfter := in.bodies[0].isAfter
 		switch {
 		case strings.HasPrefix(in.class, "undecided"):
 			r.Undecided(rule, key+"#cursor", site, in.class)
@@ -1109,27 +1362,32 @@ func c01RuleCursor(p *Program, r *Reporter, insts []*c01Inst) {
 			r.Note("E-cursor: %s neither sends on dest nor hands it on; nothing to decide", key)
 		case in.class == "forwarder":
 			for _, d := range in.destDelegs {
-				ok := c01PureCursor(d.after, in.bodies[0].isAfter, 0) && directAfter(d.after)
+				ok := c01PureCursor(d.after, d.body.isAfter, 0) && DependsOn(d.after, d.body.isAfter)
 				r.Check(ok, rule, key+"#forward-cursor:"+d.c.CalleeKey(), p.Pos(d.c.Pos()),
 					"forwarder: the cursor handed to "+d.c.CalleeKey()+" is built from `after` only",
 					"forwarder: the cursor argument of "+d.c.CalleeKey()+" is not (only) the enumerator's `after` parameter: pages would restart or skip")
 			}
 		case in.class == "merge":
 			for _, d := range in.subEnums {
-				ok := directAfter(d.after)
+				ok := e.depends(d.after, rootAfter)
 				r.Check(ok, rule, key+"#sub-cursor:"+d.c.CalleeKey(), p.Pos(d.c.Pos()),
 					"merging enumerator: the cursor of the sub-enumeration "+d.c.CalleeKey()+" derives from `after` (exclusiveness is the sub-enumerators' obligation)",
 					"merging enumerator: the sub-enumeration "+d.c.CalleeKey()+" is started with a cursor that does not derive from `after`")
 			}
 		default: // leaf
-			for _, s := range in.sends {
-				ok, detail := c01CursorGuard(s, kv)
+			all := in.allSends()
+			for i := range in.sends {
+				s := &in.sends[i]
+				ok, und, detail := c01AtSomeLevel(s, func(l *c01Send) (bool, bool, string) {
+					ok, d := c01CursorGuard(*l, all, e, kv)
+					return ok, !ok && c01CursorHelperTest(*l), d
+				})
 				construct := key + "#cursor-guard"
 				if s.body.how != "direct" {
 					construct += ":" + FuncKey(s.body.fn)
 				}
-				if !ok && c01CursorHelperTest(s) {
-					r.Undecided(rule, construct, p.Pos(s.in.Pos()), "a branch tests the cursor inside a helper function, which this rule does not follow: "+detail)
+				if und {
+					r.Undecided(rule, construct, p.Pos(s.in.Pos()), "a branch tests the cursor inside a helper function in a way this rule does not follow: "+detail)
 					continue
 				}
 				r.Check(ok, rule, construct, p.Pos(s.in.Pos()), detail, detail)
@@ -1137,68 +1395,346 @@ func c01RuleCursor(p *Program, r *Reporter, insts []*c01Inst) {
 		}
 	}
 	r.Analysed("cursor_instances", len(insts))
-	r.Floor(rule, 16)
+	r.Floor(rule, 15) // 17 today
+}
+
+// c01CmpSite is one comparison that decides a branch of function g: an If of
+// g itself, or a comparison inside a bool helper whose result an If of g
+// branches on (a comparison the helper branches on, or one it returns).
+type c01CmpSite struct {
+	at       *ssa.BasicBlock // the block of g whose If is decided
+	op       token.Token
+	x, y     ssa.Value
+	fn       *ssa.Function // the function x and y belong to
+	isAfter  func(ssa.Value) bool
+	isLimit  func(ssa.Value) bool
+	toG      func(ssa.Value) ssa.Value          // the value of g a value of fn stands for (nil: none)
+	succs    func(holds bool) []*ssa.BasicBlock // the successors of at control can continue with when the comparison holds / does not hold
+	line     int
+	inHelper bool
+}
+
+// reach: the blocks of g reachable when the comparison holds / does not hold;
+// cutBack: within the same loop iteration; cut: edges not to follow.
+func (cs c01CmpSite) reach(holds, cutBack bool, cut map[[2]*ssa.BasicBlock]bool) map[*ssa.BasicBlock]bool {
+	out := map[*ssa.BasicBlock]bool{}
+	var walk func(u, v *ssa.BasicBlock)
+	walk = func(u, v *ssa.BasicBlock) {
+		if cutBack && v.Dominates(u) || cut[[2]*ssa.BasicBlock{u, v}] || out[v] {
+			return
+		}
+		out[v] = true
+		for _, w := range v.Succs {
+			walk(v, w)
+		}
+	}
+	for _, sc := range cs.succs(holds) {
+		walk(cs.at, sc)
+	}
+	return out
+}
+
+func c01StripNot(cond ssa.Value) (ssa.Value, bool) {
+	neg := false
+	for {
+		u, isNot := cond.(*ssa.UnOp)
+		if !isNot || u.Op != token.NOT {
+			return cond, neg
+		}
+		cond, neg = u.X, !neg
+	}
+}
+
+// c01CmpSites lists the comparison sites of g for body b.
+func c01CmpSites(g *ssa.Function, b *c01Body) []c01CmpSite {
+	var out []c01CmpSite
+	lineOf := func(v ssa.Value) int { return g.Prog.Fset.Position(v.Pos()).Line }
+	for _, blk := range g.Blocks {
+		if len(blk.Instrs) == 0 || len(blk.Succs) != 2 {
+			continue
+		}
+		ifi, ok := blk.Instrs[len(blk.Instrs)-1].(*ssa.If)
+		if !ok {
+			continue
+		}
+		blk := blk
+		if op, x, y, trueIdx, ok := c01CondCmp(ifi.Cond); ok {
+			out = append(out, c01CmpSite{at: blk, op: op, x: x, y: y, fn: g, isAfter: b.isAfter, isLimit: b.isLimit,
+				toG: func(v ssa.Value) ssa.Value { return v },
+				succs: func(holds bool) []*ssa.BasicBlock {
+					i := trueIdx
+					if !holds {
+						i = 1 - trueIdx
+					}
+					return []*ssa.BasicBlock{blk.Succs[i]}
+				},
+				line: lineOf(ifi.Cond)})
+			continue
+		}
+		cond, neg := c01StripNot(ifi.Cond)
+		call, isCall := originValue(cond).(*ssa.Call)
+		if !isCall {
+			continue
+		}
+		h := c01BoolHelper(call)
+		if h == nil {
+			continue
+		}
+		args := (CallSite{call.Parent(), call}).Args()
+		argOf := func(v ssa.Value) ssa.Value {
+			prm, ok := originValue(v).(*ssa.Parameter)
+			if !ok || prm.Parent() != h {
+				if _, isK := v.(*ssa.Const); isK {
+					return v
+				}
+				return nil
+			}
+			if i := c01ParamIndex(h, prm); i >= 0 && i < len(args) {
+				return args[i]
+			}
+			return nil
+		}
+		isAfterH := func(v ssa.Value) bool {
+			prm, ok := v.(*ssa.Parameter)
+			if !ok || prm.Parent() != h {
+				return false
+			}
+			a := argOf(prm)
+			return a != nil && c01PureCursor(a, b.isAfter, 0) && DependsOn(a, b.isAfter)
+		}
+		isLimitH := func(v ssa.Value) bool {
+			prm, ok := v.(*ssa.Parameter)
+			if !ok || prm.Parent() != h {
+				return false
+			}
+			a := argOf(prm)
+			return a != nil && DependsOn(a, b.isLimit)
+		}
+		// successor of blk taken when the helper returns val
+		succOf := func(val bool) *ssa.BasicBlock {
+			if val != neg {
+				return blk.Succs[0]
+			}
+			return blk.Succs[1]
+		}
+		callerSuccs := func(vals map[bool]bool) []*ssa.BasicBlock {
+			var out []*ssa.BasicBlock
+			for _, v := range []bool{true, false} {
+				if vals[v] {
+					out = append(out, succOf(v))
+				}
+			}
+			return out
+		}
+		// (i) comparisons the helper returns
+		var leaves func(v ssa.Value, depth int)
+		leaves = func(v ssa.Value, depth int) {
+			if ph, ok := v.(*ssa.Phi); ok && depth < 6 {
+				for _, ev := range ph.Edges {
+					leaves(ev, depth+1)
+				}
+				return
+			}
+			c, n := c01StripNot(v)
+			// a comparison as a value: the result is true exactly when it holds
+			op, x, y, trueIdx, ok := c01CondCmp(c)
+			if !ok {
+				return
+			}
+			holdsMeans := (trueIdx == 0) != n // the result value when "x op y" holds
+			out = append(out, c01CmpSite{at: blk, op: op, x: x, y: y, fn: h, isAfter: isAfterH, isLimit: isLimitH, toG: argOf,
+				succs: func(holds bool) []*ssa.BasicBlock {
+					return callerSuccs(map[bool]bool{holds == holdsMeans: true})
+				},
+				line: lineOf(c), inHelper: true})
+		}
+		for _, ri := range Returns(h) {
+			if len(ri.Results) == 1 {
+				leaves(ri.Results[0], 0)
+			}
+		}
+		// (ii) comparisons the helper branches on
+		for _, hb := range h.Blocks {
+			if len(hb.Instrs) == 0 || len(hb.Succs) != 2 {
+				continue
+			}
+			hif, ok := hb.Instrs[len(hb.Instrs)-1].(*ssa.If)
+			if !ok {
+				continue
+			}
+			op, x, y, trueIdx, ok := c01CondCmp(hif.Cond)
+			if !ok {
+				continue
+			}
+			hb := hb
+			out = append(out, c01CmpSite{at: blk, op: op, x: x, y: y, fn: h, isAfter: isAfterH, isLimit: isLimitH, toG: argOf,
+				succs: func(holds bool) []*ssa.BasicBlock {
+					i := trueIdx
+					if !holds {
+						i = 1 - trueIdx
+					}
+					return callerSuccs(c01ResultsFrom(h, hb, hb.Succs[i]))
+				},
+				line: lineOf(hif.Cond), inHelper: true})
+		}
+	}
+	return out
+}
+
+// c01ResultsFrom: the values bool helper h can return on paths through the edge from->to.
+func c01ResultsFrom(h *ssa.Function, from, to *ssa.BasicBlock) map[bool]bool {
+	out := map[bool]bool{}
+	reach := c01Reach(from, to, false)
+	both := func() { out[true], out[false] = true, true }
+	var val func(v ssa.Value, at *ssa.BasicBlock, depth int)
+	val = func(v ssa.Value, at *ssa.BasicBlock, depth int) {
+		if c, ok := v.(*ssa.Const); ok && c.Value != nil {
+			out[c.Value.String() == "true"] = true
+			return
+		}
+		if ph, ok := v.(*ssa.Phi); ok && depth < 6 {
+			for i, ev := range ph.Edges {
+				pb := ph.Block().Preds[i]
+				if reach[pb] || (pb == from && ph.Block() == to) {
+					val(ev, pb, depth+1)
+				}
+			}
+			return
+		}
+		both()
+	}
+	for _, ri := range Returns(h) {
+		if !reach[ri.Ret.Block()] {
+			continue
+		}
+		if len(ri.Results) != 1 {
+			both()
+			continue
+		}
+		val(ri.Results[0], ri.Ret.Block(), 0)
+	}
+	return out
+}
+
+// c01CursorEmptyEdge: the successor index of blk on which the cursor is known
+// to be empty (a test `after == ""`, `after != ""`, `len(after) ==/!=/> 0`), or -1.
+// With an empty cursor no key is <= the cursor.
+func c01CursorEmptyEdge(blk *ssa.BasicBlock, isAfter func(ssa.Value) bool) int {
+	if len(blk.Instrs) == 0 || len(blk.Succs) != 2 {
+		return -1
+	}
+	ifi, ok := blk.Instrs[len(blk.Instrs)-1].(*ssa.If)
+	if !ok {
+		return -1
+	}
+	op, x, y, trueIdx, ok := c01CondCmp(ifi.Cond)
+	if !ok {
+		return -1
+	}
+	pure := func(v ssa.Value) bool { return c01PureCursor(v, isAfter, 0) && DependsOn(v, isAfter) }
+	isLenOfCursor := func(v ssa.Value) bool {
+		call, ok := v.(*ssa.Call)
+		if !ok {
+			return false
+		}
+		bi, ok := call.Call.Value.(*ssa.Builtin)
+		return ok && bi.Name() == "len" && len(call.Call.Args) == 1 && pure(call.Call.Args[0])
+	}
+	emptyStr := func(v ssa.Value) bool { s, ok := ConstString(v); return ok && s == "" }
+	zero := func(v ssa.Value) bool { k, ok := ConstInt(v); return ok && k == 0 }
+	var emptyWhenHolds, known bool
+	switch {
+	case pure(x) && emptyStr(y), emptyStr(x) && pure(y):
+		switch op {
+		case token.EQL:
+			emptyWhenHolds, known = true, true
+		case token.NEQ:
+			emptyWhenHolds, known = false, true
+		}
+	case isLenOfCursor(x) && zero(y):
+		switch op {
+		case token.EQL, token.LEQ:
+			emptyWhenHolds, known = true, true
+		case token.NEQ, token.GTR:
+			emptyWhenHolds, known = false, true
+		}
+	case zero(x) && isLenOfCursor(y):
+		switch op {
+		case token.EQL, token.GEQ:
+			emptyWhenHolds, known = true, true
+		case token.NEQ, token.LSS:
+			emptyWhenHolds, known = false, true
+		}
+	}
+	if !known {
+		return -1
+	}
+	if emptyWhenHolds {
+		return trueIdx
+	}
+	return 1 - trueIdx
 }
 
 // c01CursorGuard decides rule (a) for one send: some comparison of a key
 // against a value built only from the cursor has a "key <= cursor" (or
 // "key == cursor" after an inclusive Find on the cursor) edge from which the
 // send cannot be reached within the same loop iteration, while it can from the
-// other edge.
-func c01CursorGuard(s c01Send, kv *types.Interface) (bool, string) {
+// other edge. The comparison may sit in a bool helper the branch calls; edges
+// on which the cursor is known to be empty are not followed.
+func c01CursorGuard(s c01Send, all []c01Send, e *c01Eff, kv *types.Interface) (bool, string) {
 	g := s.in.Parent()
 	b := s.body
 	sb := s.in.Block()
 	var why []string
+	// edges on which the cursor is empty: nothing is <= an empty cursor
+	emptyCut := map[[2]*ssa.BasicBlock]bool{}
 	for _, blk := range g.Blocks {
-		if len(blk.Instrs) == 0 {
+		if i := c01CursorEmptyEdge(blk, b.isAfter); i >= 0 {
+			emptyCut[[2]*ssa.BasicBlock{blk, blk.Succs[i]}] = true
+		}
+	}
+	for _, cs := range c01CmpSites(g, b) {
+		op, x, y := cs.op, cs.x, cs.y
+		if !c01IsStringish(x.Type()) {
 			continue
 		}
-		ifi, ok := blk.Instrs[len(blk.Instrs)-1].(*ssa.If)
-		if !ok || len(blk.Succs) != 2 {
-			continue
-		}
-		op, x, y, trueIdx, ok := c01CondCmp(ifi.Cond)
-		if !ok || !c01IsStringish(x.Type()) {
-			continue
-		}
-		dep := func(v ssa.Value) bool { return DependsOn(v, b.isAfter) }
-		curX := c01PureCursor(x, b.isAfter, 0) && dep(x)
-		curY := c01PureCursor(y, b.isAfter, 0) && dep(y)
+		dep := func(v ssa.Value) bool { return DependsOn(v, cs.isAfter) }
+		curX := c01PureCursor(x, cs.isAfter, 0) && dep(x)
+		curY := c01PureCursor(y, cs.isAfter, 0) && dep(y)
 		var keyV ssa.Value
 		switch {
-		case curY && !c01PureCursor(x, b.isAfter, 0):
+		case curY && !c01PureCursor(x, cs.isAfter, 0):
 			keyV = x
-		case curX && !c01PureCursor(y, b.isAfter, 0):
+		case curX && !c01PureCursor(y, cs.isAfter, 0):
 			keyV, op = y, c01Flip(op)
 		default:
 			continue
 		}
-		line := g.Prog.Fset.Position(ifi.Cond.Pos()).Line
-		// which edge means "key is not after the cursor"
-		lowIdx := -1
-		needFind := false
+		line := cs.line
+		// which side means "key is not after the cursor"
+		lowHolds, needFind := false, false
 		switch op {
 		case token.LEQ:
-			lowIdx = trueIdx
+			lowHolds = true
 		case token.GTR:
-			lowIdx = 1 - trueIdx
+			lowHolds = false
 		case token.EQL:
-			lowIdx, needFind = trueIdx, true
+			lowHolds, needFind = true, true
 		case token.NEQ:
-			lowIdx, needFind = 1-trueIdx, true
+			lowHolds, needFind = false, true
 		default:
 			why = append(why, fmt.Sprintf("the comparison at line %d is key %s cursor: an element equal to the cursor is not skipped (cursor would be inclusive)", line, op))
 			continue
 		}
 		if needFind {
 			positioned := false
-			for _, c := range CallsIn(g, false) {
+			for _, c := range e.allCalls() {
 				if c.Value() == nil || !c.IsMethod("Find", kv) || len(c.Args()) < 2 {
 					continue
 				}
 				start := c.Args()[1]
-				if c01PureCursor(start, b.isAfter, 0) && dep(start) && DependsOn(keyV, func(v ssa.Value) bool { return v == ssa.Value(c.Value()) }) {
+				pureStart := e.depends(start, e.rootAfter()) && c01PureCursorEff(e, start, 0)
+				if pureStart && e.depends(keyV, func(v ssa.Value) bool { return v == ssa.Value(c.Value()) }) {
 					positioned = true
 				}
 			}
@@ -1207,8 +1743,8 @@ func c01CursorGuard(s c01Send, kv *types.Interface) (bool, string) {
 				continue
 			}
 		}
-		low := c01Reach(blk, blk.Succs[lowIdx], true)
-		high := c01Reach(blk, blk.Succs[1-lowIdx], true)
+		low := cs.reach(lowHolds, true, emptyCut)
+		high := cs.reach(!lowHolds, true, nil)
 		if low[sb] {
 			why = append(why, fmt.Sprintf("on the key<=cursor edge of the comparison at line %d the send is still reached in the same iteration", line))
 			continue
@@ -1220,12 +1756,76 @@ func c01CursorGuard(s c01Send, kv *types.Interface) (bool, string) {
 		if needFind {
 			form = "key == cursor, iterator positioned by Find(cursor)"
 		}
-		return true, fmt.Sprintf("leaf (%s): the send is skipped within the iteration on the '%s' edge of the comparison at line %d against a value built only from `after`", b.how, form, line)
+		where := ""
+		if cs.inHelper {
+			where = " (inside helper " + FuncKey(cs.fn) + ")"
+		}
+		return true, fmt.Sprintf("leaf (%s): the send is skipped within the iteration on the '%s' edge of the comparison at line %d%s against a value built only from `after`", b.how, form, line, where)
 	}
 	if len(why) == 0 {
 		why = append(why, "no comparison of an element key against the cursor guards the send")
 	}
 	return false, fmt.Sprintf("leaf (%s): send at line %d is not guarded by an exclusive cursor test: %s", b.how, g.Prog.Fset.Position(s.in.Pos()).Line, strings.Join(why, "; "))
+}
+
+// rootAfter: "is the root's cursor parameter" for the instance root of this body.
+func (e *c01Eff) rootAfter() func(ssa.Value) bool {
+	_, ai, _, ok := c01FamilyIdx(e.root.Signature)
+	if !ok {
+		return func(ssa.Value) bool { return false }
+	}
+	off := len(e.root.Params) - e.root.Signature.Params().Len()
+	prm := e.root.Params[ai+off]
+	return func(v ssa.Value) bool { return v == ssa.Value(prm) }
+}
+
+// c01PureCursorEff is c01PureCursor across helper boundaries.
+func c01PureCursorEff(e *c01Eff, v ssa.Value, depth int) bool {
+	if depth > 12 || v == nil {
+		return false
+	}
+	isAfter := e.rootAfter()
+	for _, o := range e.origins(v) {
+		if isAfter(o) {
+			continue
+		}
+		switch x := o.(type) {
+		case *ssa.Const:
+		case *ssa.BinOp:
+			if x.Op != token.ADD || !c01PureCursorEff(e, x.X, depth+1) || !c01PureCursorEff(e, x.Y, depth+1) {
+				return false
+			}
+		case *ssa.Convert:
+			if !c01PureCursorEff(e, x.X, depth+1) {
+				return false
+			}
+		case *ssa.Slice:
+			if !c01PureCursorEff(e, x.X, depth+1) {
+				return false
+			}
+		case *ssa.UnOp:
+			// a captured/spilled cursor variable that is only ever assigned the cursor
+			if x.Op != token.MUL {
+				return false
+			}
+			cell, ok := varOf(x.X)
+			if !ok {
+				return false
+			}
+			sts := storesTo(cell)
+			if len(sts) == 0 {
+				return false
+			}
+			for _, st := range sts {
+				if !c01PureCursorEff(e, st.Val, depth+1) {
+					return false
+				}
+			}
+		default:
+			return false
+		}
+	}
+	return true
 }
 
 // c01CursorHelperTest: some branch of the send's function is decided by a call
@@ -1240,15 +1840,8 @@ func c01CursorHelperTest(s c01Send) bool {
 		if !ok {
 			continue
 		}
-		cond := ifi.Cond
-		for {
-			u, isNot := cond.(*ssa.UnOp)
-			if !isNot || u.Op != token.NOT {
-				break
-			}
-			cond = u.X
-		}
-		call, ok := cond.(*ssa.Call)
+		cond, _ := c01StripNot(ifi.Cond)
+		call, ok := originValue(cond).(*ssa.Call)
 		if !ok {
 			continue
 		}
@@ -1279,14 +1872,16 @@ func c01RuleLimit(p *Program, r *Reporter, insts []*c01Inst) {
 		case in.class == "silent":
 		case in.class == "forwarder":
 			for _, d := range in.destDelegs {
-				ok := DependsOn(d.limit, in.bodies[0].isLimit)
+				ok := DependsOn(d.limit, d.body.isLimit)
 				r.Check(ok, rule, key+"#forward-limit:"+d.c.CalleeKey(), p.Pos(d.c.Pos()),
 					"forwarder: the limit handed to "+d.c.CalleeKey()+" derives from `limit`",
 					"forwarder: the limit argument of "+d.c.CalleeKey()+" does not derive from the enumerator's `limit` parameter")
 			}
 		default: // leaf and merge: the local send loop must be bounded
-			for _, s := range in.sends {
-				ok, undecided, detail := c01LimitBound(s, in.sends)
+			all := in.allSends()
+			for i := range in.sends {
+				s := &in.sends[i]
+				ok, undecided, detail := c01AtSomeLevel(s, func(l *c01Send) (bool, bool, string) { return c01LimitBound(*l, all) })
 				construct := key + "#limit-bound"
 				if s.body.how != "direct" {
 					construct += ":" + FuncKey(s.body.fn)
@@ -1299,7 +1894,7 @@ func c01RuleLimit(p *Program, r *Reporter, insts []*c01Inst) {
 			}
 		}
 	}
-	r.Floor(rule, 16)
+	r.Floor(rule, 15) // 17 today
 }
 
 // c01Counter describes how the compared quantity evolves: its initial
@@ -1312,6 +1907,9 @@ type c01Counter struct {
 
 func c01CounterOf(v ssa.Value, g *ssa.Function) (ct c01Counter, ok bool) {
 	isStep := func(val ssa.Value, self func(ssa.Value) bool) bool {
+		if c01SteppedByHelper(val, self) {
+			return true
+		}
 		bo, ok := val.(*ssa.BinOp)
 		if !ok || (bo.Op != token.ADD && bo.Op != token.SUB) {
 			return false
@@ -1343,6 +1941,21 @@ func c01CounterOf(v ssa.Value, g *ssa.Function) (ct c01Counter, ok bool) {
 				switch y := e.(type) {
 				case *ssa.Phi:
 					grow(y)
+				case *ssa.Extract, *ssa.Call:
+					// the counter handed to a helper that steps it and hands it back
+					var call *ssa.Call
+					if ex, isEx := y.(*ssa.Extract); isEx {
+						call, _ = ex.Tuple.(*ssa.Call)
+					} else {
+						call = y.(*ssa.Call)
+					}
+					if call != nil && c01BoolHelperLike(call) != nil {
+						for _, a := range call.Call.Args {
+							if q, isPhi := a.(*ssa.Phi); isPhi && c01IsBasic(q.Type(), types.Int) {
+								grow(q)
+							}
+						}
+					}
 				case *ssa.BinOp:
 					if y.Op != token.ADD && y.Op != token.SUB {
 						continue
@@ -1361,15 +1974,15 @@ func c01CounterOf(v ssa.Value, g *ssa.Function) (ct c01Counter, ok bool) {
 		}
 		grow(x)
 		inits := map[int64]bool{}
-		seenStep := map[*ssa.BinOp]bool{}
+		seenStep := map[ssa.Value]bool{}
 		for m := range web {
 			for _, e := range m.(*ssa.Phi).Edges {
 				switch {
 				case web[e]:
 				case isStep(e, self):
-					if bo := e.(*ssa.BinOp); !seenStep[bo] {
-						seenStep[bo] = true
-						ct.updates = append(ct.updates, bo)
+					if in, isIn := e.(ssa.Instruction); isIn && !seenStep[e] {
+						seenStep[e] = true
+						ct.updates = append(ct.updates, in)
 					}
 				default:
 					if k, isK := ConstInt(e); isK {
@@ -1440,84 +2053,134 @@ func c01CounterOf(v ssa.Value, g *ssa.Function) (ct c01Counter, ok bool) {
 	return ct, false
 }
 
-// c01LimitBound decides E-limit for one send.
+// c01BoolHelperLike: the in-package helper (or literal) with source that call invokes.
+func c01BoolHelperLike(call *ssa.Call) *ssa.Function {
+	h := (CallSite{call.Parent(), call}).Callee()
+	if h == nil || h.Blocks == nil || !c01IsHelperOf(TopFunc(call.Parent()), h) {
+		return nil
+	}
+	return h
+}
+
+// c01SteppedByHelper: val is the result of a helper call that received the
+// counter (self) as an argument and returns it stepped: inside the helper the
+// returned value is a counter that starts at that parameter.
+var c01StepDepth int
+
+func c01SteppedByHelper(val ssa.Value, self func(ssa.Value) bool) bool {
+	if c01StepDepth > 3 {
+		return false // a helper that recurses into itself: not followed
+	}
+	c01StepDepth++
+	defer func() { c01StepDepth-- }()
+	var call *ssa.Call
+	idx := 0
+	switch x := val.(type) {
+	case *ssa.Extract:
+		call, _ = x.Tuple.(*ssa.Call)
+		idx = x.Index
+	case *ssa.Call:
+		call = x
+	}
+	if call == nil {
+		return false
+	}
+	h := c01BoolHelperLike(call)
+	if h == nil {
+		return false
+	}
+	for ai, a := range call.Call.Args {
+		if !self(a) || ai >= len(h.Params) {
+			continue
+		}
+		prm := h.Params[ai]
+		okAll, n := true, 0
+		for _, ri := range Returns(h) {
+			if idx >= len(ri.Results) {
+				return false
+			}
+			rv := ri.Results[idx]
+			n++
+			if originValue(rv) == ssa.Value(prm) {
+				continue // returned unchanged on this path
+			}
+			if _, isCounter := c01CounterOf(rv, h); !isCounter || !DependsOn(rv, func(o ssa.Value) bool { return o == ssa.Value(prm) }) {
+				okAll = false
+			}
+		}
+		if okAll && n > 0 {
+			return true
+		}
+	}
+	return false
+}
+
+// c01LimitBound decides E-limit for one send (or, for a virtual send, for the
+// call of the helper that sends). Candidate comparisons: every comparison site
+// of the function (its own Ifs and the comparisons inside bool helpers its Ifs
+// call) and, for an If with a stop edge, the comparisons known to hold on
+// entry of that If (`n == limit && limit > 0`).
 func c01LimitBound(s c01Send, all []c01Send) (ok, undecided bool, detail string) {
 	g := s.in.Parent()
 	b := s.body
 	sb := s.in.Block()
 	sendBlocks := c01SendBlocks(all, g)
-	dep := func(v ssa.Value) bool { return DependsOn(v, b.isLimit) }
 	var why []string
-	for _, blk := range g.Blocks {
-		if len(blk.Instrs) == 0 {
-			continue
+	hitsSend := func(reach map[*ssa.BasicBlock]bool) bool {
+		for sblk := range sendBlocks {
+			if reach[sblk] {
+				return true
+			}
 		}
-		ifi, isIf := blk.Instrs[len(blk.Instrs)-1].(*ssa.If)
-		if !isIf || len(blk.Succs) != 2 {
-			continue
+		return false
+	}
+	// accept decides one comparison `x heldOp y` known to hold on a stop edge; inLoopAt is the block where it is evaluated
+	accept := func(heldOp token.Token, x, y ssa.Value, cs c01CmpSite, inLoopAt *ssa.BasicBlock, line int) (ok, undecided, cont bool, detail string) {
+		if !c01IsBasic(x.Type(), types.Int) {
+			return false, false, true, ""
 		}
-		op, x, y, trueIdx, isCmp := c01CondCmp(ifi.Cond)
-		if !isCmp || !c01IsBasic(x.Type(), types.Int) {
-			continue
-		}
+		dep := func(v ssa.Value) bool { return DependsOn(v, cs.isLimit) }
 		dx, dy := dep(x), dep(y)
 		if dx == dy {
-			continue
+			return false, false, true, ""
 		}
 		// normalise to  q op other  with q the side that moves: the counter (up form) or the remaining budget (down form)
-		lim, other := x, y
+		lim, other, op := x, y, heldOp
 		if dy {
-			lim, other, op = y, x, c01Flip(op)
+			lim, other, op = y, x, c01Flip(heldOp)
 		}
-		line := g.Prog.Fset.Position(ifi.Cond.Pos()).Line
 		var counter ssa.Value
-		var stopWhenTrue, stopWhenFalse []token.Token
+		var stopSet []token.Token
 		form := ""
 		if k, isK := ConstInt(other); isK {
 			// down form: lim is a budget derived from limit, compared with a constant
 			counter, form = lim, "remaining budget vs constant"
 			switch k {
 			case 0:
-				stopWhenTrue, stopWhenFalse = []token.Token{token.LEQ, token.EQL}, []token.Token{token.GTR, token.NEQ}
+				stopSet = []token.Token{token.LEQ, token.EQL}
 			case 1:
-				stopWhenTrue, stopWhenFalse = []token.Token{token.LSS}, []token.Token{token.GEQ}
+				stopSet = []token.Token{token.LSS}
 			default:
-				continue
+				return false, false, true, ""
 			}
 		} else {
 			// up form: other is a counter, lim the limit:  counter flip(op) lim
 			counter, op, form = other, c01Flip(op), "send counter vs limit"
-			stopWhenTrue, stopWhenFalse = []token.Token{token.GEQ, token.EQL}, []token.Token{token.LSS, token.NEQ}
+			stopSet = []token.Token{token.GEQ, token.EQL}
 		}
-		// candidate stop edge: an edge from which no send on dest is reachable at all
-		stopIdx := -1
-		for i := 0; i < 2; i++ {
-			reach := c01Reach(blk, blk.Succs[i], false)
-			hit := false
-			for sblk := range sendBlocks {
-				if reach[sblk] {
-					hit = true
-				}
-			}
-			if !hit {
-				stopIdx = i
-			}
-		}
-		if stopIdx < 0 {
-			continue // both edges reach a send (a guard such as `limit != 0 &&`), or none does
-		}
-		goReach := c01Reach(blk, blk.Succs[1-stopIdx], false)
-		if !goReach[sb] {
-			continue
-		}
-		if !c01ReachesFrom(sb, blk) {
+		if !c01ReachesFrom(sb, inLoopAt) {
 			why = append(why, fmt.Sprintf("the comparison at line %d is evaluated once, not in the loop of the send", line))
-			continue
+			return false, false, true, ""
 		}
-		ct, isCounter := c01CounterOf(counter, g)
+		cg := cs.toG(counter)
+		if cg == nil {
+			why = append(why, fmt.Sprintf("the quantity compared at line %d inside helper %s is not one of the helper's arguments", line, FuncKey(cs.fn)))
+			return false, false, true, ""
+		}
+		ct, isCounter := c01CounterOf(cg, g)
 		if !isCounter {
 			why = append(why, fmt.Sprintf("the quantity compared at line %d is never stepped (no counter update found)", line))
-			continue
+			return false, false, true, ""
 		}
 		onPath := false
 		for _, u := range ct.updates {
@@ -1527,37 +2190,92 @@ func c01LimitBound(s c01Send, all []c01Send) (ok, undecided bool, detail string)
 		}
 		if !onPath {
 			why = append(why, fmt.Sprintf("the counter compared at line %d is not stepped on the path of the send (its updates neither dominate the send nor are dominated by it)", line))
-			continue
+			return false, false, true, ""
 		}
 		// polarity: stop at count >= limit (budget <= 0), not one later
-		stopTrue := stopIdx == trueIdx
 		if form == "send counter vs limit" {
 			if !ct.initKnown {
-				return false, true, fmt.Sprintf("cannot determine the initial value of the counter compared with limit at line %d", line)
+				return false, true, false, fmt.Sprintf("cannot determine the initial value of the counter compared with limit at line %d", line)
 			}
 			switch ct.init {
 			case 0:
 			case 1:
-				stopWhenTrue, stopWhenFalse = []token.Token{token.GTR}, []token.Token{token.LEQ}
+				stopSet = []token.Token{token.GTR}
 			default:
-				return false, true, fmt.Sprintf("counter compared with limit at line %d starts at %d; polarity not modelled", line, ct.init)
+				return false, true, false, fmt.Sprintf("counter compared with limit at line %d starts at %d; polarity not modelled", line, ct.init)
 			}
 		}
 		okPol := false
-		set := stopWhenFalse
-		if stopTrue {
-			set = stopWhenTrue
-		}
-		for _, t := range set {
+		for _, t := range stopSet {
 			if t == op {
 				okPol = true
 			}
 		}
 		if !okPol {
-			why = append(why, fmt.Sprintf("the comparison at line %d (%s, stop edge when %v is %v) lets one element more than limit through (or never stops at limit)", line, form, op, stopTrue))
+			why = append(why, fmt.Sprintf("the comparison at line %d (%s: %v holds on the stop edge) lets one element more than limit through (or never stops at limit)", line, form, op))
+			return false, false, true, ""
+		}
+		where := ""
+		if cs.inHelper {
+			where = " (inside helper " + FuncKey(cs.fn) + ")"
+		}
+		return true, false, false, fmt.Sprintf("%s (%s): comparison at line %d%s in the send's loop has a stop edge that reaches no send, stops at count >= limit, and its counter is stepped on the send path", b.how, form, line, where)
+	}
+	sites := c01CmpSites(g, b)
+	for _, cs := range sites {
+		// candidate stop side: a side from which no send on dest is reachable at all
+		stopKnown, stopHolds := false, false
+		for _, holds := range []bool{true, false} {
+			if !hitsSend(cs.reach(holds, false, nil)) {
+				stopKnown, stopHolds = true, holds
+			}
+		}
+		if !stopKnown {
+			continue // both sides reach a send (a guard such as `limit != 0 &&`)
+		}
+		if !cs.reach(!stopHolds, false, nil)[sb] {
 			continue
 		}
-		return true, false, fmt.Sprintf("%s (%s): comparison at line %d in the send's loop has a stop edge that reaches no send, stops at count >= limit, and its counter is stepped on the send path", b.how, form, line)
+		heldOp := cs.op
+		if !stopHolds {
+			heldOp = c01SubNegate(cs.op)
+		}
+		ok, und, cont, d := accept(heldOp, cs.x, cs.y, cs, cs.at, cs.line)
+		if !cont {
+			return ok, und, d
+		}
+	}
+	// an If one of whose edges stops the sends: what is known to hold when it is evaluated holds on the stop edge too
+	for _, blk := range g.Blocks {
+		if len(blk.Instrs) == 0 || len(blk.Succs) != 2 {
+			continue
+		}
+		if _, isIf := blk.Instrs[len(blk.Instrs)-1].(*ssa.If); !isIf {
+			continue
+		}
+		stopIdx := -1
+		for i := 0; i < 2; i++ {
+			if !hitsSend(c01Reach(blk, blk.Succs[i], false)) {
+				stopIdx = i
+			}
+		}
+		if stopIdx < 0 || !c01Reach(blk, blk.Succs[1-stopIdx], false)[sb] {
+			continue
+		}
+		for _, f := range FactsAt(blk) {
+			op, x, y, trueIdx, isCmp := c01CondCmp(f.Cond)
+			if !isCmp {
+				continue
+			}
+			if (trueIdx == 0) != f.Val {
+				op = c01SubNegate(op)
+			}
+			cs := c01CmpSite{at: f.At, fn: g, isAfter: b.isAfter, isLimit: b.isLimit, toG: func(v ssa.Value) ssa.Value { return v }}
+			ok, und, cont, d := accept(op, x, y, cs, f.At, g.Prog.Fset.Position(f.Cond.Pos()).Line)
+			if !cont {
+				return ok, und, d
+			}
+		}
 	}
 	if len(why) == 0 {
 		why = append(why, "no comparison involving `limit` has an edge that stops the sends")
@@ -1880,89 +2598,237 @@ func c01EdgeName(p *Program, e c01NilRet) string {
 
 // ===========================================================================
 // S-route
+//
+// Anchors by role: the shard type is the blob-receiving struct type of the
+// shard package, its shard list the field that is a slice of blob receivers.
+// The routing function is not looked up by name: the index expression of every
+// routing read of that slice is rendered symbolically - through the helpers of
+// the package it calls, with their parameters replaced by the arguments - as a
+// term over REF (one blob.Ref value) and N (len of the shard list). Every
+// routing read must render, and all must render to the same term.
+
+type c01RouteFrame struct {
+	env map[*ssa.Parameter]ssa.Value
+	up  *c01RouteFrame
+}
+
+type c01Route struct {
+	pkg      *ssa.Package
+	isShards func(ssa.Value) bool
+	// per render:
+	refs    []ssa.Value              // the blob.Ref values the term is computed from (in the outermost frame)
+	helpers map[*ssa.Function]string // helpers rendered through -> "" or the reason the term is not pure there
+	badIn   *ssa.Function            // where rendering failed
+}
+
+func (rt *c01Route) fail(at ssa.Value, why string) (string, string) {
+	if in, ok := at.(ssa.Instruction); ok && in.Parent() != nil {
+		rt.badIn = in.Parent()
+	} else if prm, ok := at.(*ssa.Parameter); ok {
+		rt.badIn = prm.Parent()
+	}
+	if rt.badIn != nil && rt.helpers != nil {
+		if _, isHelper := rt.helpers[rt.badIn]; isHelper {
+			rt.helpers[rt.badIn] = why
+		}
+	}
+	return "", why
+}
+
+func (rt *c01Route) render(v ssa.Value, fr *c01RouteFrame, depth int) (term, bad string) {
+	if depth > 40 {
+		return rt.fail(v, "an expression too deep to follow")
+	}
+	for i := 0; i < 8; i++ {
+		switch x := v.(type) {
+		case *ssa.Convert:
+			v = x.X
+			continue
+		case *ssa.ChangeType:
+			v = x.X
+			continue
+		}
+		break
+	}
+	v = originValue(v)
+	if prm, ok := v.(*ssa.Parameter); ok {
+		for f := fr; f != nil; f = f.up {
+			if a, bound := f.env[prm]; bound {
+				return rt.render(a, f.up, depth+1)
+			}
+		}
+	}
+	if c01IsRef(v.Type()) {
+		rt.refs = append(rt.refs, v)
+		return "REF", ""
+	}
+	switch x := v.(type) {
+	case *ssa.Parameter:
+		return rt.fail(x, "parameter "+x.Name())
+	case *ssa.Const:
+		if x.Value == nil {
+			return "nil", ""
+		}
+		return x.Value.ExactString(), ""
+	case *ssa.Convert:
+		return rt.render(x.X, fr, depth+1)
+	case *ssa.BinOp:
+		a, bad := rt.render(x.X, fr, depth+1)
+		if bad != "" {
+			return "", bad
+		}
+		b, bad := rt.render(x.Y, fr, depth+1)
+		if bad != "" {
+			return "", bad
+		}
+		return "(" + a + x.Op.String() + b + ")", ""
+	case *ssa.UnOp:
+		if x.Op == token.MUL {
+			return rt.fail(x, "a load of something other than the shard list ("+AccessPath(x)+")")
+		}
+		a, bad := rt.render(x.X, fr, depth+1)
+		if bad != "" {
+			return "", bad
+		}
+		return x.Op.String() + a, ""
+	case *ssa.Call:
+		if b, ok := x.Call.Value.(*ssa.Builtin); ok {
+			if b.Name() == "len" && len(x.Call.Args) == 1 && rt.isShards(x.Call.Args[0]) {
+				return "N", ""
+			}
+			return rt.fail(x, "the builtin "+b.Name()+" of something other than the shard list")
+		}
+		f := x.Call.StaticCallee()
+		if f == nil {
+			return rt.fail(x, "a dynamic call")
+		}
+		if f.Signature.Recv() != nil && c01IsRef(f.Signature.Recv().Type()) {
+			out := "Ref." + f.Name() + "("
+			for i, a := range x.Call.Args {
+				t, bad := rt.render(a, fr, depth+1)
+				if bad != "" {
+					return "", bad
+				}
+				if i > 0 {
+					out += ","
+				}
+				out += t
+			}
+			return out + ")", ""
+		}
+		if f.Pkg == rt.pkg && f.Blocks != nil && f.Signature.Results().Len() == 1 {
+			rets := Returns(f)
+			if len(rets) != 1 {
+				return rt.fail(x, "the call "+FuncKey(f)+", which has several returns")
+			}
+			if _, seen := rt.helpers[f]; !seen {
+				rt.helpers[f] = ""
+			}
+			env := map[*ssa.Parameter]ssa.Value{}
+			for i, prm := range f.Params {
+				if i < len(x.Call.Args) {
+					env[prm] = x.Call.Args[i]
+				}
+			}
+			return rt.render(rets[0].Results[0], &c01RouteFrame{env, fr}, depth+1)
+		}
+		return rt.fail(x, "the call "+(CallSite{x.Parent(), x}).CalleeKey())
+	}
+	return rt.fail(v, "a value the rule does not model ("+v.String()+")")
+}
+
+func c01StripConv(v ssa.Value) ssa.Value {
+	for i := 0; i < 8; i++ {
+		switch x := v.(type) {
+		case *ssa.Convert:
+			v = x.X
+			continue
+		case *ssa.ChangeType:
+			v = x.X
+			continue
+		}
+		break
+	}
+	return originValue(v)
+}
+
+// c01OnlyReturned: every use of the values is a return (or a debug reference).
+func c01OnlyReturned(vals []ssa.Value) bool {
+	for _, v := range vals {
+		if v.Referrers() == nil {
+			return false
+		}
+		for _, u := range *v.Referrers() {
+			switch u.(type) {
+			case *ssa.Return, *ssa.DebugRef:
+			default:
+				return false
+			}
+		}
+	}
+	return len(vals) > 0
+}
+
+// c01ShardRoles: the shard type and its shard-list field, by role.
+func c01ShardRoles(p *Program) (*types.Named, int) {
+	const rel = "pkg/blobserver/shard"
+	recv := p.Iface("pkg/blobserver", "BlobReceiver")
+	var named *types.Named
+	for _, n := range p.Implementers(recv, false) {
+		if n.Obj().Pkg() == nil || RelPkg(n.Obj().Pkg()) != rel {
+			continue
+		}
+		if _, isStruct := n.Underlying().(*types.Struct); !isStruct {
+			continue
+		}
+		if named != nil {
+			brokenf("anchor unresolved: more than one blob-receiving struct type in %s", rel)
+		}
+		named = n
+	}
+	if named == nil {
+		brokenf("anchor unresolved: no blob-receiving struct type in %s", rel)
+	}
+	st := named.Underlying().(*types.Struct)
+	idx := -1
+	for i := 0; i < st.NumFields(); i++ {
+		sl, ok := st.Field(i).Type().Underlying().(*types.Slice)
+		if !ok || !types.IsInterface(sl.Elem()) || !types.Implements(sl.Elem(), recv) {
+			continue
+		}
+		if idx >= 0 {
+			brokenf("anchor unresolved: %s has more than one slice of blob receivers", named.Obj().Name())
+		}
+		idx = i
+	}
+	if idx < 0 {
+		brokenf("anchor unresolved: %s has no slice-of-blob-receivers field", named.Obj().Name())
+	}
+	return named, idx
+}
+
+type c01RouteRead struct {
+	fn     *ssa.Function
+	index  ssa.Value // the index the shard is picked with (for an accessor helper: the argument at its call)
+	pos    token.Pos
+	elems  []ssa.Value
+	terms  []string    // one per key (a map-routed read has one per MapUpdate)
+	refs   []ssa.Value // the ref each key was computed from
+	viaMap ssa.Value
+	bad    string
+	badIn  *ssa.Function
+}
 
 func c01RuleSRoute(p *Program, r *Reporter) {
 	const rule, rel = "S-route", "pkg/blobserver/shard"
-	named, shardsIdx := c01FieldIdx(p, rel, "shardStorage", "shards")
-	shardNum := p.Func(rel, "shardStorage", "shardNum")
+	named, shardsIdx := c01ShardRoles(p)
 	isShards := func(v ssa.Value) bool { return c01FieldLoad(v, named, shardsIdx) }
+	helpers := map[*ssa.Function]string{}
+	pkg := p.SSAPkg(rel)
 
-	// (1) shardNum is a function of the ref and the shard count only
-	{
-		var refPrm *ssa.Parameter
-		for _, prm := range shardNum.Params[1:] {
-			if c01IsRef(prm.Type()) {
-				refPrm = prm
-			}
-		}
-		bad, usesRef := "", false
-		seen := map[ssa.Value]bool{}
-		var visit func(v ssa.Value)
-		visit = func(v ssa.Value) {
-			if v == nil || seen[v] || bad != "" {
-				return
-			}
-			seen[v] = true
-			switch x := v.(type) {
-			case *ssa.Parameter:
-				if x == refPrm {
-					usesRef = true
-				} else if x != shardNum.Params[0] {
-					bad = "parameter " + x.Name()
-				}
-			case *ssa.Const:
-			case *ssa.BinOp:
-				visit(x.X)
-				visit(x.Y)
-			case *ssa.Convert:
-				visit(x.X)
-			case *ssa.ChangeType:
-				visit(x.X)
-			case *ssa.Phi:
-				for _, e := range x.Edges {
-					visit(e)
-				}
-			case *ssa.UnOp:
-				if x.Op == token.MUL {
-					if !isShards(x) {
-						bad = "a load of something other than the shards slice (" + AccessPath(x) + ")"
-					}
-				} else {
-					visit(x.X)
-				}
-			case *ssa.Call:
-				if b, ok := x.Call.Value.(*ssa.Builtin); ok && b.Name() == "len" {
-					visit(x.Call.Args[0])
-				} else if f := x.Call.StaticCallee(); f != nil && f.Signature.Recv() != nil && c01IsRef(f.Signature.Recv().Type()) {
-					for _, a := range x.Call.Args {
-						visit(a)
-					}
-				} else {
-					bad = "the call " + (CallSite{x.Parent(), x}).CalleeKey()
-				}
-			default:
-				bad = "a value the rule does not model (" + v.String() + ")"
-			}
-		}
-		if refPrm == nil {
-			bad = "no blob.Ref parameter"
-		}
-		for _, ri := range Returns(shardNum) {
-			for _, rv := range ri.Results {
-				visit(rv)
-			}
-		}
-		if bad == "" && !usesRef {
-			bad = "nothing derived from the ref"
-		}
-		r.Check(bad == "", rule, FuncKey(shardNum)+"#pure-function-of-ref", p.Pos(shardNum.Pos()),
-			"shardNum's result is computed only from the ref (through blob.Ref methods) and len(shards): receive, fetch, stat and remove all route identically",
-			"shardNum depends on "+bad+": the shard chosen for one ref can differ between calls, so a stored blob may not be found again")
-	}
-
-	// routeKey: the shardNum calls that determine index value v (directly, or as the key of a map filled under shardNum keys)
-	var routeKey func(v ssa.Value, depth int) ([]*ssa.Call, ssa.Value, bool)
-	routeKey = func(v ssa.Value, depth int) (calls []*ssa.Call, viaMap ssa.Value, ok bool) {
+	// routeKey: the term(s) that determine index value v (directly, or as the key of a map filled under routed keys)
+	var routeKey func(rd *c01RouteRead, v ssa.Value, depth int) bool
+	routeKey = func(rd *c01RouteRead, v ssa.Value, depth int) bool {
 		for i := 0; i < 8; i++ {
 			switch x := v.(type) {
 			case *ssa.Convert:
@@ -1974,44 +2840,58 @@ func c01RuleSRoute(p *Program, r *Reporter) {
 			}
 			break
 		}
-		v = originValue(v)
-		switch x := v.(type) {
-		case *ssa.Call:
-			if x.Call.StaticCallee() == shardNum {
-				return []*ssa.Call{x}, nil, true
-			}
-		case *ssa.Extract:
-			nx, isNext := x.Tuple.(*ssa.Next)
-			if !isNext || x.Index != 1 || depth > 2 {
-				return nil, nil, false
-			}
-			rg, isRange := nx.Iter.(*ssa.Range)
-			if !isRange {
-				return nil, nil, false
-			}
-			m := rg.X
-			if _, isMap := m.Type().Underlying().(*types.Map); !isMap || m.Referrers() == nil {
-				return nil, nil, false
-			}
-			n := 0
-			for _, ref := range *m.Referrers() {
-				mu, isUpd := ref.(*ssa.MapUpdate)
-				if !isUpd || mu.Map != m {
-					continue
+		if x, isEx := originValue(v).(*ssa.Extract); isEx {
+			if nx, isNext := x.Tuple.(*ssa.Next); isNext {
+				rg, isRange := nx.Iter.(*ssa.Range)
+				if x.Index != 1 || depth > 2 || !isRange {
+					rd.bad = "a range value that is not a map key"
+					return false
 				}
-				n++
-				ks, _, ok := routeKey(mu.Key, depth+1)
-				if !ok {
-					return nil, nil, false
+				m := rg.X
+				if _, isMap := m.Type().Underlying().(*types.Map); !isMap || m.Referrers() == nil {
+					rd.bad = "a range over something other than a map"
+					return false
 				}
-				calls = append(calls, ks...)
+				n := 0
+				for _, ref := range *m.Referrers() {
+					mu, isUpd := ref.(*ssa.MapUpdate)
+					if !isUpd || mu.Map != m {
+						continue
+					}
+					n++
+					if !routeKey(rd, mu.Key, depth+1) {
+						return false
+					}
+				}
+				rd.viaMap = m
+				if n == 0 {
+					rd.bad = "the key of a map that is never filled"
+				}
+				return n > 0
 			}
-			return calls, m, n > 0
 		}
-		return nil, nil, false
+		rt := &c01Route{pkg: pkg, isShards: isShards, helpers: helpers}
+		term, bad := rt.render(v, nil, 0)
+		if bad != "" {
+			rd.bad, rd.badIn = bad, rt.badIn
+			return false
+		}
+		if len(rt.refs) == 0 {
+			rd.bad = "nothing derived from a ref"
+			return false
+		}
+		for _, o := range rt.refs[1:] {
+			if !sameOrigin(o, rt.refs[0]) {
+				rd.bad = "more than one ref"
+				return false
+			}
+		}
+		rd.terms = append(rd.terms, term)
+		rd.refs = append(rd.refs, rt.refs[0])
+		return true
 	}
 
-	nReads := 0
+	var reads []*c01RouteRead
 	for _, fn := range p.FuncsIn(rel) {
 		for _, blk := range fn.Blocks {
 			for _, in := range blk.Instrs {
@@ -2048,35 +2928,99 @@ func c01RuleSRoute(p *Program, r *Reporter) {
 				if !routes {
 					continue
 				}
-				nReads++
-				key := FuncKey(fn)
-				calls, viaMap, ok := routeKey(ia.Index, 0)
-				if !ok {
-					r.Violation(rule, key+"#shards-index", p.Pos(ia.Pos()), "a shard is picked by an index that is not the result of shardNum (directly or as a key of a map filled under shardNum keys): blobs would be stored and looked up in different shards")
-					continue
+				// an accessor helper (`func (s) shardAt(n) Storage { return s.shards[n] }`): the routing read happens at
+				// each call of the helper, with the argument as index and the call's result as the routed shard
+				if prm, isPrm := c01StripConv(ia.Index).(*ssa.Parameter); isPrm && c01OnlyReturned(elems) {
+					pi := c01ParamIndex(fn, prm)
+					callers := p.StaticCallers(fn)
+					if pi >= 0 && len(callers) > 0 && len(p.FuncValueUses(fn)) == 0 {
+						okAll := true
+						for _, cs := range callers {
+							if cs.Value() == nil || pi >= len(cs.Args()) {
+								okAll = false
+							}
+						}
+						if okAll {
+							for _, cs := range callers {
+								rd := &c01RouteRead{fn: cs.Fn, index: cs.Args()[pi], pos: cs.Pos(), elems: []ssa.Value{cs.Value()}}
+								routeKey(rd, rd.index, 0)
+								reads = append(reads, rd)
+							}
+							continue
+						}
+					}
 				}
-				how := "directly"
-				if viaMap != nil {
-					how = "as the key of a map filled only under shardNum(ref) keys"
-				}
-				r.OK(rule, key+"#shards-index", p.Pos(ia.Pos()), "the index into shards is shardNum(ref) "+how)
-				if viaMap != nil {
-					c01RouteViaMap(p, r, fn, ia, elems, viaMap, calls)
-					continue
-				}
-				c01RouteDirect(p, r, fn, elems, calls[0])
+				rd := &c01RouteRead{fn: fn, index: ia.Index, pos: ia.Pos(), elems: elems}
+				routeKey(rd, ia.Index, 0)
+				reads = append(reads, rd)
 			}
 		}
 	}
-	r.Analysed("shard_routing_reads", nReads)
-	r.Floor(rule, 6)
+	// the term most routing reads agree on
+	count := map[string]int{}
+	for _, rd := range reads {
+		for _, t := range rd.terms {
+			count[t]++
+		}
+	}
+	common, best := "", 0
+	for t, n := range count {
+		if n > best || n == best && t < common {
+			common, best = t, n
+		}
+	}
+	unanimous := len(count) <= 1
+	// (1) the routing function is a function of the ref and the shard count only
+	var hs []*ssa.Function
+	for h := range helpers {
+		hs = append(hs, h)
+	}
+	sort.Slice(hs, func(i, j int) bool { return FuncKey(hs[i]) < FuncKey(hs[j]) })
+	for _, h := range hs {
+		r.Check(helpers[h] == "", rule, FuncKey(h)+"#pure-function-of-ref", p.Pos(h.Pos()),
+			"the routing helper's result is computed only from the ref (through blob.Ref methods) and len(shards): receive, fetch, stat and remove all route identically",
+			"the routing helper depends on "+helpers[h]+": the shard chosen for one ref can differ between calls, so a stored blob may not be found again")
+	}
+	for _, rd := range reads {
+		key := FuncKey(rd.fn)
+		if rd.bad != "" {
+			if rd.badIn != nil {
+				if _, isHelper := helpers[rd.badIn]; isHelper && rd.badIn != rd.fn {
+					continue // reported on the helper
+				}
+			}
+			r.Violation(rule, key+"#shards-index", p.Pos(rd.pos), "a shard is picked by an index that is not a function of one ref and the number of shards only ("+rd.bad+"): blobs would be stored and looked up in different shards")
+			continue
+		}
+		agree := true
+		for _, t := range rd.terms {
+			if t != common {
+				agree = false
+			}
+		}
+		how := "directly"
+		if rd.viaMap != nil {
+			how = "as the key of a map filled only under such keys"
+		}
+		if !agree || !unanimous && best*2 <= len(reads) {
+			r.Violation(rule, key+"#shards-index", p.Pos(rd.pos), fmt.Sprintf("this routing read computes the shard as %s while other routing reads compute %s: the same ref is stored in one shard and looked up in another", strings.Join(rd.terms, " / "), common))
+			continue
+		}
+		r.OK(rule, key+"#shards-index", p.Pos(rd.pos), "the index into shards is the routing term "+common+" of the ref, "+how+"; every routing read uses the same term")
+		if rd.viaMap != nil {
+			c01RouteViaMap(p, r, rd)
+			continue
+		}
+		c01RouteDirect(p, r, rd.fn, rd.elems, rd.refs[0])
+	}
+	r.Analysed("shard_routing_reads", len(reads))
+	r.Floor(rule, 5) // 7 today; 6 with the routing helper inlined
 }
 
 // c01RouteDirect: shards[shardNum(x)]: the element is used with the same ref x,
 // here or - when x is a parameter and the element is returned - at each caller.
-func c01RouteDirect(p *Program, r *Reporter, fn *ssa.Function, elems []ssa.Value, key *ssa.Call) {
+func c01RouteDirect(p *Program, r *Reporter, fn *ssa.Function, elems []ssa.Value, refArg ssa.Value) {
 	const rule = "S-route"
-	refArg := key.Call.Args[len(key.Call.Args)-1]
 	checkUses := func(holder *ssa.Function, elem, ref ssa.Value, pos token.Pos) {
 		construct := FuncKey(holder) + "#route-same-ref"
 		if elem.Referrers() == nil {
@@ -2155,21 +3099,22 @@ func c01RouteDirect(p *Program, r *Reporter, fn *ssa.Function, elems []ssa.Value
 }
 
 // c01RouteViaMap: m[shardNum(b)] = append(m[..], b); for k := range m { use(shards[k], m[k]) }
-func c01RouteViaMap(p *Program, r *Reporter, fn *ssa.Function, ia *ssa.IndexAddr, elems []ssa.Value, m ssa.Value, keys []*ssa.Call) {
+func c01RouteViaMap(p *Program, r *Reporter, rd *c01RouteRead) {
 	const rule = "S-route"
+	fn, elems, m := rd.fn, rd.elems, rd.viaMap
 	key := FuncKey(fn)
 	// every ref is filed under its own shard number
+	ki := 0
 	for _, ref := range *m.Referrers() {
 		mu, ok := ref.(*ssa.MapUpdate)
 		if !ok || mu.Map != m {
 			continue
 		}
-		kc, _ := originValue(mu.Key).(*ssa.Call)
 		okFiled := false
-		if kc != nil {
-			b := kc.Call.Args[len(kc.Call.Args)-1]
+		if ki < len(rd.refs) {
+			b := rd.refs[ki]
 			if ap, isCall := originValue(mu.Value).(*ssa.Call); isCall && c01AppendedElems(ap) != nil {
-				// m[k] = append(m[k], x): what is added under shardNum(b) must be b itself
+				// m[k] = append(m[k], x): what is added under the shard number of b must be b itself
 				okFiled = true
 				for _, e := range c01AppendedElems(ap) {
 					if !sameOrigin(e, b) {
@@ -2180,19 +3125,20 @@ func c01RouteViaMap(p *Program, r *Reporter, fn *ssa.Function, ia *ssa.IndexAddr
 				okFiled = sameOrigin(mu.Value, b)
 			}
 		}
+		ki++
 		r.Check(okFiled, rule, key+"#filed-under-own-shard", p.Pos(mu.Pos()),
-			"the value filed under key shardNum(b) contains that same b",
+			"the value filed under the shard number of b contains that same b",
 			"a ref is filed under the shard number of a different ref")
 	}
 	// the shard picked with key k is handed the list stored under the same k
 	var lists []ssa.Value
 	for _, ref := range *m.Referrers() {
-		if lk, ok := ref.(*ssa.Lookup); ok && lk.X == m && lk.Index == ia.Index {
+		if lk, ok := ref.(*ssa.Lookup); ok && lk.X == m && (lk.Index == rd.index || sameOrigin(lk.Index, rd.index)) {
 			lists = append(lists, lk)
 		}
 	}
 	paired := false
-	var pos token.Pos = ia.Pos()
+	var pos token.Pos = rd.pos
 	for _, f := range c01DeepFuncs(fn) {
 		for _, c := range CallsIn(f, false) {
 			hasShard, hasList := false, false
@@ -2220,18 +3166,231 @@ func c01RouteViaMap(p *Program, r *Reporter, fn *ssa.Function, ia *ssa.IndexAddr
 }
 
 // ===========================================================================
-// O-tomb
+// Effects across helper boundaries
 
-func c01RuleOTomb(p *Program, r *Reporter) {
-	const rule, rel = "O-tomb", "pkg/blobserver/overlay"
-	named, upperIdx := c01FieldIdx(p, rel, "overlayStorage", "upper")
-	_, lowerIdx := c01FieldIdx(p, rel, "overlayStorage", "lower")
-	_, delIdx := c01FieldIdx(p, rel, "overlayStorage", "deleted")
-	isDeletedFn := p.Func(rel, "overlayStorage", "isDeleted")
-	onField := func(c CallSite, idx int, method string) bool {
-		cc := c.Common()
-		return cc.IsInvoke() && cc.Method.Name() == method && c01FieldLoad(cc.Value, named, idx)
+// c01Estab decides "effect P has been performed successfully" where P may sit
+// in a helper: a call of helper H counts as performing P successfully on the
+// edge where H's error result is nil (or, when H has no error result, after
+// the call) if inside H every return that may report success is reached only
+// after P succeeded there (or returns P's own error).
+type c01Estab struct {
+	e      *c01Eff
+	isP    func(c CallSite) bool               // the call is (one of) the effect(s)
+	exempt func(from, to *ssa.BasicBlock) bool // the effect is not required on this edge (may be nil)
+	memo   map[*ssa.Function]int               // 1 in progress, 2 yes, 3 no
+}
+
+func c01NewEstab(e *c01Eff, isP func(c CallSite) bool, exempt func(from, to *ssa.BasicBlock) bool) *c01Estab {
+	return &c01Estab{e: e, isP: isP, exempt: exempt, memo: map[*ssa.Function]int{}}
+}
+
+// performers: the calls of f that are P, or call a helper that establishes P.
+func (x *c01Estab) performers(f *ssa.Function) []*ssa.Call {
+	var out []*ssa.Call
+	for _, c := range CallsIn(f, false) {
+		cv := c.Value()
+		if cv == nil {
+			continue
+		}
+		if x.isP(c) {
+			out = append(out, cv)
+			continue
+		}
+		if h := x.e.helperCallee(cv); h != nil && h.Parent() == nil && x.establishes(h) {
+			out = append(out, cv)
+		}
 	}
+	return out
+}
+
+func (x *c01Estab) establishes(h *ssa.Function) bool {
+	switch x.memo[h] {
+	case 1, 3:
+		return false
+	case 2:
+		return true
+	}
+	x.memo[h] = 1
+	ok := true
+	if ErrResultIndex(h) < 0 {
+		perf := x.performers(h)
+		rets := Returns(h)
+		if len(rets) == 0 {
+			ok = false
+		}
+		for _, ri := range rets {
+			if x.exempt != nil && x.exempt(nil, ri.Ret.Block()) {
+				continue
+			}
+			found := false
+			for _, pc := range perf {
+				if d, _ := SuccessDominates(pc, ri.Ret); d {
+					found = true
+				}
+			}
+			if !found {
+				ok = false
+			}
+		}
+	} else {
+		edges := c01MaybeNilReturns(h)
+		for _, ed := range edges {
+			if good, _ := x.onEdge(h, ed); !good {
+				ok = false
+			}
+		}
+	}
+	if ok {
+		x.memo[h] = 2
+	} else {
+		x.memo[h] = 3
+	}
+	return ok
+}
+
+// onEdge: on this maybe-nil return edge of f the effect is known to have
+// succeeded (the edge returns the effect's own error, or lies behind the
+// effect's err == nil edge), or the effect is exempt there.
+func (x *c01Estab) onEdge(f *ssa.Function, ed c01NilRet) (bool, string) {
+	if x.exempt != nil && x.exempt(ed.from, ed.to) {
+		return true, ""
+	}
+	why := "no such call lies on the path"
+	for _, pc := range x.performers(f) {
+		ev, hasErr, discarded := ErrValue(pc)
+		if hasErr && !discarded && sameOrigin(ed.val, ev) {
+			return true, ""
+		}
+		ok, w := c01SuccessOnEdge(pc, ed)
+		if ok {
+			return true, ""
+		}
+		why = w
+	}
+	return false, why
+}
+
+// before: the effect succeeded on every path to site (site anywhere in the
+// body: the facts at the calls leading to site's function count too).
+func (x *c01Estab) before(site ssa.Instruction) (bool, string) {
+	why := "no such call precedes the site"
+	for _, at := range x.e.chain(site) {
+		for _, pc := range x.performers(at.Parent()) {
+			ok, w := SuccessDominates(pc, at)
+			if ok {
+				return true, ""
+			}
+			why = w
+		}
+	}
+	return false, why
+}
+
+// ===========================================================================
+// O-tomb
+//
+// Anchors by role, not by name: the overlay type is the implementer of
+// blobserver.BlobReceiver declared in the overlay package; its tombstone store
+// is the field of type sorted.KeyValue, its upper layer the field whose type
+// can receive blobs, its lower layer the other field that can be fetched from;
+// the tombstone predicates are the unexported bool functions of the package
+// with a blob.Ref parameter that Get from the tombstone store. The entry
+// points are the interface methods; every site is looked for in their
+// effective bodies.
+
+type c01Overlay struct {
+	named                      *types.Named
+	upperIdx, lowerIdx, delIdx int
+	isDel                      map[*ssa.Function]bool
+}
+
+func c01OverlayRoles(p *Program) *c01Overlay {
+	const rel = "pkg/blobserver/overlay"
+	recv := p.Iface("pkg/blobserver", "BlobReceiver")
+	fetcher := p.Iface("pkg/blob", "Fetcher")
+	kv := p.NamedType("pkg/sorted", "KeyValue")
+	ov := &c01Overlay{upperIdx: -1, lowerIdx: -1, delIdx: -1, isDel: map[*ssa.Function]bool{}}
+	for _, n := range p.Implementers(recv, false) {
+		if n.Obj().Pkg() == nil || RelPkg(n.Obj().Pkg()) != rel {
+			continue
+		}
+		if _, isStruct := n.Underlying().(*types.Struct); !isStruct {
+			continue
+		}
+		if ov.named != nil {
+			brokenf("anchor unresolved: more than one blob-receiving struct type in %s", rel)
+		}
+		ov.named = n
+	}
+	if ov.named == nil {
+		brokenf("anchor unresolved: no blob-receiving struct type in %s", rel)
+	}
+	st := ov.named.Underlying().(*types.Struct)
+	set := func(dst *int, i int, what string) {
+		if *dst >= 0 {
+			brokenf("anchor unresolved: %s has more than one field that can be the %s", ov.named.Obj().Name(), what)
+		}
+		*dst = i
+	}
+	for i := 0; i < st.NumFields(); i++ {
+		t := st.Field(i).Type()
+		switch {
+		case types.Identical(t, kv):
+			set(&ov.delIdx, i, "tombstone store (sorted.KeyValue)")
+		case types.IsInterface(t) && types.Implements(t, recv):
+			set(&ov.upperIdx, i, "upper layer (can receive blobs)")
+		case types.IsInterface(t) && types.Implements(t, fetcher):
+			set(&ov.lowerIdx, i, "lower layer (read-only)")
+		}
+	}
+	if ov.delIdx < 0 || ov.upperIdx < 0 || ov.lowerIdx < 0 {
+		brokenf("anchor unresolved: %s.%s does not have a sorted.KeyValue tombstone field, a receiving upper layer and a read-only lower layer", rel, ov.named.Obj().Name())
+	}
+	// tombstone predicates
+	for _, fn := range p.FuncsIn(rel) {
+		if fn.Parent() != nil || fn.Blocks == nil || token.IsExported(fn.Name()) {
+			continue
+		}
+		res := fn.Signature.Results()
+		if res.Len() != 1 || !c01IsBasic(res.At(0).Type(), types.Bool) {
+			continue
+		}
+		hasRef := false
+		for _, prm := range fn.Params {
+			if c01IsRef(prm.Type()) {
+				hasRef = true
+			}
+		}
+		if !hasRef {
+			continue
+		}
+		for _, c := range c01EffOf(fn).allCalls() {
+			if ov.onField(c, ov.delIdx, "Get") {
+				ov.isDel[fn] = true
+			}
+		}
+	}
+	return ov
+}
+
+func (ov *c01Overlay) onField(c CallSite, idx int, method string) bool {
+	cc := c.Common()
+	return cc.IsInvoke() && cc.Method.Name() == method && c01FieldLoad(cc.Value, ov.named, idx)
+}
+
+func (ov *c01Overlay) method(p *Program, name string) *ssa.Function {
+	fn := c01DeclaredMethod(p, ov.named, name)
+	if fn == nil || fn.Blocks == nil {
+		brokenf("anchor unresolved: %s has no declared method %s", ov.named.Obj().Name(), name)
+	}
+	return fn
+}
+
+func c01RuleOTomb(p *Program, r *Reporter, insts []*c01Inst) {
+	const rule = "O-tomb"
+	ov := c01OverlayRoles(p)
+	named, upperIdx, lowerIdx, delIdx := ov.named, ov.upperIdx, ov.lowerIdx, ov.delIdx
+	onField := ov.onField
 	refParam := func(fn *ssa.Function) *ssa.Parameter {
 		for _, prm := range fn.Params[1:] {
 			if c01IsRef(prm.Type()) {
@@ -2250,60 +3409,70 @@ func c01RuleOTomb(p *Program, r *Reporter) {
 		brokenf("anchor unresolved: %s has no []blob.Ref parameter", FuncKey(fn))
 		return nil
 	}
-	isElemOf := func(prm *ssa.Parameter) func(ssa.Value) bool {
+	isElemOf := func(e *c01Eff, prm *ssa.Parameter) func(ssa.Value) bool {
 		return func(v ssa.Value) bool {
-			ld, ok := originValue(v).(*ssa.UnOp)
-			if !ok || ld.Op != token.MUL {
-				return false
+			for _, o := range e.origins(v) {
+				ld, ok := o.(*ssa.UnOp)
+				if !ok || ld.Op != token.MUL {
+					return false
+				}
+				ia, ok := ld.X.(*ssa.IndexAddr)
+				if !ok || e.origin(ia.X) != ssa.Value(prm) {
+					return false
+				}
 			}
-			ia, ok := ld.X.(*ssa.IndexAddr)
-			return ok && originValue(ia.X) == ssa.Value(prm)
+			return true
 		}
 	}
-	// notDeletedAt: the block is entered only after isDeleted(x) returned false, for an x that is the same thing as `what`
-	notDeletedAt := func(blk *ssa.BasicBlock, what ssa.Value) bool {
-		for _, f := range FactsAt(blk) {
-			cond, val := f.Cond, f.Val
-			for {
-				u, ok := cond.(*ssa.UnOp)
-				if !ok || u.Op != token.NOT {
-					break
-				}
-				cond, val = u.X, !val
-			}
+	// notDeletedAt: the block is entered only after a tombstone predicate returned false for an x that is the same thing as `what`
+	notDeletedAt := func(e *c01Eff, blk *ssa.BasicBlock, what ssa.Value) bool {
+		for _, f := range e.factsAt(blk) {
+			cond, neg := c01StripNot(f.Cond)
+			val := f.Val != neg
 			call, ok := originValue(cond).(*ssa.Call)
-			if !ok || call.Call.StaticCallee() != isDeletedFn || val {
+			if !ok || val || !ov.isDel[call.Call.StaticCallee()] {
 				continue
 			}
-			if c01SameThing(call.Call.Args[1], what) {
-				return true
+			for _, a := range call.Call.Args {
+				if c01IsRef(a.Type()) && e.sameThing(a, what) {
+					return true
+				}
 			}
 		}
 		return false
 	}
+	delNilOn := func(from, to *ssa.BasicBlock) bool {
+		k, isNil := c01NilOnEdge(from, to, func(o ssa.Value) bool { return c01FieldLoad(o, named, delIdx) })
+		return k && isNil
+	}
 
 	// ---- ReceiveBlob
 	{
-		fn := p.Func(rel, "overlayStorage", "ReceiveBlob")
+		fn := ov.method(p, "ReceiveBlob")
 		key := FuncKey(fn)
+		e := c01EffOf(fn)
 		br := refParam(fn)
-		isBr := func(v ssa.Value) bool { return sameOrigin(v, br) }
-		var up *ssa.Call
-		var dels []*ssa.Call
-		for _, c := range CallsIn(fn, false) {
+		isBr := func(v ssa.Value) bool { return e.same(v, br) }
+		var ups, dels []*ssa.Call
+		for _, c := range e.allCalls() {
 			if c.Value() == nil {
 				continue
 			}
 			if onField(c, upperIdx, "ReceiveBlob") {
-				up = c.Value()
+				ups = append(ups, c.Value())
 			}
 			if onField(c, delIdx, "Delete") {
 				dels = append(dels, c.Value())
 			}
 		}
-		if up == nil {
+		isUp := func(c CallSite) bool { return onField(c, upperIdx, "ReceiveBlob") }
+		isDelete := func(c CallSite) bool { return onField(c, delIdx, "Delete") }
+		stored := c01NewEstab(e, isUp, nil)
+		cleared := c01NewEstab(e, isDelete, delNilOn)
+		if len(ups) == 0 {
 			r.Violation(rule, key+"#upper-receive", p.Pos(fn.Pos()), "ReceiveBlob no longer stores the blob into the upper layer")
-		} else {
+		}
+		for _, up := range ups {
 			same := false
 			for _, a := range up.Call.Args {
 				if c01IsRef(a.Type()) && isBr(a) {
@@ -2318,53 +3487,35 @@ func c01RuleOTomb(p *Program, r *Reporter) {
 		for _, d := range dels {
 			okKey := c01RefString(d.Call.Args[0], isBr)
 			r.Check(okKey, rule, key+"#tombstone-clear-key", p.Pos(d.Pos()), "the tombstone deleted is keyed by Ref.String() of the received ref", "the tombstone deleted is not keyed by Ref.String() of the received ref (RemoveBlobs/isDeleted use that key)")
-			if up != nil {
-				ok, why := SuccessDominates(up, d)
+			if len(ups) > 0 {
+				ok, why := stored.before(d)
 				r.Check(ok, rule, key+"#clear-after-store", p.Pos(d.Pos()), "the tombstone is cleared only after upper.ReceiveBlob succeeded", "the tombstone is cleared where upper.ReceiveBlob has not (yet) succeeded ("+why+"): a rejected upload would resurrect the lower layer's copy")
 			}
 		}
-		if up != nil && len(dels) > 0 {
-			upErr, _, _ := ErrValue(up)
-			for _, e := range c01MaybeNilReturns(fn) {
+		if len(ups) > 0 && len(dels) > 0 {
+			for _, ed := range c01MaybeNilReturns(fn) {
 				construct := key + "#nil-return"
 				bad := ""
-				if !sameOrigin(e.val, upErr) {
-					if ok, why := c01SuccessOnEdge(up, e); !ok {
-						bad = "upper.ReceiveBlob is not known to have succeeded (" + why + ")"
-					}
+				if ok, why := stored.onEdge(fn, ed); !ok {
+					bad = "upper.ReceiveBlob is not known to have succeeded (" + why + ")"
+				} else if ok, _ := cleared.onEdge(fn, ed); !ok {
+					bad = "with a tombstone store configured, deleted.Delete(ref) is not known to have succeeded (skipped, or its error dropped)"
 				}
-				if bad == "" {
-					cleared := false
-					if k, isNil := c01NilOnEdge(e.from, e.to, func(o ssa.Value) bool { return c01FieldLoad(o, named, delIdx) }); k && isNil {
-						cleared = true // no tombstone store configured
-					}
-					for _, d := range dels {
-						dErr, _, discarded := ErrValue(d)
-						if !discarded && sameOrigin(e.val, dErr) {
-							cleared = true
-						}
-						if ok, _ := c01SuccessOnEdge(d, e); ok {
-							cleared = true
-						}
-					}
-					if !cleared {
-						bad = "with a tombstone store configured, deleted.Delete(ref) is not known to have succeeded (skipped, or its error dropped)"
-					}
-				}
-				r.Check(bad == "", rule, construct, p.Pos(e.ret.Pos()),
-					c01EdgeName(p, e)+": a nil error implies upper.ReceiveBlob succeeded and (deleted == nil or the tombstone was deleted successfully)",
-					c01EdgeName(p, e)+" may report success although "+bad)
+				r.Check(bad == "", rule, construct, p.Pos(ed.ret.Pos()),
+					c01EdgeName(p, ed)+": a nil error implies upper.ReceiveBlob succeeded and (deleted == nil or the tombstone was deleted successfully)",
+					c01EdgeName(p, ed)+" may report success although "+bad)
 			}
 		}
 	}
 
 	// ---- RemoveBlobs
 	{
-		fn := p.Func(rel, "overlayStorage", "RemoveBlobs")
+		fn := ov.method(p, "RemoveBlobs")
 		key := FuncKey(fn)
+		e := c01EffOf(fn)
 		blobs := refsParam(fn)
 		var commit, begin *ssa.Call
-		for _, c := range CallsIn(fn, false) {
+		for _, c := range e.allCalls() {
 			if c.Value() == nil {
 				continue
 			}
@@ -2375,18 +3526,21 @@ func c01RuleOTomb(p *Program, r *Reporter) {
 				begin = c.Value()
 			}
 		}
-		if commit == nil || begin == nil || originValue(commit.Call.Args[0]) != ssa.Value(begin) {
+		if commit == nil || begin == nil || !e.same(commit.Call.Args[0], begin) {
 			r.Violation(rule, key+"#tombstone-commit", p.Pos(fn.Pos()), "RemoveBlobs does not commit a batch begun on the tombstone store")
 		} else {
 			nSet := 0
-			for _, c := range CallsIn(fn, false) {
+			for _, c := range e.allCalls() {
 				cc := c.Common()
-				if !cc.IsInvoke() || cc.Method.Name() != "Set" || originValue(cc.Value) != ssa.Value(begin) {
+				if !cc.IsInvoke() || cc.Method.Name() != "Set" || !e.same(cc.Value, begin) {
 					continue
 				}
 				nSet++
-				okKey := c01RefString(cc.Args[0], isElemOf(blobs))
-				okOrder := c01ReachesFrom(c.Block(), commit.Block()) || c.Block() == commit.Block()
+				okKey := c01RefString(cc.Args[0], isElemOf(e, blobs))
+				okOrder := false
+				if a, b, lifted := e.liftPair(c.Instr.(ssa.Instruction), commit); lifted {
+					okOrder = c01ReachesFrom(a.Block(), b.Block()) || a.Block() == b.Block() && instrIndex(a) < instrIndex(b)
+				}
 				r.Check(okKey && okOrder && inLoop(c.Block()), rule, key+"#tombstone-set", p.Pos(c.Pos()),
 					"each element of blobs is Set in the committed batch under Ref.String(), in a loop before the commit",
 					"the tombstone Set is not keyed by Ref.String() of an element of blobs, is not in a loop, or does not precede the commit")
@@ -2394,45 +3548,53 @@ func c01RuleOTomb(p *Program, r *Reporter) {
 			if nSet == 0 {
 				r.Violation(rule, key+"#tombstone-set", p.Pos(commit.Pos()), "the committed batch never Sets a tombstone")
 			}
-			cErr, _, _ := ErrValue(commit)
-			for _, e := range c01MaybeNilReturns(fn) {
-				ok := sameOrigin(e.val, cErr)
-				why := ""
-				if !ok {
-					ok, why = c01SuccessOnEdge(commit, e)
-				}
-				r.Check(ok, rule, key+"#nil-return", p.Pos(e.ret.Pos()),
-					c01EdgeName(p, e)+": a nil error implies the tombstone batch was committed",
-					c01EdgeName(p, e)+" may report success without a committed tombstone batch ("+why+"): the lower layer's copy stays visible after removal")
+			committed := c01NewEstab(e, func(c CallSite) bool { return onField(c, delIdx, "CommitBatch") }, nil)
+			for _, ed := range c01MaybeNilReturns(fn) {
+				ok, why := committed.onEdge(fn, ed)
+				r.Check(ok, rule, key+"#nil-return", p.Pos(ed.ret.Pos()),
+					c01EdgeName(p, ed)+": a nil error implies the tombstone batch was committed",
+					c01EdgeName(p, ed)+" may report success without a committed tombstone batch ("+why+"): the lower layer's copy stays visible after removal")
 			}
 		}
 	}
 
-	// ---- isDeleted
+	// ---- the tombstone predicates (isDeleted)
 	{
-		fn := isDeletedFn
-		key := FuncKey(fn)
-		br := refParam(fn)
-		var get *ssa.Call
-		for _, c := range CallsIn(fn, false) {
-			if c.Value() != nil && onField(c, delIdx, "Get") {
-				get = c.Value()
-			}
+		var preds []*ssa.Function
+		for fn := range ov.isDel {
+			preds = append(preds, fn)
 		}
-		if get == nil {
-			r.Violation(rule, key+"#lookup", p.Pos(fn.Pos()), "isDeleted no longer looks the ref up in the tombstone store")
-		} else {
-			r.Check(c01RefString(get.Call.Args[0], func(v ssa.Value) bool { return sameOrigin(v, br) }), rule, key+"#lookup-key", p.Pos(get.Pos()),
+		sort.Slice(preds, func(i, j int) bool { return FuncKey(preds[i]) < FuncKey(preds[j]) })
+		if len(preds) == 0 {
+			r.Violation(rule, "pkg/blobserver/overlay#lookup", p.Pos(ov.method(p, "Fetch").Pos()), "no function of the overlay package answers 'is this ref deleted' by looking the ref up in the tombstone store")
+		}
+		for _, fn := range preds {
+			key := FuncKey(fn)
+			e := c01EffOf(fn)
+			var br *ssa.Parameter
+			for _, prm := range fn.Params {
+				if c01IsRef(prm.Type()) {
+					br = prm
+				}
+			}
+			var get *ssa.Call
+			for _, c := range e.allCalls() {
+				if c.Value() != nil && onField(c, delIdx, "Get") {
+					get = c.Value()
+				}
+			}
+			r.Check(c01RefString(get.Call.Args[0], func(v ssa.Value) bool { return e.same(v, br) }), rule, key+"#lookup-key", p.Pos(get.Pos()),
 				"the tombstone looked up is keyed by Ref.String() of the ref asked about", "the tombstone looked up is not keyed by Ref.String() of the ref asked about")
+			found := c01NewEstab(e, func(c CallSite) bool { return onField(c, delIdx, "Get") }, nil)
 			for _, ri := range Returns(fn) {
 				v := ri.Results[0]
 				if c, isConst := v.(*ssa.Const); isConst && c.Value != nil && c.Value.String() == "false" {
 					continue
 				}
-				ok, why := SuccessDominates(get, ri.Ret)
+				ok, why := found.before(ri.Ret)
 				if _, isConst := v.(*ssa.Const); !isConst {
 					gErr, _, _ := ErrValue(get)
-					ok = ok || DependsOn(v, func(o ssa.Value) bool { return o == gErr })
+					ok = ok || e.depends(v, func(o ssa.Value) bool { return o == gErr })
 				}
 				r.Check(ok, rule, key+"#true-only-if-found", p.Pos(ri.Ret.Pos()),
 					"isDeleted answers true only where the tombstone Get succeeded", "isDeleted can answer true where the tombstone Get did not succeed ("+why+"): present blobs would be hidden")
@@ -2442,11 +3604,12 @@ func c01RuleOTomb(p *Program, r *Reporter) {
 
 	// ---- Fetch
 	{
-		fn := p.Func(rel, "overlayStorage", "Fetch")
+		fn := ov.method(p, "Fetch")
 		key := FuncKey(fn)
+		e := c01EffOf(fn)
 		br := refParam(fn)
 		n := 0
-		for _, c := range CallsIn(fn, true) {
+		for _, c := range e.allCalls() {
 			if !(onField(c, upperIdx, "Fetch") || onField(c, lowerIdx, "Fetch") || onField(c, upperIdx, "SubFetch") || onField(c, lowerIdx, "SubFetch")) {
 				continue
 			}
@@ -2457,7 +3620,7 @@ func c01RuleOTomb(p *Program, r *Reporter) {
 					arg = a
 				}
 			}
-			ok := arg != nil && sameOrigin(arg, br) && notDeletedAt(c.Block(), arg)
+			ok := arg != nil && e.same(arg, br) && notDeletedAt(e, c.Block(), arg)
 			r.Check(ok, rule, key+"#fetch-gated", p.Pos(c.Pos()),
 				"the layer is read only under isDeleted(ref) == false for the same ref", "a layer is read without isDeleted(ref) == false being established for that ref: a removed blob can still be fetched")
 		}
@@ -2468,12 +3631,13 @@ func c01RuleOTomb(p *Program, r *Reporter) {
 
 	// ---- StatBlobs
 	{
-		fn := p.Func(rel, "overlayStorage", "StatBlobs")
+		fn := ov.method(p, "StatBlobs")
 		key := FuncKey(fn)
+		e := c01EffOf(fn)
 		blobs := refsParam(fn)
-		fromBlobs := isElemOf(blobs)
+		fromBlobs := isElemOf(e, blobs)
 		guarded := map[ssa.Value]bool{}
-		for _, c := range CallsIn(fn, false) {
+		for _, c := range e.allCalls() {
 			b, ok := c.Common().Value.(*ssa.Builtin)
 			if !ok || b.Name() != "append" || c.Value() == nil || len(c.Common().Args) != 2 {
 				continue
@@ -2482,7 +3646,7 @@ func c01RuleOTomb(p *Program, r *Reporter) {
 				if !fromBlobs(el) {
 					continue
 				}
-				ok2 := notDeletedAt(c.Block(), el)
+				ok2 := notDeletedAt(e, c.Block(), el)
 				if ok2 {
 					guarded[c.Value()] = true
 				}
@@ -2491,7 +3655,7 @@ func c01RuleOTomb(p *Program, r *Reporter) {
 			}
 		}
 		n := 0
-		for _, c := range CallsIn(fn, true) {
+		for _, c := range e.allCalls() {
 			if !(onField(c, upperIdx, "StatBlobs") || onField(c, lowerIdx, "StatBlobs")) {
 				continue
 			}
@@ -2502,7 +3666,7 @@ func c01RuleOTomb(p *Program, r *Reporter) {
 					arg = a
 				}
 			}
-			ok := arg != nil && !sameOrigin(arg, blobs) && c01Depends(arg, func(v ssa.Value) bool { return guarded[v] })
+			ok := arg != nil && !e.same(arg, blobs) && e.depends(arg, func(v ssa.Value) bool { return guarded[v] })
 			r.Check(ok, rule, key+"#stat-gated", p.Pos(c.Pos()),
 				"the layer is asked only about refs that passed the isDeleted filter", "a layer is asked about the caller's refs without the isDeleted filter")
 		}
@@ -2513,89 +3677,127 @@ func c01RuleOTomb(p *Program, r *Reporter) {
 
 	// ---- EnumerateBlobs
 	{
-		fn := p.Func(rel, "overlayStorage", "EnumerateBlobs")
+		fn := ov.method(p, "EnumerateBlobs")
 		key := FuncKey(fn)
-		var dest *ssa.Parameter
-		for _, prm := range fn.Params[1:] {
-			if c01IsSendChan(prm.Type()) {
-				dest = prm
+		e := c01EffOf(fn)
+		var sends []c01Send
+		for _, in := range insts {
+			if in.Root == fn {
+				sends = in.sends
 			}
 		}
-		if dest == nil {
-			brokenf("anchor unresolved: %s has no channel parameter", key)
-		}
-		body := &c01Body{fn: fn, isDest: c01Same(dest)}
-		sends := c01SendsIn(body)
 		for _, s := range sends {
-			r.Check(notDeletedAt(s.in.Block(), s.x), rule, key+"#enumerate-gated", p.Pos(s.in.Pos()),
+			r.Check(notDeletedAt(e, s.in.Block(), s.x), rule, key+"#enumerate-gated", p.Pos(s.in.Pos()),
 				"a blob is yielded only under isDeleted(its ref) == false", "a blob is yielded without isDeleted(its ref) == false: removed blobs are still listed")
 		}
 		if len(sends) == 0 {
 			r.Violation(rule, key+"#enumerate-gated", p.Pos(fn.Pos()), "overlay EnumerateBlobs no longer yields blobs itself; the tombstone filter cannot be located")
 		}
 	}
-	r.Floor(rule, 14)
+	r.Floor(rule, 13) // 15 today
 }
 
 // ===========================================================================
-// M-dedup
+// M-dedup / M-lowest: merging enumerators built on blob.ChanPeeker
+//
+// Instance set, by role: every enumerator instance (an EnumerateBlobs method of
+// a C01 back end, or a function of EnumerateBlobs shape one of them hands dest
+// to) that sends on dest itself and whose effective body drives
+// blob.ChanPeekers (today: blobserver.mergedEnumerate). All sites are looked
+// for in the effective body, values are related across helper boundaries.
 
-func c01RuleMDedup(p *Program, r *Reporter) {
-	const rule = "M-dedup"
-	fn := p.Func("pkg/blobserver", "", "mergedEnumerate")
-	key := FuncKey(fn)
-	var dest *ssa.Parameter
-	for _, prm := range fn.Params {
-		if c01IsSendChan(prm.Type()) {
-			dest = prm
+func c01IsPeekerMethod(f *ssa.Function, names ...string) bool {
+	if f == nil {
+		return false
+	}
+	for _, n := range names {
+		if funcIs(f, "perkeep.org/pkg/blob", "ChanPeeker", n) {
+			return true
 		}
 	}
-	if dest == nil {
-		brokenf("anchor unresolved: %s has no channel parameter", key)
+	return false
+}
+
+// c01MergeInstances: the instances that merge through ChanPeekers.
+func c01MergeInstances(insts []*c01Inst) []*c01Inst {
+	var out []*c01Inst
+	for _, in := range insts {
+		if len(in.sends) == 0 {
+			continue
+		}
+		uses := false
+		for _, c := range c01EffOf(in.Root).allCalls() {
+			if c01IsPeekerMethod(c.Common().StaticCallee(), "Peek", "MustPeek", "Take", "MustTake", "Closed") {
+				uses = true
+			}
+		}
+		if uses {
+			out = append(out, in)
+		}
 	}
-	body := &c01Body{fn: fn, isDest: c01Same(dest)}
-	sends := c01SendsIn(body)
-	if len(sends) == 0 {
-		r.Violation(rule, key+"#send", p.Pos(fn.Pos()), "mergedEnumerate no longer sends on dest itself")
-		r.Floor(rule, 4)
-		return
+	return out
+}
+
+type c01Filter struct {
+	pred   *ssa.Call     // the predicate call
+	fn     *ssa.Function // the predicate: a literal, or a helper function/method
+	argIdx int           // which argument of pred is the peeked ref
+	peeker ssa.Value
+}
+
+func c01RuleMDedup(p *Program, r *Reporter, insts []*c01Inst) {
+	const rule = "M-dedup"
+	merges := c01MergeInstances(insts)
+	if len(merges) == 0 {
+		fn := p.Func("pkg/blobserver", "", "MergedEnumerate")
+		r.Undecided(rule, FuncKey(fn)+"#merge", p.Pos(fn.Pos()), "no enumerator reached from the C01 back ends merges its sources through blob.ChanPeeker any more; the merge's duplicate suppression cannot be located")
 	}
-	isPeek := func(c *ssa.Call) bool {
-		f := c.Call.StaticCallee()
-		return f != nil && (funcIs(f, "perkeep.org/pkg/blob", "ChanPeeker", "MustPeek") || funcIs(f, "perkeep.org/pkg/blob", "ChanPeeker", "Peek"))
+	for _, in := range merges {
+		c01MDedupOne(p, r, in)
 	}
-	// (1) every Take is gated by a literal predicate evaluated on the peeked ref of the same peeker
-	type filter struct {
-		pred   *ssa.Call     // the predicate call
-		lit    *ssa.Function // the predicate literal
-		peeker ssa.Value
-	}
-	var filters []filter
+	r.Floor(rule, 4)
+}
+
+func c01MDedupOne(p *Program, r *Reporter, in *c01Inst) {
+	const rule = "M-dedup"
+	fn := in.Root
+	key := FuncKey(fn)
+	e := c01EffOf(fn)
+	sends := in.sends
+	isPeek := func(c *ssa.Call) bool { return c01IsPeekerMethod(c.Call.StaticCallee(), "Peek", "MustPeek") }
+	// (1) every Take is gated by a predicate evaluated on the peeked ref of the same peeker
+	var filters []c01Filter
 	nTake := 0
-	for _, c := range CallsIn(fn, false) {
-		if !(c.IsStatic("perkeep.org/pkg/blob", "ChanPeeker", "Take") || c.IsStatic("perkeep.org/pkg/blob", "ChanPeeker", "MustTake")) {
+	for _, c := range e.allCalls() {
+		if !c01IsPeekerMethod(c.Common().StaticCallee(), "Take", "MustTake") {
 			continue
 		}
 		nTake++
 		peeker := c.Args()[0]
-		var got *filter
-		for _, f := range FactsAt(c.Block()) {
-			if !f.Val {
+		var got *c01Filter
+		for _, f := range e.factsAt(c.Block()) {
+			cond, neg := c01StripNot(f.Cond)
+			if f.Val == neg {
 				continue
 			}
-			pc, ok := originValue(f.Cond).(*ssa.Call)
-			if !ok {
+			pc, ok := originValue(cond).(*ssa.Call)
+			if !ok || pc.Call.IsInvoke() {
 				continue
 			}
-			lit := ClosureOf(CallSite{fn, pc})
-			if lit == nil || len(pc.Call.Args) != 1 {
+			pf := e.predicateFn(pc)
+			if pf == nil {
 				continue
 			}
-			if DependsOn(pc.Call.Args[0], func(v ssa.Value) bool {
-				pk, ok := v.(*ssa.Call)
-				return ok && isPeek(pk) && sameOrigin(pk.Call.Args[0], peeker)
-			}) {
-				got = &filter{pc, lit, peeker}
+			for i, a := range pc.Call.Args {
+				if !c01IsRef(a.Type()) || i >= len(pf.Params) {
+					continue
+				}
+				if e.depends(a, func(v ssa.Value) bool {
+					pk, ok := v.(*ssa.Call)
+					return ok && isPeek(pk) && e.same(pk.Call.Args[0], peeker)
+				}) {
+					got = &c01Filter{pc, pf, i, peeker}
+				}
 			}
 		}
 		if got != nil {
@@ -2609,93 +3811,163 @@ func c01RuleMDedup(p *Program, r *Reporter) {
 		r.Violation(rule, key+"#take-gated", p.Pos(fn.Pos()), "no element is ever discarded: a blob present in two sources is emitted twice")
 	}
 	// (2) the predicate means  valid(last) && ref <= last
-	cells := map[ssa.Value]bool{}
-	doneLit := map[*ssa.Function]bool{}
+	var lasts []c01Last
+	donePred := map[*ssa.Function]bool{}
 	for _, f := range filters {
-		if doneLit[f.lit] {
+		if donePred[f.fn] {
 			continue
 		}
-		doneLit[f.lit] = true
-		cell, ok, detail := c01PredicateSemantics(f.lit)
-		if cell != nil {
-			cells[cell] = true
+		donePred[f.fn] = true
+		last, ok, detail := c01PredicateSemantics(e, f)
+		if last != nil {
+			dup := false
+			for _, l := range lasts {
+				if l == *last {
+					dup = true
+				}
+			}
+			if !dup {
+				lasts = append(lasts, *last)
+			}
 		}
 		if detail == "undecided" {
-			r.Undecided(rule, key+"#predicate", p.Pos(f.lit.Pos()), "the discard predicate could not be evaluated symbolically")
+			r.Undecided(rule, key+"#predicate", p.Pos(f.fn.Pos()), "the discard predicate could not be evaluated symbolically")
 			continue
 		}
-		r.Check(ok, rule, key+"#predicate", p.Pos(f.lit.Pos()),
+		r.Check(ok, rule, key+"#predicate", p.Pos(f.fn.Pos()),
 			"the discard predicate is true exactly for refs <= the last sent ref (and false before anything was sent)",
 			"the discard predicate is not 'ref <= last sent ref': "+detail)
 	}
 	// (3) the remembered ref is assigned the sent ref in the iteration of the send (on the send edge, or just before the offer)
-	for cell := range cells {
-		al, ok := cell.(*ssa.Alloc)
-		if !ok {
-			continue
-		}
-		sts := storesTo(al)
-		if len(sts) == 0 {
-			r.Violation(rule, key+"#last-sent-update", p.Pos(al.Pos()), "the last-sent ref is never updated: duplicates are not suppressed")
-		}
-		for _, st := range sts {
-			ok, why := false, "the store is neither on the send edge nor in the sending iteration before the send"
-			for _, s := range sends {
-				if st.Parent() != s.in.Parent() {
-					continue
-				}
-				onEdge := false
-				switch x := s.in.(type) {
-				case *ssa.Send:
-					onEdge = Precedes(x, st)
-				case *ssa.Select:
-					for _, f := range FactsAt(st.Block()) {
-						bo, isBo := f.Cond.(*ssa.BinOp)
-						if !isBo || bo.Op != token.EQL || !f.Val {
-							continue
-						}
-						ex, isEx := bo.X.(*ssa.Extract)
-						k, isK := ConstInt(bo.Y)
-						if isEx && isK && ex.Tuple == ssa.Value(x) && ex.Index == 0 && int(k) < len(x.States) &&
-							x.States[k].Dir == types.SendOnly && body.isDest(x.States[k].Chan) {
-							onEdge = true
-						}
+	all := in.allSends()
+	sentAt := func(at ssa.Instruction, val ssa.Value) (bool, string) {
+		ok, why := false, "the assignment is neither on the send edge nor in the sending iteration before the send"
+		for _, s := range all {
+			a, sx, lifted := e.liftPair(at, s.in)
+			if !lifted {
+				continue
+			}
+			onEdge := false
+			switch x := sx.(type) {
+			case *ssa.Send:
+				onEdge = Precedes(x, a)
+			case *ssa.Select:
+				for _, f := range FactsAt(a.Block()) {
+					bo, isBo := f.Cond.(*ssa.BinOp)
+					if !isBo || bo.Op != token.EQL || !f.Val {
+						continue
+					}
+					ex, isEx := bo.X.(*ssa.Extract)
+					k, isK := ConstInt(bo.Y)
+					if isEx && isK && ex.Tuple == ssa.Value(x) && ex.Index == 0 && int(k) < len(x.States) &&
+						x.States[k].Dir == types.SendOnly && s.body.isDest(x.States[k].Chan) {
+						onEdge = true
 					}
 				}
-				// equally good: the candidate's ref is recorded in the same iteration just before it is offered
-				// (every other outcome of the offer leaves the function)
-				sb := s.in.Block()
-				if !onEdge && c01ReachesFrom(sb, st.Block()) && (st.Block() == sb && instrIndex(st) < instrIndex(s.in) || st.Block() != sb && st.Block().Dominates(sb)) {
-					onEdge = true
+			default:
+				// the call of a helper that offers the element: the bookkeeping follows the call
+				onEdge = Precedes(sx, a)
+			}
+			// equally good: the candidate's ref is recorded in the same iteration just before it is offered
+			// (every other outcome of the offer leaves the function)
+			sb, ab := sx.Block(), a.Block()
+			if !onEdge && c01ReachesFrom(sb, ab) && (ab == sb && instrIndex(a) < instrIndex(sx) || ab != sb && ab.Dominates(sb)) {
+				onEdge = true
+			}
+			if !onEdge {
+				continue
+			}
+			if c01SentThing(e, val, s) {
+				ok = true
+			} else {
+				why = "the value assigned is not the ref of the blob just sent"
+			}
+		}
+		return ok, why
+	}
+	for _, last := range lasts {
+		switch {
+		case last.phi != nil:
+			web := map[*ssa.Phi]bool{}
+			var grow func(ph *ssa.Phi)
+			grow = func(ph *ssa.Phi) {
+				if web[ph] || len(web) > 16 {
+					return
 				}
-				if !onEdge {
-					continue
-				}
-				if c01SameThing(st.Val, s.x) {
-					ok = true
-				} else {
-					why = "the value stored is not the ref of the blob just sent"
+				web[ph] = true
+				for _, ev := range ph.Edges {
+					if q, ok := ev.(*ssa.Phi); ok {
+						grow(q)
+					}
 				}
 			}
-			r.Check(ok, rule, key+"#last-sent-update", p.Pos(st.Pos()),
-				"the last-sent ref is assigned the ref of the blob just sent, on the send edge", "last-sent bookkeeping is wrong: "+why)
+			grow(last.phi)
+			nUpd := 0
+			for ph := range web {
+				for i, ev := range ph.Edges {
+					if q, isPhi := ev.(*ssa.Phi); isPhi && web[q] {
+						continue
+					}
+					if _, isConst := ev.(*ssa.Const); isConst {
+						continue // the zero ref before anything was sent
+					}
+					nUpd++
+					pred := ph.Block().Preds[i]
+					ok, why := sentAt(pred.Instrs[len(pred.Instrs)-1], ev)
+					r.Check(ok, rule, key+"#last-sent-update", p.Pos(ev.Pos()),
+						"the last-sent ref is assigned the ref of the blob just sent, on the send edge", "last-sent bookkeeping is wrong: "+why)
+				}
+			}
+			if nUpd == 0 {
+				r.Violation(rule, key+"#last-sent-update", p.Pos(last.phi.Pos()), "the last-sent ref is never updated: duplicates are not suppressed")
+			}
+		case last.hasPlace:
+			var sts []*ssa.Store
+			for _, st := range e.storesToPlace(last.place) {
+				if ld, ok := originValue(st.Val).(*ssa.UnOp); ok && ld.Op == token.MUL {
+					if q, ok := e.placeOf(ld.X); ok && q == last.place {
+						continue // x = x
+					}
+				}
+				sts = append(sts, st)
+			}
+			if len(sts) == 0 {
+				r.Violation(rule, key+"#last-sent-update", p.Pos(last.place.base.Pos()), "the last-sent ref is never updated: duplicates are not suppressed")
+			}
+			for _, st := range sts {
+				ok, why := sentAt(st, st.Val)
+				r.Check(ok, rule, key+"#last-sent-update", p.Pos(st.Pos()),
+					"the last-sent ref is assigned the ref of the blob just sent, on the send edge", "last-sent bookkeeping is wrong: "+why)
+			}
+		default:
+			r.Undecided(rule, key+"#last-sent-update", p.Pos(fn.Pos()), "the value the discard predicate compares against is neither a variable, a field nor a loop-carried value; its updates cannot be followed")
 		}
 	}
 	// (4) in every iteration the filter on a source runs before that source's head is taken as candidate
 	for _, s := range sends {
 		nCand := 0
-		for _, c := range CallsIn(fn, false) {
+		for _, c := range e.allCalls() {
 			pk := c.Value()
-			if pk == nil || !isPeek(pk) || !DependsOn(s.x, func(v ssa.Value) bool { return v == ssa.Value(pk) }) {
+			if pk == nil || !isPeek(pk) || !e.depends(s.x, func(v ssa.Value) bool { return v == ssa.Value(pk) }) {
 				continue
 			}
 			nCand++
 			ok := false
 			for _, f := range filters {
-				if !sameOrigin(f.peeker, pk.Call.Args[0]) {
+				if !e.same(f.peeker, pk.Call.Args[0]) {
 					continue
 				}
-				fb, cb := f.pred.Block(), pk.Block()
+				fi, ci, lifted := e.liftPair(f.pred, pk)
+				if !lifted {
+					continue
+				}
+				fb, cb := fi.Block(), ci.Block()
+				if fb == cb {
+					if instrIndex(fi) < instrIndex(ci) {
+						ok = true
+					}
+					continue
+				}
 				fwd, bwd := false, false
 				for _, sc := range fb.Succs {
 					if c01Reach(fb, sc, true)[cb] {
@@ -2719,32 +3991,123 @@ func c01RuleMDedup(p *Program, r *Reporter) {
 			r.Undecided(rule, key+"#filter-before-candidate", p.Pos(s.in.Pos()), "the sent value is not derived from a ChanPeeker peek")
 		}
 	}
-	r.Floor(rule, 4)
 }
 
-// c01PredicateSemantics evaluates a one-parameter predicate literal that
-// compares its blob.Ref argument with a captured blob.Ref variable, for the
-// cases arg < last, arg == last, arg > last (last valid) and last invalid.
-// Expected: true, true, false, false.
-func c01PredicateSemantics(lit *ssa.Function) (cell ssa.Value, ok bool, detail string) {
-	if len(lit.Params) != 1 || !c01IsRef(lit.Params[0].Type()) {
+// c01SentThing: val is (a part of) the value send s sends; for a virtual send,
+// of the argument from which the helper's sent value is built.
+func c01SentThing(e *c01Eff, val ssa.Value, s c01Send) bool {
+	if s.x != nil {
+		return e.sameThing(val, s.x)
+	}
+	ci, ok := s.in.(ssa.CallInstruction)
+	if !ok {
+		return false
+	}
+	for _, a := range ci.Common().Args {
+		if e.sameThing(val, a) {
+			return true
+		}
+	}
+	return false
+}
+
+// predicateFn: the function a predicate call runs - a literal bound in the
+// calling function or reaching it as an argument, or a helper of the body.
+func (e *c01Eff) predicateFn(pc *ssa.Call) *ssa.Function {
+	if f := (CallSite{pc.Parent(), pc}).Callee(); f != nil {
+		if f.Blocks != nil && (f.Parent() != nil || c01IsHelperOf(TopFunc(e.root), f)) {
+			return f
+		}
+		return nil
+	}
+	var found *ssa.Function
+	for _, o := range e.origins(pc.Call.Value) {
+		var f *ssa.Function
+		switch x := o.(type) {
+		case *ssa.MakeClosure:
+			f = x.Fn.(*ssa.Function)
+		case *ssa.Function:
+			f = x
+		}
+		if f == nil || f.Blocks == nil || found != nil && found != f {
+			return nil
+		}
+		found = f
+	}
+	return found
+}
+
+// c01Last describes what the discard predicate compares the peeked ref with:
+// a place (a variable, captured or not, or a field) or a loop-carried value.
+type c01Last struct {
+	place    c01Place
+	hasPlace bool
+	phi      *ssa.Phi
+}
+
+// c01PredicateSemantics evaluates the discard predicate of filter f: a function
+// that compares one blob.Ref argument (the peeked ref) with a remembered
+// blob.Ref - a captured variable, a field of its receiver or of a captured
+// struct, or another parameter - for the cases arg < last, arg == last,
+// arg > last (last valid) and last invalid. Expected: true, true, false, false.
+func c01PredicateSemantics(e *c01Eff, f c01Filter) (last *c01Last, ok bool, detail string) {
+	lit := f.fn
+	if f.argIdx >= len(lit.Params) || !c01IsRef(lit.Params[f.argIdx].Type()) {
 		return nil, false, "undecided"
 	}
-	arg := lit.Params[0]
+	arg := lit.Params[f.argIdx]
 	isArg := func(v ssa.Value) bool { return originValue(v) == ssa.Value(arg) || v == ssa.Value(arg) }
-	isLast := func(v ssa.Value) bool {
-		ld, ok := v.(*ssa.UnOp)
-		if !ok || ld.Op != token.MUL || !c01IsRef(ld.Type()) {
-			return false
+	same := func(a, b c01Last) bool { return a == b }
+	lastOf := func(v ssa.Value) (c01Last, bool) {
+		if !c01IsRef(v.Type()) || isArg(v) {
+			return c01Last{}, false
 		}
-		c, ok := varOf(ld.X)
+		switch x := v.(type) {
+		case *ssa.UnOp:
+			if x.Op != token.MUL {
+				return c01Last{}, false
+			}
+			if o, isPrm := originValue(x).(*ssa.Parameter); isPrm && o != arg {
+				v = o // a spilled parameter
+				break
+			}
+			if pl, ok := e.placeOf(x.X); ok {
+				return c01Last{place: pl, hasPlace: true}, true
+			}
+			return c01Last{}, false
+		}
+		prm, isPrm := originValue(v).(*ssa.Parameter)
+		if !isPrm || prm == arg || prm.Parent() != lit {
+			return c01Last{}, false
+		}
+		i := c01ParamIndex(lit, prm)
+		if i < 0 || i >= len(f.pred.Call.Args) {
+			return c01Last{}, false
+		}
+		act := f.pred.Call.Args[i]
+		for _, o := range e.origins(act) {
+			switch y := o.(type) {
+			case *ssa.UnOp:
+				if y.Op == token.MUL {
+					if pl, ok := e.placeOf(y.X); ok {
+						return c01Last{place: pl, hasPlace: true}, true
+					}
+				}
+			case *ssa.Phi:
+				return c01Last{phi: y}, true
+			}
+		}
+		return c01Last{}, false
+	}
+	isLast := func(v ssa.Value) bool {
+		l, ok := lastOf(v)
 		if !ok {
 			return false
 		}
-		if cell == nil {
-			cell = c
+		if last == nil {
+			last = &l
 		}
-		return c == cell
+		return same(*last, l)
 	}
 	want := []struct {
 		cmp   int // -1 arg<last, 0 equal, +1 arg>last
@@ -2760,13 +4123,13 @@ func c01PredicateSemantics(lit *ssa.Function) (cell ssa.Value, ok bool, detail s
 	for _, c := range want {
 		got, decided := c01RunPredicate(lit, isArg, isLast, c.cmp, c.valid)
 		if !decided {
-			return cell, false, "undecided"
+			return last, false, "undecided"
 		}
 		if got != c.res {
-			return cell, false, c.name
+			return last, false, c.name
 		}
 	}
-	return cell, true, ""
+	return last, true, ""
 }
 
 // c01RunPredicate interprets the predicate's CFG concretely for one world,
@@ -2912,6 +4275,142 @@ func c01SameVarLoad(a, b ssa.Value) bool {
 	return ca != nil && ca == cb
 }
 
+// c01SortArgMatches: a is the slice sl (same value, or a read of the same variable).
+func c01SortArgMatches(a, sl ssa.Value) bool {
+	return sameOrigin(a, sl) || c01SameVarLoad(a, sl)
+}
+
+// c01MustSortParam: helper h sorts its parameter i on every path to every
+// return (a sorting call, or a call of a helper that does, on the parameter
+// itself, dominating all returns).
+func c01MustSortParam(e *c01Eff, h *ssa.Function, i, depth int) bool {
+	if depth > c01EffDepth || i >= len(h.Params) || h.Blocks == nil {
+		return false
+	}
+	prm := h.Params[i]
+	rets := Returns(h)
+	if len(rets) == 0 {
+		return false
+	}
+	for _, c := range CallsIn(h, false) {
+		if c.Value() == nil {
+			continue
+		}
+		dom := true
+		for _, ri := range rets {
+			if !(c.Block() == ri.Ret.Block() || c.Block().Dominates(ri.Ret.Block())) {
+				dom = false
+			}
+		}
+		if !dom {
+			continue
+		}
+		for ai, a := range c.Args() {
+			if !c01SortArgMatches(a, prm) {
+				continue
+			}
+			if c01IsSortCall(c) {
+				return true
+			}
+			if g := c.Callee(); g != nil && c01IsHelperOf(TopFunc(e.root), g) && c01MustSortParam(e, g, ai, depth+1) {
+				return true
+			}
+		}
+	}
+	return false
+}
+
+// sortedAt: slice value v is known sorted when control reaches instruction at
+// (of v's function): a sorting call (or a helper that always sorts its
+// parameter) on v executes before at on every path; or v is the result of a
+// helper every return of which returns a slice sorted there; or v is a helper's
+// parameter and the argument is sorted at every call of the helper.
+func (e *c01Eff) sortedAt(v ssa.Value, at ssa.Instruction, depth int) bool {
+	if depth > 2*c01EffDepth || v == nil || at == nil {
+		return false
+	}
+	if c, isConst := originValue(v).(*ssa.Const); isConst && c.Value == nil {
+		return true // a nil slice (returned next to an error) is trivially sorted
+	}
+	g := at.Parent()
+	for _, c := range CallsIn(g, false) {
+		if c.Value() == nil {
+			continue
+		}
+		cb, ab := c.Block(), at.Block()
+		if !(cb == ab && instrIndex(c.Value()) < instrIndex(at) || cb != ab && cb.Dominates(ab)) {
+			continue
+		}
+		for ai, a := range c.Args() {
+			if !c01SortArgMatches(a, v) {
+				continue
+			}
+			if c01IsSortCall(c) {
+				return true
+			}
+			if h := c.Callee(); h != nil && c01IsHelperOf(TopFunc(e.root), h) && c01MustSortParam(e, h, ai, 0) {
+				return true
+			}
+		}
+	}
+	switch x := originValue(v).(type) {
+	case *ssa.Call:
+		if h := e.helperCallee(x); h != nil && h.Signature.Results().Len() == 1 {
+			return e.returnsSorted(h, 0, depth)
+		}
+	case *ssa.Extract:
+		if call, ok := x.Tuple.(*ssa.Call); ok {
+			if h := e.helperCallee(call); h != nil {
+				return e.returnsSorted(h, x.Index, depth)
+			}
+		}
+	case *ssa.Parameter:
+		h := x.Parent()
+		i := c01ParamIndex(h, x)
+		if h == e.root && i >= 0 && len(e.rootCalls) > 0 {
+			// the root is itself handed dest (and this slice) by an enumerator
+			for _, rc := range e.rootCalls {
+				if rc.c.IsGo() || i >= len(rc.c.Args()) || !rc.in.sortedAt(rc.c.Args()[i], rc.c.Instr.(ssa.Instruction), depth+1) {
+					return false
+				}
+			}
+			return true
+		}
+		if h == e.root || !e.in[h] || i < 0 || len(e.calls[h]) == 0 {
+			return false
+		}
+		for _, c := range e.calls[h] {
+			if c.IsGo() || i >= len(c.Args()) || !e.sortedAt(c.Args()[i], c.Instr.(ssa.Instruction), depth+1) {
+				return false
+			}
+		}
+		return true
+	}
+	return false
+}
+
+func (e *c01Eff) returnsSorted(h *ssa.Function, idx, depth int) bool {
+	n := 0
+	for _, b := range h.Blocks {
+		if b == h.Recover || len(b.Instrs) == 0 {
+			continue
+		}
+		ret, ok := b.Instrs[len(b.Instrs)-1].(*ssa.Return)
+		if !ok {
+			continue
+		}
+		n++
+		if idx >= len(ret.Results) {
+			return false
+		}
+		rv := resolveReturnValue(ret.Results[idx], ret)
+		if !e.sortedAt(rv, ret, depth+1) && !e.sortedAt(ret.Results[idx], ret, depth+1) {
+			return false
+		}
+	}
+	return n > 0
+}
+
 func c01RuleSorted(p *Program, r *Reporter, insts []*c01Inst) {
 	const rule = "E-sorted"
 	kv := p.Iface("pkg/sorted", "KeyValue")
@@ -2919,21 +4418,22 @@ func c01RuleSorted(p *Program, r *Reporter, insts []*c01Inst) {
 		if in.class != "leaf" {
 			continue
 		}
+		e := c01EffOf(in.Root)
 		for _, s := range in.sends {
-			g := s.in.Parent()
-			fromKV := c01Depends(s.x, func(v ssa.Value) bool {
+			fromKV := e.depends(s.x, func(v ssa.Value) bool {
 				call, ok := v.(*ssa.Call)
 				return ok && (CallSite{call.Parent(), call}).IsMethod("Find", kv)
 			})
 			if fromKV {
 				continue // ordered by the sorted.KeyValue contract (C10), nothing to sort here
 			}
-			// the slices whose elements flow into the sent value
-			var ranged []ssa.Value
-			c01Depends(s.x, func(v ssa.Value) bool {
+			// the slices whose elements flow into the sent value (in the send's function or, where the element reaches
+			// a helper as an argument, in the calling function)
+			var ranged []*ssa.IndexAddr
+			e.depends(s.x, func(v ssa.Value) bool {
 				if ia, ok := v.(*ssa.IndexAddr); ok {
 					if _, isSlice := ia.X.Type().Underlying().(*types.Slice); isSlice {
-						ranged = append(ranged, ia.X)
+						ranged = append(ranged, ia)
 					}
 				}
 				return false
@@ -2947,20 +4447,20 @@ func c01RuleSorted(p *Program, r *Reporter, insts []*c01Inst) {
 				continue
 			}
 			ok := false
-			for _, c := range CallsIn(g, false) {
-				if c.Value() == nil || !c01IsSortCall(c) || !(c.Block() == s.in.Block() || c.Block().Dominates(s.in.Block())) {
-					continue
-				}
-				for _, a := range c.Args() {
-					for _, sl := range ranged {
-						if sameOrigin(a, sl) || c01SameVarLoad(a, sl) {
-							ok = true
-						}
+			for _, ia := range ranged {
+				// the point of the slice's function at which the send (or the call leading to it) happens
+				var at ssa.Instruction
+				for _, x := range e.chain(s.in) {
+					if x.Parent() == ia.Parent() {
+						at = x
 					}
+				}
+				if at != nil && e.sortedAt(ia.X, at, 0) {
+					ok = true
 				}
 			}
 			r.Check(ok, rule, construct, p.Pos(s.in.Pos()),
-				"the slice ranged over for the sends is itself passed to a sorting call that dominates the send",
+				"the slice ranged over for the sends is sorted before the sends: it is passed to a sorting call (directly, or in a helper that returns it or is handed it) that precedes the send on every path",
 				"the elements sent come from a slice that is not sorted before the sends (source is not a sorted.KeyValue iterator): enumeration order would be map/directory order, and merged enumeration and paging rely on ascending order")
 		}
 	}
@@ -2970,69 +4470,112 @@ func c01RuleSorted(p *Program, r *Reporter, insts []*c01Inst) {
 // ===========================================================================
 // M-lowest (added beyond the design)
 
-func c01RuleMLowest(p *Program, r *Reporter) {
+func c01RuleMLowest(p *Program, r *Reporter, insts []*c01Inst) {
 	const rule = "M-lowest"
-	fn := p.Func("pkg/blobserver", "", "mergedEnumerate")
-	key := FuncKey(fn)
-	var dest *ssa.Parameter
-	for _, prm := range fn.Params {
-		if c01IsSendChan(prm.Type()) {
-			dest = prm
-		}
-	}
-	if dest == nil {
-		brokenf("anchor unresolved: %s has no channel parameter", key)
-	}
-	sends := c01SendsIn(&c01Body{fn: fn, isDest: c01Same(dest)})
-	for _, s := range sends {
-		cell, ok := c01Base(s.x).(*ssa.Alloc)
-		if !ok {
-			r.Undecided(rule, key+"#candidate", p.Pos(s.in.Pos()), "the value sent is not held in a local candidate variable")
-			continue
-		}
-		for _, st := range storesTo(cell) {
-			if st.Parent() != fn {
+	for _, in := range c01MergeInstances(insts) {
+		fn := in.Root
+		key := FuncKey(fn)
+		e := c01EffOf(fn)
+		for _, s := range in.sends {
+			// the candidate variables: the variable the sent value is read from and, where that variable is
+			// assigned a helper's result, the variable the helper returns
+			type repl struct {
+				st   *ssa.Store
+				cell *ssa.Alloc
+			}
+			var repls []repl
+			seenCell := map[*ssa.Alloc]bool{}
+			undecided := ""
+			var follow func(v ssa.Value, depth int)
+			follow = func(v ssa.Value, depth int) {
+				if depth > 2*c01EffDepth {
+					undecided = "the candidate is handed through too many helpers"
+					return
+				}
+				os := e.origins(v)
+				if len(os) == 0 {
+					undecided = "the value sent cannot be resolved"
+				}
+				for _, o := range os {
+					cell, ok := c01Base(o).(*ssa.Alloc)
+					if !ok {
+						undecided = "the value sent is not held in a local candidate variable"
+						continue
+					}
+					if seenCell[cell] {
+						continue
+					}
+					seenCell[cell] = true
+					for _, st := range storesTo(cell) {
+						if !e.in[st.Parent()] {
+							continue
+						}
+						if c01Base(originValue(st.Val)) == ssa.Value(cell) {
+							continue // x = x (named result copied on return)
+						}
+						crosses := false
+						switch y := originValue(st.Val).(type) {
+						case *ssa.Call:
+							crosses = e.helperCallee(y) != nil
+						case *ssa.Extract:
+							if call, ok := y.Tuple.(*ssa.Call); ok {
+								crosses = e.helperCallee(call) != nil
+							}
+						case *ssa.Parameter:
+							crosses = y.Parent() != e.root && e.in[y.Parent()] && len(e.calls[y.Parent()]) > 0
+						}
+						if crosses {
+							follow(st.Val, depth+1)
+							continue
+						}
+						repls = append(repls, repl{st, cell})
+					}
+				}
+			}
+			follow(s.x, 0)
+			if undecided != "" || len(repls) == 0 {
+				if undecided == "" {
+					undecided = "the candidate variable is never assigned a peeked head"
+				}
+				r.Undecided(rule, key+"#candidate", p.Pos(s.in.Pos()), undecided)
 				continue
 			}
-			blk := st.Block()
-			good, bad := 0, ""
-			for _, pred := range blk.Preds {
-				if len(pred.Instrs) == 0 {
-					continue
-				}
-				ifi, isIf := pred.Instrs[len(pred.Instrs)-1].(*ssa.If)
-				if !isIf || len(pred.Succs) != 2 || pred.Succs[0] == pred.Succs[1] {
-					continue
-				}
-				cond, val := ifi.Cond, pred.Succs[0] == blk
-				for {
-					u, isNot := cond.(*ssa.UnOp)
-					if !isNot || u.Op != token.NOT {
-						break
+			for _, rp := range repls {
+				st, cell := rp.st, rp.cell
+				blk := st.Block()
+				good, bad := 0, ""
+				for _, pred := range blk.Preds {
+					if len(pred.Instrs) == 0 {
+						continue
 					}
-					cond, val = u.X, !val
+					ifi, isIf := pred.Instrs[len(pred.Instrs)-1].(*ssa.If)
+					if !isIf || len(pred.Succs) != 2 || pred.Succs[0] == pred.Succs[1] {
+						continue
+					}
+					cond, neg := c01StripNot(ifi.Cond)
+					val := (pred.Succs[0] == blk) != neg
+					call, isCall := cond.(*ssa.Call)
+					if !isCall {
+						continue
+					}
+					f := call.Call.StaticCallee()
+					if f == nil || !funcIs(f, "perkeep.org/pkg/blob", "Ref", "Less") || len(call.Call.Args) != 2 {
+						continue
+					}
+					a, b := call.Call.Args[0], call.Call.Args[1]
+					candFirst := e.sameThing(a, st.Val) && c01Base(b) == ssa.Value(cell)
+					candSecond := e.sameThing(b, st.Val) && c01Base(a) == ssa.Value(cell)
+					switch {
+					case candFirst && val:
+						good++
+					case candFirst || candSecond:
+						bad = fmt.Sprintf("the candidate replaces the current lowest on the edge where Less(%s) is %v", map[bool]string{true: "candidate, lowest", false: "lowest, candidate"}[candFirst], val)
+					}
 				}
-				call, isCall := cond.(*ssa.Call)
-				if !isCall {
-					continue
-				}
-				f := call.Call.StaticCallee()
-				if f == nil || !funcIs(f, "perkeep.org/pkg/blob", "Ref", "Less") || len(call.Call.Args) != 2 {
-					continue
-				}
-				a, b := call.Call.Args[0], call.Call.Args[1]
-				candFirst := c01SameThing(a, st.Val) && c01Base(b) == ssa.Value(cell)
-				candSecond := c01SameThing(b, st.Val) && c01Base(a) == ssa.Value(cell)
-				switch {
-				case candFirst && val:
-					good++
-				case candFirst || candSecond:
-					bad = fmt.Sprintf("the candidate replaces the current lowest on the edge where Less(%s) is %v", map[bool]string{true: "candidate, lowest", false: "lowest, candidate"}[candFirst], val)
-				}
+				r.Check(bad == "" && good > 0, rule, key+"#candidate", p.Pos(st.Pos()),
+					"the merge candidate is replaced only where Less(new candidate, current lowest) is true",
+					"the merge does not pick the lowest head: "+map[bool]string{true: "no Less(candidate, lowest) test controls the replacement", false: bad}[bad == ""])
 			}
-			r.Check(bad == "" && good > 0, rule, key+"#candidate", p.Pos(st.Pos()),
-				"the merge candidate is replaced only where Less(new candidate, current lowest) is true",
-				"the merge does not pick the lowest head: "+map[bool]string{true: "no Less(candidate, lowest) test controls the replacement", false: bad}[bad == ""])
 		}
 	}
 	r.Floor(rule, 1)
@@ -3118,23 +4661,25 @@ func c01DominatesAll(b *ssa.BasicBlock, bs []*ssa.BasicBlock) bool {
 }
 
 type c01Refill struct {
-	inst    *c01Inst
-	body    *c01Body
-	fn      *ssa.Function
-	fc      c01FamCall
-	lit     *ssa.Function   // the literal that makes the call; nil when fn calls directly
-	start   *ssa.BasicBlock // block of fn in which the round's sub-enumeration is started
-	L, I    *c01Loop
-	recv    *ssa.UnOp
-	elem    ssa.Value                // the element received in one iteration of I
-	sendBlk map[*ssa.BasicBlock]bool // blocks of I entered exactly when an element has been sent on dest
-	pre     map[*ssa.BasicBlock]bool // reachable from L's header without entering I
-	post    map[*ssa.BasicBlock]bool // reachable from I's exit without re-entering L's header
-	exits   []*ssa.BasicBlock        // targets of the edges leaving I
-	results map[*ssa.Return][]ssa.Value
-	errIdx  int
-	phiRole map[*ssa.Phi]int
-	celRole map[*ssa.Alloc]int
+	inst     *c01Inst
+	body     *c01Body
+	fn       *ssa.Function
+	fc       c01FamCall
+	lit      *ssa.Function   // the literal that makes the call; nil when fn calls directly
+	start    *ssa.BasicBlock // block of fn in which the round's sub-enumeration is started
+	L, I     *c01Loop
+	recv     *ssa.UnOp
+	elem     ssa.Value                // the element received in one iteration of I
+	sendBlk  map[*ssa.BasicBlock]bool // blocks of I entered exactly when an element has been sent on dest
+	pre      map[*ssa.BasicBlock]bool // reachable from L's header without entering I
+	post     map[*ssa.BasicBlock]bool // reachable from I's exit without re-entering L's header
+	exits    []*ssa.BasicBlock        // targets of the edges leaving I
+	results  map[*ssa.Return][]ssa.Value
+	errIdx   int
+	phiRole  map[*ssa.Phi]int
+	celRole  map[*ssa.Alloc]int
+	round    *c01Round                 // set when the receive loop lives in a helper the refill loop calls
+	updStore map[*ssa.Alloc]*ssa.Store // helper form: the store that adds the round's sends to a counter cell
 }
 
 const (
@@ -3161,6 +4706,10 @@ func c01SendSuccessBlocks(fn *ssa.Function, sends []c01Send) map[*ssa.BasicBlock
 		switch x := s.in.(type) {
 		case *ssa.Send:
 			out[x.Block()] = true
+		default:
+			if s.virtual {
+				out[x.Block()] = true // the call of a helper that sends
+			}
 		case *ssa.Select:
 			for _, blk := range fn.Blocks {
 				if len(blk.Instrs) == 0 || len(blk.Succs) != 2 {
@@ -3186,10 +4735,84 @@ func c01SendSuccessBlocks(fn *ssa.Function, sends []c01Send) map[*ssa.BasicBlock
 	return out
 }
 
+// c01TranslateSubEnum: a sub-enumeration call made by helper h (channel, cursor
+// and limit being parameters of h) is re-expressed at the single call of h in
+// one of the instance's bodies.
+func c01TranslateSubEnum(in *c01Inst, fc c01FamCall) (c01FamCall, bool) {
+	h := TopFunc(fc.c.Fn) // the call may sit in a literal the helper starts
+	sites := c01EffOf(in.Root).calls[h]
+	if len(sites) != 1 {
+		return fc, false
+	}
+	site := sites[0]
+	var body *c01Body
+	for f := site.Fn; f != nil && body == nil; f = f.Parent() {
+		for _, b := range in.bodies {
+			if b.fn == f {
+				body = b
+			}
+		}
+	}
+	if body == nil {
+		return fc, false
+	}
+	args := site.Args()
+	mapArg := func(v ssa.Value) ssa.Value {
+		o := originValue(v)
+		if prm, ok := o.(*ssa.Parameter); ok && prm.Parent() == h {
+			if i := c01ParamIndex(h, prm); i >= 0 && i < len(args) {
+				return args[i]
+			}
+			return nil
+		}
+		// a value the helper makes and returns (the round's channel): the corresponding result of the call
+		if cv := site.Value(); cv != nil {
+			rets := Returns(h)
+			for k := 0; k < h.Signature.Results().Len() && len(rets) > 0; k++ {
+				all := true
+				for _, ri := range rets {
+					if k >= len(ri.Results) || originValue(ri.Results[k]) != o {
+						all = false
+					}
+				}
+				if all {
+					return ResultValue(cv, k)
+				}
+			}
+		}
+		return nil
+	}
+	out := c01FamCall{c: site, ch: mapArg(fc.ch), after: mapArg(fc.after), limit: mapArg(fc.limit), body: body}
+	if out.ch == nil || out.after == nil || out.limit == nil {
+		return fc, false
+	}
+	return out, true
+}
+
 // c01FindRefills computes the refill loops of one dest-owning function.
 func c01FindRefills(in *c01Inst) (found []*c01Refill, undecided, notes []string) {
 	loopsOf := map[*ssa.Function][]*c01Loop{}
 	for _, fc := range in.subEnums {
+		if fc.body == nil {
+			// started by a helper of the effective body that does not own dest (the round's goroutine turned into a
+			// named function): the call of the helper stands for the sub-enumeration, its arguments for the helper's
+			tfc, ok := c01TranslateSubEnum(in, fc)
+			if !ok {
+				// cannot be re-expressed at the helper's call (the helper makes the channel itself, has several calls, ...):
+				// a problem only when the helper is called from a loop that sends on dest
+				for _, site := range c01EffOf(in.Root).calls[TopFunc(fc.c.Fn)] {
+					if l := c01InnermostLoop(c01NaturalLoops(site.Fn), site.Block()); l != nil {
+						for _, s := range in.allSends() {
+							if s.in.Parent() == site.Fn && l.body[s.in.Block()] {
+								undecided = append(undecided, "sub-enumeration "+fc.c.CalleeKey()+" is started inside helper "+FuncKey(TopFunc(fc.c.Fn))+", which is called from a loop that sends on dest, and its channel, cursor and limit are not plain parameters of that helper: the refill protocol cannot be followed")
+							}
+						}
+					}
+				}
+				continue
+			}
+			fc = tfc
+		}
 		// the body function the call belongs to, and the outermost literal below it
 		var body *c01Body
 		var lit *ssa.Function
@@ -3243,7 +4866,7 @@ func c01FindRefills(in *c01Inst) (found []*c01Refill, undecided, notes []string)
 		}
 		loops := loopsOf[fn]
 		var sends []c01Send
-		for _, s := range in.sends {
+		for _, s := range in.allSends() { // a call of a helper that sends counts as a send of fn
 			if s.in.Parent() == fn {
 				sends = append(sends, s)
 			}
@@ -3285,115 +4908,44 @@ func c01FindRefills(in *c01Inst) (found []*c01Refill, undecided, notes []string)
 			undecided = append(undecided, what+" is called from a literal nested in the literal started by the loop")
 			continue
 		}
-		// the receive on the sub-enumeration's channel
-		for _, blk := range fn.Blocks {
-			if !L.body[blk] {
-				continue
-			}
-			for _, ins := range blk.Instrs {
-				if u, ok := ins.(*ssa.UnOp); ok && u.Op == token.ARROW && originValue(u.X) == originValue(fc.ch) {
-					if rf.recv != nil && rf.recv != u {
-						undecided = append(undecided, what+": its channel is received from at more than one place in the loop")
+		st, msg := rf.setupInner(fc.ch, loops, inL, what, start)
+		if st == c01InnerNoRecv {
+			// the round's elements are received by a helper the refill loop calls
+			st, msg = rf.setupRoundHelper(in, loops, what)
+		}
+		switch st {
+		case c01InnerUndecided:
+			undecided = append(undecided, msg)
+			continue
+		case c01InnerNote:
+			notes = append(notes, msg)
+			continue
+		}
+		if rf.round == nil {
+			// regions
+			rf.pre, rf.post = map[*ssa.BasicBlock]bool{}, map[*ssa.BasicBlock]bool{}
+			var grow func(set map[*ssa.BasicBlock]bool, b *ssa.BasicBlock, stop ...*ssa.BasicBlock)
+			grow = func(set map[*ssa.BasicBlock]bool, b *ssa.BasicBlock, stop ...*ssa.BasicBlock) {
+				if set[b] {
+					return
+				}
+				set[b] = true
+				for _, s := range b.Succs {
+					skip := false
+					for _, st := range stop {
+						if s == st {
+							skip = true
+						}
 					}
-					rf.recv = u
-				}
-			}
-		}
-		if rf.recv == nil {
-			undecided = append(undecided, what+" is started in a loop that sends on dest, but the loop does not receive from the sub-enumeration's channel directly (helper or peeker): the refill protocol cannot be followed")
-			continue
-		}
-		rf.I = c01InnermostLoop(loops, rf.recv.Block())
-		if rf.I == nil || rf.I == L || rf.I.body[start] || !L.body[rf.I.head] || rf.recv.Block() != rf.I.head {
-			undecided = append(undecided, what+": the elements of a round are not received by a `for range ch`-style loop nested in the refill loop")
-			continue
-		}
-		okShape := rf.recv.CommaOk
-		for blk := range rf.I.body {
-			for si, s := range blk.Succs {
-				if rf.I.body[s] {
-					continue
-				}
-				// the only way out of I is the !ok edge of the receive: the round is drained until the channel is closed
-				ifi, isIf := blk.Instrs[len(blk.Instrs)-1].(*ssa.If)
-				good := false
-				if blk == rf.I.head && isIf && si == 1 {
-					if ex, isEx := ifi.Cond.(*ssa.Extract); isEx && ex.Tuple == ssa.Value(rf.recv) && ex.Index == 1 {
-						good = true
+					if !skip {
+						grow(set, s, stop...)
 					}
 				}
-				if !good && c01AbortOnly(rf, s, map[*ssa.BasicBlock]bool{}) {
-					// leaving the function from inside I by panic or with an error is not a refill decision
-					continue
-				}
-				if !good {
-					okShape = false
-				}
-				rf.exits = append(rf.exits, s)
 			}
-		}
-		if !okShape || len(rf.exits) == 0 {
-			undecided = append(undecided, what+": the receive loop is left other than by the sub-enumeration closing its channel; the number of elements received in a round is not defined")
-			continue
-		}
-		if rf.recv.Referrers() != nil {
-			for _, ref := range *rf.recv.Referrers() {
-				if ex, ok := ref.(*ssa.Extract); ok && ex.Index == 0 {
-					rf.elem = ex
-				}
+			grow(rf.pre, L.head, rf.I.head, L.head)
+			for _, e := range rf.exits {
+				grow(rf.post, e, L.head, rf.I.head)
 			}
-		}
-		rf.sendBlk = map[*ssa.BasicBlock]bool{}
-		outside := false
-		for b := range c01SendSuccessBlocks(fn, inL) {
-			if rf.I.body[b] {
-				rf.sendBlk[b] = true
-			} else {
-				outside = true
-			}
-		}
-		for _, s := range inL {
-			if !rf.I.body[s.in.Block()] {
-				outside = true
-			}
-		}
-		if outside || len(rf.sendBlk) == 0 {
-			undecided = append(undecided, what+": the refill loop sends on dest outside the loop that receives the round's elements")
-			continue
-		}
-		filtering := true
-		for b := range rf.sendBlk {
-			if c01DominatesAll(b, rf.I.latches) {
-				filtering = false
-			}
-		}
-		if !filtering {
-			notes = append(notes, fmt.Sprintf("%s: the loop around %s forwards every element it receives (no filter): not a filtering refill", FuncKey(fn), what))
-			continue
-		}
-		// regions
-		rf.pre, rf.post = map[*ssa.BasicBlock]bool{}, map[*ssa.BasicBlock]bool{}
-		var grow func(set map[*ssa.BasicBlock]bool, b *ssa.BasicBlock, stop ...*ssa.BasicBlock)
-		grow = func(set map[*ssa.BasicBlock]bool, b *ssa.BasicBlock, stop ...*ssa.BasicBlock) {
-			if set[b] {
-				return
-			}
-			set[b] = true
-			for _, s := range b.Succs {
-				skip := false
-				for _, st := range stop {
-					if s == st {
-						skip = true
-					}
-				}
-				if !skip {
-					grow(set, s, stop...)
-				}
-			}
-		}
-		grow(rf.pre, L.head, rf.I.head, L.head)
-		for _, e := range rf.exits {
-			grow(rf.post, e, L.head, rf.I.head)
 		}
 		for _, ri := range Returns(fn) {
 			rf.results[ri.Ret] = ri.Results
@@ -3401,6 +4953,391 @@ func c01FindRefills(in *c01Inst) (found []*c01Refill, undecided, notes []string)
 		found = append(found, rf)
 	}
 	return found, undecided, notes
+}
+
+const (
+	c01InnerOK = iota
+	c01InnerUndecided
+	c01InnerNote
+	c01InnerNoRecv
+)
+
+// setupInner finds, in the refill loop rf.L of rf.fn, the loop that receives
+// the round's elements from channel ch and validates its shape: a `for range
+// ch`-style loop nested in the refill loop, left only when the channel is
+// closed, with every send on dest inside it, sending on some iterations only.
+func (rf *c01Refill) setupInner(ch ssa.Value, loops []*c01Loop, inL []c01Send, what string, start *ssa.BasicBlock) (int, string) {
+	fn, L := rf.fn, rf.L
+	multi := false
+	for _, blk := range fn.Blocks {
+		if !L.body[blk] {
+			continue
+		}
+		for _, ins := range blk.Instrs {
+			if u, ok := ins.(*ssa.UnOp); ok && u.Op == token.ARROW && originValue(u.X) == originValue(ch) {
+				if rf.recv != nil && rf.recv != u {
+					multi = true
+				}
+				rf.recv = u
+			}
+		}
+	}
+	if multi {
+		return c01InnerUndecided, what + ": its channel is received from at more than one place in the loop"
+	}
+	if rf.recv == nil {
+		return c01InnerNoRecv, what + " is started in a loop that sends on dest, but the loop does not receive from the sub-enumeration's channel directly (helper or peeker): the refill protocol cannot be followed"
+	}
+	rf.I = c01InnermostLoop(loops, rf.recv.Block())
+	if rf.I == nil || rf.I == L || start != nil && rf.I.body[start] || !L.body[rf.I.head] || rf.recv.Block() != rf.I.head {
+		return c01InnerUndecided, what + ": the elements of a round are not received by a `for range ch`-style loop nested in the refill loop"
+	}
+	okShape := rf.recv.CommaOk
+	for blk := range rf.I.body {
+		for si, s := range blk.Succs {
+			if rf.I.body[s] {
+				continue
+			}
+			// the only way out of I is the !ok edge of the receive: the round is drained until the channel is closed
+			ifi, isIf := blk.Instrs[len(blk.Instrs)-1].(*ssa.If)
+			good := false
+			if blk == rf.I.head && isIf && si == 1 {
+				if ex, isEx := ifi.Cond.(*ssa.Extract); isEx && ex.Tuple == ssa.Value(rf.recv) && ex.Index == 1 {
+					good = true
+				}
+			}
+			if !good && c01AbortOnly(rf, s, map[*ssa.BasicBlock]bool{}) {
+				// leaving the function from inside I by panic or with an error is not a refill decision
+				continue
+			}
+			if !good {
+				okShape = false
+			}
+			rf.exits = append(rf.exits, s)
+		}
+	}
+	if !okShape || len(rf.exits) == 0 {
+		return c01InnerUndecided, what + ": the receive loop is left other than by the sub-enumeration closing its channel; the number of elements received in a round is not defined"
+	}
+	if rf.recv.Referrers() != nil {
+		for _, ref := range *rf.recv.Referrers() {
+			if ex, ok := ref.(*ssa.Extract); ok && ex.Index == 0 {
+				rf.elem = ex
+			}
+		}
+	}
+	rf.sendBlk = map[*ssa.BasicBlock]bool{}
+	outside := false
+	for b := range c01SendSuccessBlocks(fn, inL) {
+		if rf.I.body[b] {
+			rf.sendBlk[b] = true
+		} else {
+			outside = true
+		}
+	}
+	for _, s := range inL {
+		if !rf.I.body[s.in.Block()] {
+			outside = true
+		}
+	}
+	if outside || len(rf.sendBlk) == 0 {
+		return c01InnerUndecided, what + ": the refill loop sends on dest outside the loop that receives the round's elements"
+	}
+	filtering := true
+	for b := range rf.sendBlk {
+		if c01DominatesAll(b, rf.I.latches) {
+			filtering = false
+		}
+	}
+	if !filtering {
+		return c01InnerNote, fmt.Sprintf("%s: the loop around %s forwards every element it receives (no filter): not a filtering refill", FuncKey(fn), what)
+	}
+	return c01InnerOK, ""
+}
+
+// Roles of the results of a round helper (a helper the refill loop calls with
+// the round's channel and dest, which contains the receive loop).
+const (
+	c01ResNone     = iota
+	c01ResSeen     // number of elements received in the round (S)
+	c01ResSent     // number of elements sent in the round (D)
+	c01ResSentPlus // an integer parameter plus D (the running send counter passed in and handed back)
+	c01ResLastRef  // the last ref received
+	c01ResLastText // Ref.String() of the last ref received
+)
+
+type c01Round struct {
+	call    *ssa.Call
+	helper  *ssa.Function
+	roles   []int // per result
+	plusArg []int // for c01ResSentPlus: index of the argument the result adds D to
+}
+
+// roleOfResult: the role of value v when it is a result of the round helper's call.
+func (rf *c01Refill) roleOfResult(v ssa.Value) (role int, plus ssa.Value) {
+	if rf.round == nil {
+		return c01ResNone, nil
+	}
+	idx := -1
+	switch x := v.(type) {
+	case *ssa.Extract:
+		if x.Tuple == ssa.Value(rf.round.call) {
+			idx = x.Index
+		}
+	case *ssa.Call:
+		if x == rf.round.call && len(rf.round.roles) == 1 {
+			idx = 0
+		}
+	}
+	if idx < 0 || idx >= len(rf.round.roles) {
+		return c01ResNone, nil
+	}
+	role = rf.round.roles[idx]
+	if role == c01ResSentPlus {
+		args := rf.round.call.Call.Args
+		if ai := rf.round.plusArg[idx]; ai >= 0 && ai < len(args) {
+			plus = args[ai]
+		} else {
+			return c01ResNone, nil
+		}
+	}
+	return role, plus
+}
+
+// setupRoundHelper handles the refill loop whose receive loop was moved into a
+// helper: `seen, n, last := h(ch, dest)` (or with the running counter passed in
+// and handed back). The helper is summarised - its own receive loop must have
+// the shape setupInner demands, and each result is classified by how it
+// evolves in that loop - and the call then stands for the receive loop.
+func (rf *c01Refill) setupRoundHelper(in *c01Inst, loops []*c01Loop, what string) (int, string) {
+	fn, L := rf.fn, rf.L
+	noRecv := what + " is started in a loop that sends on dest, but the loop does not receive from the sub-enumeration's channel directly (helper or peeker): the refill protocol cannot be followed"
+	var call *ssa.Call
+	var hb *c01Body
+	chIdx := -1
+	for _, b := range in.bodies {
+		if b.parent == nil || b.fn.Parent() != nil {
+			continue
+		}
+		cv, ok := b.via.Instr.(*ssa.Call)
+		if !ok || cv.Parent() != fn || !L.body[cv.Block()] {
+			continue
+		}
+		for ai, a := range cv.Call.Args {
+			if originValue(a) == originValue(rf.fc.ch) && ai < len(b.fn.Params) {
+				if call != nil && call != cv {
+					return c01InnerUndecided, noRecv
+				}
+				call, hb, chIdx = cv, b, ai
+			}
+		}
+	}
+	if call == nil || c01InnermostLoop(loops, call.Block()) != L {
+		return c01InnerUndecided, noRecv
+	}
+	h := hb.fn
+	if len(c01EffOf(in.Root).calls[h]) != 1 {
+		return c01InnerUndecided, what + ": the helper that receives the round's elements is called from several places"
+	}
+	// summarise the helper
+	hloops := c01NaturalLoops(h)
+	hrf := &c01Refill{inst: in, body: hb, fn: h, fc: rf.fc, L: &c01Loop{head: h.Blocks[0], body: map[*ssa.BasicBlock]bool{}},
+		phiRole: map[*ssa.Phi]int{}, celRole: map[*ssa.Alloc]int{}, results: map[*ssa.Return][]ssa.Value{}, errIdx: ErrResultIndex(h)}
+	// for the shape test the whole helper is the region the receive loop must lie in
+	whole := &c01Loop{head: h.Blocks[0], body: map[*ssa.BasicBlock]bool{}}
+	for _, b := range h.Blocks {
+		whole.body[b] = true
+	}
+	var hsends []c01Send
+	for _, s := range in.allSends() {
+		if s.in.Parent() == h {
+			hsends = append(hsends, s)
+		}
+	}
+	hrf.L = whole
+	st, msg := hrf.setupInnerIn(h.Params[chIdx], hloops, hsends, what+" (received in helper "+FuncKey(h)+")")
+	if st != c01InnerOK {
+		if st == c01InnerNoRecv {
+			st = c01InnerUndecided
+		}
+		return st, msg
+	}
+	hrf.pre, hrf.post = map[*ssa.BasicBlock]bool{}, map[*ssa.BasicBlock]bool{}
+	var grow func(set map[*ssa.BasicBlock]bool, b *ssa.BasicBlock)
+	grow = func(set map[*ssa.BasicBlock]bool, b *ssa.BasicBlock) {
+		if set[b] || b == hrf.I.head {
+			return
+		}
+		set[b] = true
+		for _, s := range b.Succs {
+			grow(set, s)
+		}
+	}
+	grow(hrf.pre, h.Blocks[0])
+	for _, e := range hrf.exits {
+		grow(hrf.post, e)
+	}
+	nres := h.Signature.Results().Len()
+	round := &c01Round{call: call, helper: h, roles: make([]int, nres), plusArg: make([]int, nres)}
+	first := true
+	for _, ri := range Returns(h) {
+		if !hrf.post[ri.Ret.Block()] {
+			continue // a return from inside the receive loop: aborts (checked by the shape test)
+		}
+		for k := 0; k < nres && k < len(ri.Results); k++ {
+			role, plus := hrf.classifyResult(ri.Results[k])
+			if !first && (round.roles[k] != role || round.plusArg[k] != plus) {
+				role = c01ResNone
+			}
+			round.roles[k], round.plusArg[k] = role, plus
+		}
+		first = false
+	}
+	if first {
+		return c01InnerUndecided, what + ": helper " + FuncKey(h) + " does not return after its receive loop"
+	}
+	rf.round = round
+	rf.I = &c01Loop{head: call.Block(), body: map[*ssa.BasicBlock]bool{}}
+	rf.exits = []*ssa.BasicBlock{call.Block()}
+	rf.sendBlk = map[*ssa.BasicBlock]bool{}
+	rf.pre, rf.post = map[*ssa.BasicBlock]bool{}, map[*ssa.BasicBlock]bool{}
+	var growTo func(set map[*ssa.BasicBlock]bool, b *ssa.BasicBlock, stop ...*ssa.BasicBlock)
+	growTo = func(set map[*ssa.BasicBlock]bool, b *ssa.BasicBlock, stop ...*ssa.BasicBlock) {
+		if set[b] {
+			return
+		}
+		set[b] = true
+		for _, s := range b.Succs {
+			skip := false
+			for _, st := range stop {
+				if s == st {
+					skip = true
+				}
+			}
+			if !skip {
+				growTo(set, s, stop...)
+			}
+		}
+	}
+	if call.Block() != L.head {
+		growTo(rf.pre, L.head, call.Block(), L.head)
+	}
+	growTo(rf.post, call.Block(), L.head)
+	return c01InnerOK, ""
+}
+
+// setupInnerIn is setupInner for a helper: the channel is a parameter and no
+// start block constrains the loop.
+func (rf *c01Refill) setupInnerIn(ch ssa.Value, loops []*c01Loop, sends []c01Send, what string) (int, string) {
+	st, msg := rf.setupInner(ch, loops, sends, what, nil)
+	return st, msg
+}
+
+// classifyResult: the role of a value the round helper returns after its
+// receive loop (evaluated inside the helper).
+func (rf *c01Refill) classifyResult(v ssa.Value) (role, plusArg int) {
+	o := originValue(v)
+	if c01IsBasic(o.Type(), types.Int) {
+		ph, isPhi := o.(*ssa.Phi)
+		if !isPhi || ph.Block() != rf.I.head {
+			return c01ResNone, -1
+		}
+		if rf.roleOfPhi(ph) == c01RoleSeen {
+			return c01ResSeen, -1
+		}
+		// a counter stepped exactly in the send blocks, starting at 0 or at an integer parameter
+		var outs, ins []ssa.Value
+		for i, pred := range ph.Block().Preds {
+			if rf.I.body[pred] {
+				ins = append(ins, ph.Edges[i])
+			} else {
+				outs = append(outs, ph.Edges[i])
+			}
+		}
+		if len(outs) == 0 || len(ins) == 0 {
+			return c01ResNone, -1
+		}
+		zero, prm := true, -1
+		for _, ov := range outs {
+			if !c01IsZeroInt(ov) {
+				zero = false
+			}
+			if q, isPrm := originValue(ov).(*ssa.Parameter); isPrm && q.Parent() == rf.fn {
+				pi := c01ParamIndex(rf.fn, q)
+				if prm >= 0 && prm != pi {
+					return c01ResNone, -1
+				}
+				prm = pi
+			} else if !c01IsZeroInt(ov) {
+				return c01ResNone, -1
+			}
+		}
+		if zero == (prm >= 0) {
+			return c01ResNone, -1
+		}
+		steps := map[*ssa.BasicBlock]int{}
+		seenPhi := map[ssa.Value]bool{}
+		var copyOf func(v ssa.Value, depth int) bool
+		copyOf = func(v ssa.Value, depth int) bool {
+			if v == ssa.Value(ph) {
+				return true
+			}
+			if depth > 12 {
+				return false
+			}
+			switch x := v.(type) {
+			case *ssa.BinOp:
+				if c01IsStep(x, func(o ssa.Value) bool { return copyOf(o, depth+1) }, false) && rf.sendBlk[x.Block()] {
+					steps[x.Block()]++
+					return true
+				}
+			case *ssa.Phi:
+				if !rf.I.body[x.Block()] || x.Block() == rf.I.head {
+					return false
+				}
+				if seenPhi[x] {
+					return true
+				}
+				seenPhi[x] = true
+				for _, e := range x.Edges {
+					if !copyOf(e, depth+1) {
+						return false
+					}
+				}
+				return true
+			}
+			return false
+		}
+		for _, iv := range ins {
+			if !copyOf(iv, 0) {
+				return c01ResNone, -1
+			}
+		}
+		for b := range rf.sendBlk {
+			if steps[b] != 1 {
+				return c01ResNone, -1
+			}
+		}
+		if len(steps) != len(rf.sendBlk) {
+			return c01ResNone, -1
+		}
+		if zero {
+			return c01ResSent, -1
+		}
+		return c01ResSentPlus, prm
+	}
+	if c01IsRef(o.Type()) || c01IsRef(v.Type()) {
+		if ok, _ := rf.lastAtExit(v, rf.elemProj, false); ok {
+			return c01ResLastRef, -1
+		}
+		return c01ResNone, -1
+	}
+	if c01IsBasic(o.Type(), types.String) {
+		if ok, _ := rf.lastRefText(v); ok {
+			return c01ResLastText, -1
+		}
+	}
+	return c01ResNone, -1
 }
 
 // c01AbortOnly: every path from b leaves the function by panic or by a return
@@ -3548,6 +5485,11 @@ func (rf *c01Refill) roleOfPhi(ph *ssa.Phi) int {
 	}
 	rf.phiRole[ph] = c01RoleNone
 	role := c01RoleNone
+	if rf.round != nil {
+		role = rf.roundRoleOfPhi(ph)
+		rf.phiRole[ph] = role
+		return role
+	}
 	switch ph.Block() {
 	case rf.I.head:
 		var outs, ins []ssa.Value
@@ -3679,6 +5621,141 @@ func (rf *c01Refill) roleOfPhi(ph *ssa.Phi) int {
 	return role
 }
 
+// roundRoleOfPhi: helper form (the receive loop is a call): the send counter is
+// the phi at the refill loop's head that starts at 0 (or, as a budget, at limit)
+// and to which every way round the loop adds (subtracts) the round's sends.
+func (rf *c01Refill) roundRoleOfPhi(ph *ssa.Phi) int {
+	if ph.Block() != rf.L.head || !c01IsBasic(ph.Type(), types.Int) {
+		return c01RoleNone
+	}
+	nZero, nLimit := 0, 0
+	var ins []ssa.Value
+	for i, pred := range ph.Block().Preds {
+		switch {
+		case rf.L.body[pred]:
+			ins = append(ins, ph.Edges[i])
+		case c01IsZeroInt(ph.Edges[i]):
+			nZero++
+		case rf.isLimit(ph.Edges[i]):
+			nLimit++
+		default:
+			return c01RoleNone
+		}
+	}
+	if len(ins) == 0 || (nZero > 0) == (nLimit > 0) {
+		return c01RoleNone
+	}
+	down := nLimit > 0
+	seen := map[ssa.Value]bool{}
+	var updated func(v ssa.Value, depth int) bool
+	updated = func(v ssa.Value, depth int) bool {
+		if depth > 8 {
+			return false
+		}
+		if role, plus := rf.roleOfResult(v); role == c01ResSentPlus && !down {
+			return originValue(plus) == ssa.Value(ph) || plus == ssa.Value(ph)
+		}
+		switch x := v.(type) {
+		case *ssa.BinOp:
+			isD := func(o ssa.Value) bool { r, _ := rf.roleOfResult(o); return r == c01ResSent }
+			if !down && x.Op == token.ADD {
+				return x.X == ssa.Value(ph) && isD(x.Y) || x.Y == ssa.Value(ph) && isD(x.X)
+			}
+			if down && x.Op == token.SUB {
+				return x.X == ssa.Value(ph) && isD(x.Y)
+			}
+		case *ssa.Phi:
+			if x == ph || !rf.L.body[x.Block()] {
+				return false
+			}
+			if seen[x] {
+				return true
+			}
+			seen[x] = true
+			for _, e := range x.Edges {
+				if !updated(e, depth+1) {
+					return false
+				}
+			}
+			return true
+		}
+		return false
+	}
+	for _, v := range ins {
+		if !updated(v, 0) {
+			return c01RoleNone
+		}
+	}
+	if down {
+		return c01RoleLeft0
+	}
+	return c01RoleSent0
+}
+
+// roundRoleOfCell: helper form, for a counter that lives in memory (captured by
+// the literal that starts the round): initialised once before the refill loop
+// with 0 (or limit), and written exactly once per round, after the call, with
+// its own value plus (minus) the round's sends.
+func (rf *c01Refill) roundRoleOfCell(al *ssa.Alloc) int {
+	self := func(o ssa.Value) bool {
+		u, ok := o.(*ssa.UnOp)
+		if !ok || u.Op != token.MUL {
+			return false
+		}
+		c, ok := varOf(u.X)
+		return ok && c == ssa.Value(al)
+	}
+	var init, upd []*ssa.Store
+	for _, st := range storesTo(al) {
+		switch {
+		case st.Parent() != rf.fn:
+			return c01RoleNone
+		case !rf.L.body[st.Block()]:
+			init = append(init, st)
+		default:
+			upd = append(upd, st)
+		}
+	}
+	if al.Parent() != rf.fn || rf.L.body[al.Block()] || len(init) != 1 || len(upd) != 1 || !init[0].Block().Dominates(rf.L.head) {
+		return c01RoleNone
+	}
+	down := false
+	switch {
+	case c01IsZeroInt(init[0].Val):
+	case rf.body.isLimit(init[0].Val):
+		down = true
+	default:
+		return c01RoleNone
+	}
+	us := upd[0]
+	if !Precedes(rf.round.call, us) || !c01DominatesAll(us.Block(), rf.L.latches) {
+		return c01RoleNone
+	}
+	ok := false
+	if role, plus := rf.roleOfResult(us.Val); role == c01ResSentPlus && !down {
+		ok = self(plus) && Precedes(plus.(ssa.Instruction), rf.round.call)
+	} else if bo, isBo := us.Val.(*ssa.BinOp); isBo {
+		isD := func(o ssa.Value) bool { r, _ := rf.roleOfResult(o); return r == c01ResSent }
+		switch {
+		case !down && bo.Op == token.ADD:
+			ok = self(bo.X) && isD(bo.Y) || self(bo.Y) && isD(bo.X)
+		case down && bo.Op == token.SUB:
+			ok = self(bo.X) && isD(bo.Y)
+		}
+	}
+	if !ok {
+		return c01RoleNone
+	}
+	if rf.updStore == nil {
+		rf.updStore = map[*ssa.Alloc]*ssa.Store{}
+	}
+	rf.updStore[al] = us
+	if down {
+		return c01RoleLeftCell
+	}
+	return c01RoleSentCell
+}
+
 // roleOfCell classifies an integer variable that lives in memory (captured by
 // a literal) by the stores to it.
 func (rf *c01Refill) roleOfCell(al *ssa.Alloc) int {
@@ -3689,6 +5766,11 @@ func (rf *c01Refill) roleOfCell(al *ssa.Alloc) int {
 	pt, ok := al.Type().Underlying().(*types.Pointer)
 	if !ok || !c01IsBasic(pt.Elem(), types.Int) || !plainVariable(al) {
 		return c01RoleNone
+	}
+	if rf.round != nil {
+		role := rf.roundRoleOfCell(al)
+		rf.celRole[al] = role
+		return role
 	}
 	self := func(o ssa.Value) bool {
 		u, ok := o.(*ssa.UnOp)
@@ -3763,6 +5845,23 @@ func (w *c01World) String() string {
 // when tells whether a load of a variable of the round reads its value from
 // before the receive loop (0), from after it (1), or at an unknown time (-1).
 func (rf *c01Refill) when(ld *ssa.UnOp, w *c01World) int {
+	if rf.round != nil && ld.Parent() == rf.fn {
+		// the receive loop is a helper call: a counter cell holds its round-start value up to the single store
+		// that adds the round's sends, and the updated value after it
+		if cell, ok := varOf(ld.X); ok {
+			if al, isAl := cell.(*ssa.Alloc); isAl {
+				if us := rf.updStore[al]; us != nil {
+					switch {
+					case Precedes(us, ld):
+						return 1
+					case !w.post || Precedes(ld, us) || rf.pre[ld.Block()] && !rf.post[ld.Block()]:
+						return 0
+					}
+					return -1
+				}
+			}
+		}
+	}
 	if rf.lit != nil && ld.Parent() == rf.lit {
 		// arguments of the sub-enumeration call are evaluated before it can deliver anything
 		ci := fcInstr(rf.fc)
@@ -3857,6 +5956,21 @@ func (rf *c01Refill) evalInt(v ssa.Value, w *c01World, depth int) (int64, bool) 
 	}
 	if rf.limitLike(v, 0) {
 		return w.L, true
+	}
+	if role, plus := rf.roleOfResult(v); role != c01ResNone {
+		switch role {
+		case c01ResSeen:
+			return w.S, w.post
+		case c01ResSent:
+			return w.D, w.post
+		case c01ResSentPlus:
+			// the argument is evaluated before the call: the counter as it was when the round started
+			pre := *w
+			pre.post = false
+			n, ok := rf.evalInt(plus, &pre, depth+1)
+			return n + w.D, ok && w.post
+		}
+		return 0, false
 	}
 	switch x := v.(type) {
 	case *ssa.Const:
@@ -4009,6 +6123,12 @@ func (rf *c01Refill) evalBool(v ssa.Value, w *c01World, depth int) (val, known b
 	case *ssa.Call:
 		// last.Valid(), last being zero at the start of the round and overwritten by every received ref
 		f := x.Call.StaticCallee()
+		if w.post && rf.round != nil && f != nil && funcIs(f, "perkeep.org/pkg/blob", "Ref", "Valid") && len(x.Call.Args) == 1 {
+			if role, _ := rf.roleOfResult(originValue(x.Call.Args[0])); role == c01ResLastRef {
+				return w.S >= 1, true // the helper's own variable starts at its zero value in every call
+			}
+			return false, false
+		}
 		if w.post && f != nil && funcIs(f, "perkeep.org/pkg/blob", "Ref", "Valid") && len(x.Call.Args) == 1 {
 			if ok, und := rf.lastAtExit(x.Call.Args[0], rf.elemProj, true); ok && !und {
 				return w.S >= 1, true
@@ -4150,6 +6270,18 @@ func (rf *c01Refill) lastAtExit(v ssa.Value, perIter func(ssa.Value) bool, zeroe
 // lastRefText: after the receive loop, v is Ref.String() of the last element received.
 func (rf *c01Refill) lastRefText(v ssa.Value) (ok, undecided bool) {
 	und := false
+	if rf.round != nil {
+		if role, _ := rf.roleOfResult(originValue(v)); role == c01ResLastText {
+			return true, false
+		}
+		if c01RefString(v, func(arg ssa.Value) bool {
+			role, _ := rf.roleOfResult(originValue(arg))
+			return role == c01ResLastRef
+		}) {
+			return true, false
+		}
+		return false, false
+	}
 	// String() of the last received ref
 	if c01RefString(v, func(arg ssa.Value) bool {
 		ok, u := rf.lastAtExit(arg, rf.elemProj, false)
@@ -4423,7 +6555,11 @@ func (rf *c01Refill) decide() *c01RefillVerdict {
 					w2 := newWorld(L, C0)
 					w2.R, w2.S, w2.D, w2.post = R, S, D, true
 					for _, e := range rf.exits {
-						rf.walk(w2, e, rf.I.head, nil, 0,
+						from := rf.I.head
+						if rf.round != nil {
+							from = nil // the call's own block: evaluate its terminator with the round's results known
+						}
+						rf.walk(w2, e, from, nil, 0,
 							func(ret *ssa.Return, facts []CondFact) {
 								vd.exitsSeen++
 								if !rf.mayReturnNil(ret, facts) {
@@ -6079,9 +8215,9 @@ func c01RuleSubFetch(p *Program, r *Reporter) {
 		}
 	}
 	r.Analysed("subfetch_implementers", impls)
-	r.Floor(ruleB, 10)
-	r.Floor(ruleN, 7)
-	r.Floor(ruleF, 5)
+	r.Floor(ruleB, 8) // 10 today: two reader-building sites merged into one (diskpacked.fetch's two modes) is a legal refactoring
+	r.Floor(ruleN, 6) // 7 today
+	r.Floor(ruleF, 4) // 5 today
 }
 
 func c01SubUniq(s []string) []string {
@@ -7656,6 +9792,543 @@ func c01RuleRefs(p *Program, r *Reporter) {
 		r.Note("R-refs-intact: callers of %s that rely on the list staying intact: concurrently %v; afterwards %v; passing a prefix of a longer list %v", m, w.concurrent[m], w.reuse[m], w.prefix[m])
 	}
 	r.Analysed("ref_list_obligations", nI+nC)
-	r.Floor(ruleI, 48) // 51 today: 23 RemoveBlobs + 26 StatBlobs methods, StatBlobsParallelHelper, batchedShards
-	r.Floor(ruleC, 26) // 27 today: 12 + 13 methods of the C01 back ends (+ index), and the two helpers
+	r.Floor(ruleI, 45) // 51 today: 23 RemoveBlobs + 26 StatBlobs methods, StatBlobsParallelHelper, batchedShards
+	r.Floor(ruleC, 24) // 27 today: 12 + 13 methods of the C01 back ends (+ index), and the two helpers
+}
+
+// ===========================================================================
+// Effective bodies (robustness to helper extraction, function splitting and
+// closure -> named function / method).
+//
+// A rule that looks for a site (call, store, send, comparison) "in function F"
+// looks in F's effective body: F, its function literals and, transitively
+// (c01EffDepth levels), the unexported functions and methods of F's package
+// and the literals that F calls statically. Values are related across the
+// boundary: a parameter of a helper stands for the argument at the helper's
+// call sites inside the body, a helper call's result for the operands of the
+// helper's returns.
+
+const c01EffDepth = 4
+
+type c01Eff struct {
+	root  *ssa.Function
+	fns   []*ssa.Function
+	in    map[*ssa.Function]bool
+	calls map[*ssa.Function][]CallSite // call/go/defer sites inside the body, per helper callee
+	// rootCalls: for the body of a function of EnumerateBlobs shape that enumerators hand dest to (an instance of its
+	// own): the calls that do so, each with the body it lies in. Set by c01Instances.
+	rootCalls []c01RootCall
+}
+
+type c01RootCall struct {
+	c  CallSite
+	in *c01Eff
+}
+
+var c01EffCache = map[*ssa.Function]*c01Eff{}
+
+// c01IsHelperOf: g is a function literal, or an unexported function/method of
+// root's package, with source.
+func c01IsHelperOf(root, g *ssa.Function) bool {
+	if g == nil || g.Blocks == nil || g == root {
+		return false
+	}
+	if g.Parent() != nil {
+		return true
+	}
+	if g.Pkg == nil || root.Pkg == nil || g.Pkg != root.Pkg {
+		return false
+	}
+	return !token.IsExported(g.Name())
+}
+
+func c01EffOf(root *ssa.Function) *c01Eff {
+	if e, ok := c01EffCache[root]; ok {
+		return e
+	}
+	e := &c01Eff{root: root, in: map[*ssa.Function]bool{}, calls: map[*ssa.Function][]CallSite{}}
+	var add func(f *ssa.Function, d int)
+	add = func(f *ssa.Function, d int) {
+		if e.in[f] {
+			return
+		}
+		e.in[f] = true
+		e.fns = append(e.fns, f)
+		for _, a := range f.AnonFuncs {
+			add(a, d)
+		}
+		for _, c := range CallsIn(f, false) {
+			g := c.Callee()
+			if !c01IsHelperOf(TopFunc(root), g) {
+				continue
+			}
+			e.calls[g] = append(e.calls[g], c)
+			if d < c01EffDepth {
+				add(g, d+1)
+			}
+		}
+	}
+	add(root, 0)
+	c01EffCache[root] = e
+	return e
+}
+
+func c01ParamIndex(g *ssa.Function, prm *ssa.Parameter) int {
+	for i, q := range g.Params {
+		if q == prm {
+			return i
+		}
+	}
+	return -1
+}
+
+// helperCallee: the callee of call when it is a helper inside the body.
+func (e *c01Eff) helperCallee(call ssa.CallInstruction) *ssa.Function {
+	g := (CallSite{call.Parent(), call}).Callee()
+	if g == nil || g == e.root || !e.in[g] || g.Blocks == nil {
+		return nil
+	}
+	return g
+}
+
+// allCalls lists every call/go/defer of the body.
+func (e *c01Eff) allCalls() []CallSite {
+	var out []CallSite
+	for _, f := range e.fns {
+		out = append(out, CallsIn(f, false)...)
+	}
+	return out
+}
+
+// origins resolves v to the values it stands for in the body.
+func (e *c01Eff) origins(v ssa.Value) []ssa.Value {
+	var out []ssa.Value
+	seen := map[ssa.Value]bool{}
+	var walk func(v ssa.Value, d int)
+	walk = func(v ssa.Value, d int) {
+		o := originValue(v)
+		if o == nil || seen[o] {
+			return
+		}
+		seen[o] = true
+		if d < 10 {
+			switch x := o.(type) {
+			case *ssa.Parameter:
+				g := x.Parent()
+				i := c01ParamIndex(g, x)
+				if g != e.root && e.in[g] && len(e.calls[g]) > 0 && i >= 0 {
+					ok := true
+					for _, c := range e.calls[g] {
+						if i >= len(c.Args()) {
+							ok = false
+						}
+					}
+					if ok {
+						for _, c := range e.calls[g] {
+							walk(c.Args()[i], d+1)
+						}
+						return
+					}
+				}
+			case *ssa.Extract:
+				if call, ok := x.Tuple.(*ssa.Call); ok {
+					if g := e.helperCallee(call); g != nil {
+						rets := Returns(g)
+						if len(rets) > 0 {
+							for _, ri := range rets {
+								if x.Index < len(ri.Results) {
+									walk(ri.Results[x.Index], d+1)
+								}
+							}
+							return
+						}
+					}
+				}
+			case *ssa.Call:
+				if g := e.helperCallee(x); g != nil && g.Signature.Results().Len() == 1 {
+					rets := Returns(g)
+					if len(rets) > 0 {
+						for _, ri := range rets {
+							walk(ri.Results[0], d+1)
+						}
+						return
+					}
+				}
+			}
+		}
+		out = append(out, o)
+	}
+	walk(v, 0)
+	return out
+}
+
+// origin: the unique value v stands for, nil when ambiguous.
+func (e *c01Eff) origin(v ssa.Value) ssa.Value {
+	os := e.origins(v)
+	if len(os) == 1 {
+		return os[0]
+	}
+	return nil
+}
+
+// same: a and b denote the same run-time value, across helper boundaries.
+func (e *c01Eff) same(a, b ssa.Value) bool {
+	if a == nil || b == nil {
+		return false
+	}
+	if sameOrigin(a, b) {
+		return true
+	}
+	oa, ob := e.origin(a), e.origin(b)
+	return oa != nil && ob != nil && sameOrigin(oa, ob)
+}
+
+// sameThing: a and b denote (parts of) the same value, across helper boundaries.
+func (e *c01Eff) sameThing(a, b ssa.Value) bool {
+	if c01SameThing(a, b) {
+		return true
+	}
+	root := func(v ssa.Value) ssa.Value {
+		for i := 0; i < 6; i++ {
+			o := e.origin(v)
+			if o == nil {
+				return nil
+			}
+			b := c01Base(o)
+			if b == o {
+				if al, ok := o.(*ssa.Alloc); ok {
+					// a variable assigned once: the thing it holds
+					if sts := storesTo(al); len(sts) == 1 {
+						v = sts[0].Val
+						continue
+					}
+				}
+				return o
+			}
+			v = b
+		}
+		return nil
+	}
+	ra, rb := root(a), root(b)
+	return ra != nil && ra == rb
+}
+
+// depends is DependsOn/c01Depends across helper boundaries: a helper's
+// parameter depends on the arguments of the helper's calls inside the body, a
+// helper call's result on the operands of the helper's returns (not on the
+// call's arguments as such).
+func (e *c01Eff) depends(v ssa.Value, target func(ssa.Value) bool) bool {
+	seen := map[ssa.Value]bool{}
+	var walk func(v ssa.Value, depth int) bool
+	walk = func(v ssa.Value, depth int) bool {
+		if v == nil || seen[v] || depth > 90 {
+			return false
+		}
+		seen[v] = true
+		if target(v) {
+			return true
+		}
+		switch x := v.(type) {
+		case *ssa.Parameter:
+			g := x.Parent()
+			if g != e.root && e.in[g] {
+				i := c01ParamIndex(g, x)
+				for _, c := range e.calls[g] {
+					if a := c.Args(); i >= 0 && i < len(a) && walk(a[i], depth+1) {
+						return true
+					}
+				}
+			}
+			return false
+		case *ssa.Call:
+			if g := e.helperCallee(x); g != nil {
+				for _, ri := range Returns(g) {
+					for _, rv := range ri.Results {
+						if walk(rv, depth+1) {
+							return true
+						}
+					}
+				}
+				// the literal's captured variables are reached through its loads
+				return false
+			}
+		case *ssa.Extract:
+			if call, ok := x.Tuple.(*ssa.Call); ok {
+				if g := e.helperCallee(call); g != nil {
+					if target(call) {
+						return true
+					}
+					for _, ri := range Returns(g) {
+						if x.Index < len(ri.Results) && walk(ri.Results[x.Index], depth+1) {
+							return true
+						}
+					}
+					return false
+				}
+			}
+		case *ssa.UnOp:
+			if x.Op == token.MUL {
+				// a field read of a local aggregate (`head := f(); head.Ref`): what was stored into the aggregate as a whole
+				if fa, isFA := x.X.(*ssa.FieldAddr); isFA {
+					base := ssa.Value(fa)
+					for i := 0; i < 6; i++ {
+						f2, ok := base.(*ssa.FieldAddr)
+						if !ok {
+							break
+						}
+						base = f2.X
+					}
+					if cell, ok := varOf(base); ok {
+						for _, st := range storesTo(cell) {
+							if walk(st.Val, depth+1) {
+								return true
+							}
+						}
+					}
+				}
+				if cell, ok := varOf(x.X); ok {
+					if cell != x.X && target(cell) {
+						return true
+					}
+					for _, st := range storesTo(cell) {
+						if walk(st.Val, depth+1) {
+							return true
+						}
+					}
+					if al, isAl := cell.(*ssa.Alloc); isAl && al.Referrers() != nil {
+						for _, ref := range *al.Referrers() {
+							fa, ok := ref.(*ssa.FieldAddr)
+							if !ok || fa.Referrers() == nil {
+								continue
+							}
+							for _, r2 := range *fa.Referrers() {
+								if st, ok := r2.(*ssa.Store); ok && st.Addr == ssa.Value(fa) && walk(st.Val, depth+1) {
+									return true
+								}
+							}
+						}
+					}
+				}
+			}
+		case *ssa.Slice:
+			if arr, ok := x.X.(*ssa.Alloc); ok && arr.Referrers() != nil {
+				for _, ref := range *arr.Referrers() {
+					ia, ok := ref.(*ssa.IndexAddr)
+					if !ok || ia.Referrers() == nil {
+						continue
+					}
+					for _, r2 := range *ia.Referrers() {
+						if st, ok := r2.(*ssa.Store); ok && st.Addr == ssa.Value(ia) && walk(st.Val, depth+1) {
+							return true
+						}
+					}
+				}
+			}
+		}
+		if in, ok := v.(ssa.Instruction); ok {
+			for _, op := range in.Operands(nil) {
+				if *op != nil && walk(*op, depth+1) {
+					return true
+				}
+			}
+		}
+		return false
+	}
+	return walk(v, 0)
+}
+
+// chain: in, the call of in's function, the call of that call's function, ...
+// as long as the enclosing helper has exactly one (non-go) call site in the body.
+func (e *c01Eff) chain(in ssa.Instruction) []ssa.Instruction {
+	out := []ssa.Instruction{in}
+	for i := 0; i < c01EffDepth+2; i++ {
+		g := in.Parent()
+		if g == e.root {
+			break
+		}
+		cs := e.calls[g]
+		if len(cs) != 1 || cs[0].IsGo() {
+			break
+		}
+		in = cs[0].Instr.(ssa.Instruction)
+		out = append(out, in)
+	}
+	return out
+}
+
+// liftPair lifts a and b along their call chains to two instructions of one function.
+func (e *c01Eff) liftPair(a, b ssa.Instruction) (ssa.Instruction, ssa.Instruction, bool) {
+	ca, cb := e.chain(a), e.chain(b)
+	for _, x := range ca {
+		for _, y := range cb {
+			if x.Parent() == y.Parent() {
+				return x, y, true
+			}
+		}
+	}
+	return nil, nil, false
+}
+
+// c01BoolHelper: the in-module helper (unexported function/method of the same
+// package, or a literal) with a single bool result that call invokes, or nil.
+func c01BoolHelper(call *ssa.Call) *ssa.Function {
+	h := (CallSite{call.Parent(), call}).Callee()
+	if h == nil || h.Blocks == nil || !c01IsHelperOf(TopFunc(call.Parent()), h) {
+		return nil
+	}
+	res := h.Signature.Results()
+	if res.Len() != 1 || !c01IsBasic(res.At(0).Type(), types.Bool) {
+		return nil
+	}
+	return h
+}
+
+// c01ReturnWays: the ways in which bool helper h can return want, each as the
+// list of branch facts (and the returned condition itself) that hold then.
+func c01ReturnWays(h *ssa.Function, want bool) [][]CondFact {
+	var ways [][]CondFact
+	var expand func(v ssa.Value, from, to *ssa.BasicBlock, depth int)
+	expand = func(v ssa.Value, from, to *ssa.BasicBlock, depth int) {
+		if c, ok := v.(*ssa.Const); ok && c.Value != nil {
+			if (c.Value.String() == "true") == want {
+				ways = append(ways, c01EdgeFacts(from, to))
+			}
+			return
+		}
+		if ph, ok := v.(*ssa.Phi); ok && depth < 6 {
+			for i, ev := range ph.Edges {
+				expand(ev, ph.Block().Preds[i], ph.Block(), depth+1)
+			}
+			return
+		}
+		val := want
+		for {
+			u, isNot := v.(*ssa.UnOp)
+			if !isNot || u.Op != token.NOT {
+				break
+			}
+			v, val = u.X, !val
+		}
+		fs := append([]CondFact(nil), c01EdgeFacts(from, to)...)
+		fs = append(fs, CondFact{v, val, to})
+		ways = append(ways, fs)
+	}
+	for _, ri := range Returns(h) {
+		if len(ri.Results) == 1 {
+			expand(ri.Results[0], nil, ri.Ret.Block(), 0)
+		}
+	}
+	return ways
+}
+
+// c01ReturnFacts: the facts common to every way in which h returns want.
+func c01ReturnFacts(h *ssa.Function, want bool) []CondFact {
+	ways := c01ReturnWays(h, want)
+	if len(ways) == 0 {
+		return nil
+	}
+	var out []CondFact
+	for _, f := range ways[0] {
+		all := true
+		for _, w := range ways[1:] {
+			found := false
+			for _, g := range w {
+				if g.Cond == f.Cond && g.Val == f.Val {
+					found = true
+				}
+			}
+			if !found {
+				all = false
+			}
+		}
+		if all {
+			out = append(out, f)
+		}
+	}
+	return out
+}
+
+// factsAt: the branch facts known at entry of blk - those of its own function,
+// those at the (single) call site of a helper, and the facts implied by a
+// bool helper having returned the value the branch was taken on.
+func (e *c01Eff) factsAt(blk *ssa.BasicBlock) []CondFact {
+	var out []CondFact
+	seenFn := map[*ssa.Function]bool{}
+	for b := blk; b != nil; {
+		out = append(out, FactsAt(b)...)
+		g := b.Parent()
+		seenFn[g] = true
+		cs := e.calls[g]
+		if g == e.root || len(cs) != 1 || cs[0].IsGo() || cs[0].IsDefer() {
+			break
+		}
+		b = cs[0].Block()
+		if seenFn[b.Parent()] {
+			break
+		}
+	}
+	for i := 0; i < len(out) && i < 64; i++ {
+		cond, val := out[i].Cond, out[i].Val
+		for {
+			u, isNot := cond.(*ssa.UnOp)
+			if !isNot || u.Op != token.NOT {
+				break
+			}
+			cond, val = u.X, !val
+		}
+		if call, ok := originValue(cond).(*ssa.Call); ok {
+			if h := c01BoolHelper(call); h != nil {
+				out = append(out, c01ReturnFacts(h, val)...)
+			}
+		}
+	}
+	return out
+}
+
+// c01Place names a storage location across helper boundaries: a variable, or
+// a field path below a variable / allocation.
+type c01Place struct {
+	base ssa.Value
+	path string
+}
+
+func (e *c01Eff) placeOf(addr ssa.Value) (c01Place, bool) {
+	path := ""
+	for i := 0; i < 8; i++ {
+		fa, ok := addr.(*ssa.FieldAddr)
+		if !ok {
+			break
+		}
+		path = fmt.Sprintf(".%d", fa.Field) + path
+		addr = fa.X
+	}
+	if cell, ok := varOf(addr); ok {
+		if _, isFV := cell.(*ssa.FreeVar); !isFV {
+			return c01Place{cell, path}, true
+		}
+	}
+	if o := e.origin(addr); o != nil {
+		switch o.(type) {
+		case *ssa.Alloc, *ssa.Global:
+			return c01Place{o, path}, true
+		}
+	}
+	return c01Place{}, false
+}
+
+// storesToPlace lists the stores of the body that write the place.
+func (e *c01Eff) storesToPlace(pl c01Place) []*ssa.Store {
+	var out []*ssa.Store
+	for _, f := range e.fns {
+		for _, b := range f.Blocks {
+			for _, in := range b.Instrs {
+				if st, ok := in.(*ssa.Store); ok {
+					if q, ok := e.placeOf(st.Addr); ok && q == pl {
+						out = append(out, st)
+					}
+				}
+			}
+		}
+	}
+	return out
 }
